@@ -4,12 +4,15 @@ Decides the protocol *skeleton* every interleaving relies on; interleavings them
 from __future__ import annotations
 
 import ast
+import collections
+import itertools
+import math
 
 from sa import minieval as _me
 from sa import pat as _pat
 from sa import source
 from sa.cfg import cfg_of, guards
-from sa.classes import ActorModel, is_failure_send, is_logging_stmt
+from sa.classes import ActorModel, is_failure_send, is_logging_call, is_logging_stmt
 from sa.source import AnchorMissing, dotted, inline, is_self_attr, last_attr, local_defs, package_calls, params_of, short, u, walk_body
 from sa.sym import parse_expr, rat_equal
 
@@ -25,8 +28,15 @@ def _has_jump(loop):
 
 
 def _call_fact(node, name, positive, stop=None):
-    """a guard fact of node (polarity-insensitive: negations pushed in, conjunctions split) is the call `<x>.name(...)` (positive) / its negation."""
+    """a guard fact of node (polarity-insensitive: negations pushed in, conjunctions split) is the call `<x>.name(...)` (positive) / its negation; the result of the call may have
+    been stored in a single-assignment local first (`done = self.finished()` ... `if done:`)."""
+    fn = source.enclosing_func(node)
+    held = {k for k, v in (local_defs(fn).items() if fn is not None else []) if isinstance(v, ast.Call) and last_attr(v.func) == name}
     for f in _pat.fact_nodes(node, stop=stop):
+        if isinstance(f, ast.Name) and f.id in held and positive:
+            return True
+        if isinstance(f, ast.UnaryOp) and isinstance(f.op, ast.Not) and isinstance(f.operand, ast.Name) and f.operand.id in held and not positive:
+            return True
         if not positive and isinstance(f, ast.UnaryOp) and isinstance(f.op, ast.Not):
             f = f.operand
         elif not positive:
@@ -43,65 +53,124 @@ def _is_not(f, pred):
 def complete_read_exemption_rule(chk, rid, drv):
     """AsyncExecutor.__call__: the shared complete event may end the request loop only for a task that does NOT itself complete its parent — several clients of the completing task
     share the worker's event and the first of them to finish sets it; its siblings must go on until their own runner / iteration count is done. Shared with C05 (each client executes
-    exactly warm-up + measurement iterations)."""
+    exactly warm-up + measurement iterations). Reads of the event are recognised through single-assignment locals (`poll = self.complete.is_set` hoisted out of the loop,
+    `done = self.complete`), the event attribute itself is located by data flow (the threading.Event the worker sets in its CompleteCurrentTask handler and hands down)."""
     from sa import pat as _pat
     ex_call = drv.methods(drv.cls("AsyncExecutor")).get("__call__")
     if ex_call is None:
         raise AnchorMissing("AsyncExecutor.__call__")
     edefs = local_defs(ex_call)
-    xloops = [n for n in walk_body(ex_call) if isinstance(n, (ast.AsyncFor, ast.For, ast.While))]
+    xloops = [n for n in walk_body(ex_call) if isinstance(n, ast.AsyncFor)] or [n for n in walk_body(ex_call) if isinstance(n, (ast.For, ast.While))]
     if not xloops:
         raise AnchorMissing("request loop in AsyncExecutor.__call__")
     XL = xloops[0]
+    try:
+        revs = request_events(drv.repo, drv)
+        done = [a for a, (_, setters) in revs.items() if "receiveMsg_CompleteCurrentTask" in setters]
+    except AnchorMissing:
+        done = []
+    done = done[0] if len(done) == 1 else "complete"
 
     def _reads_complete(e):
-        return any(isinstance(x, ast.Call) and u(x.func) == "self.complete.is_set" for x in ast.walk(e))
+        return any(isinstance(x, ast.Call) and u(x.func) == f"self.{done}.is_set" for x in ast.walk(source.inline_node(e, edefs)))
 
     def _exempt(node):
         return any(inline(f_, edefs) in ("not self.task.completes_parent",) for f_ in _pat.fact_nodes(node, stop=XL))
 
+    # the polls of the event inside the loop (the callee may be a hoisted bound method) and, per exit of the loop, the polls that control it: directly in a condition on the
+    # way to the exit, or through a local of the loop that such a condition reads
+    polls = [c for c in ast.walk(XL) if isinstance(c, ast.Call) and not c.args and inline(c.func, edefs) == f"self.{done}.is_set"]
     exits = [n for n in ast.walk(XL) if isinstance(n, (ast.Break, ast.Return)) and source.enclosing(n, (ast.AsyncFor, ast.For, ast.While)) is XL]
     n_ctl = 0
     for ex_ in exits:
+        ctl = []
         for t, pol in guards(ex_, stop=XL, path_sensitive=True):
-            sites = []
-            if _reads_complete(t):
-                sites.append(source.enclosing_stmt(t))
-            for nm in {x.id for x in ast.walk(t) if isinstance(x, ast.Name)}:
-                for a_ in ast.walk(XL):
-                    if isinstance(a_, ast.Assign) and any(isinstance(tg, ast.Name) and tg.id == nm for tg in a_.targets) and _reads_complete(a_.value):
-                        sites.append(a_)
-            for st_ in sites:
-                n_ctl += 1
-                ok = _exempt(st_)
-                chk.ob(rid, "executor: the complete event ends the loop only when the task does not complete its parent itself", ok, st_,
-                       f"`{short(st_, 70)}` controls `{type(ex_).__name__.lower()}` at line {ex_.lineno}" + ("" if ok else " for every task, including the completing task's own clients"),
-                       key=f"{_D}:AsyncExecutor.__call__:complete-read:{short(st_, 60)}")
+            names = {x.id for x in ast.walk(t) if isinstance(x, ast.Name)}
+            for _ in range(2):  # locals computed from locals (one further hop)
+                names |= {x.id for a_ in ast.walk(XL) if isinstance(a_, ast.Assign) and any(isinstance(tg, ast.Name) and tg.id in names for tg in a_.targets)
+                          for x in ast.walk(a_.value) if isinstance(x, ast.Name)}
+            for r_ in polls:
+                st_ = source.enclosing_stmt(r_)
+                direct = any(r_ is x for x in ast.walk(t))
+                via = isinstance(st_, ast.Assign) and any(isinstance(tg, ast.Name) and tg.id in names for tg in st_.targets)
+                if (direct or via) and not any(r_ is x for x in ctl):
+                    ctl.append(r_)
+        for r_ in ctl:
+            st_ = source.enclosing_stmt(r_)
+            n_ctl += 1
+            ok = _exempt(r_)
+            chk.ob(rid, "executor: the complete event ends the loop only when the task does not complete its parent itself", ok, st_,
+                   f"`{short(st_, 70)}` controls `{type(ex_).__name__.lower()}` at line {ex_.lineno}" + ("" if ok else " for every task, including the completing task's own clients"),
+                   key=f"{_D}:AsyncExecutor.__call__:complete-read:{short(st_, 60)}")
     if n_ctl == 0:
-        chk.ob(rid, "executor: the request loop of a non-completing task ends on the complete event", False, XL, "no loop exit depends on complete.is_set(): completed-by never ends the other tasks",
-               key=f"{_D}:AsyncExecutor.__call__:complete-read:none")
+        polled = [n for n in walk_body(ex_call) if isinstance(n, ast.expr) and not isinstance(n, (ast.Name, ast.Attribute, ast.Constant)) and _reads_complete(n)] + \
+                 [n for n in walk_body(ex_call) if is_self_attr(n, done) and isinstance(n.ctx, ast.Load) and not (isinstance(source.parent(n), ast.Attribute) and source.parent(n).attr in ("set", "clear"))]
+        if polled:
+            chk.unknown(rid, f"executor: self.{done} is read in AsyncExecutor.__call__ but no exit of the request loop could be connected to it (shape not recognised)", polled[0])
+        else:
+            chk.ob(rid, "executor: the request loop of a non-completing task ends on the complete event", False, XL, "no loop exit depends on complete.is_set(): completed-by never ends the other tasks",
+                   key=f"{_D}:AsyncExecutor.__call__:complete-read:none")
 
 
 def executor_wiring(chk, rid, drv):
     """AsyncIoAdapter.run hands each executor the client id of ITS row pair (not the allocation's logical slot) and the worker's shared sampler — shared with C04 / C07:
-    samples are filed under the id given here."""
+    samples are filed under the id given here. Roles by data flow: the loop is the one around the AsyncExecutor(...) construction, the client id is the first element it unpacks,
+    the sampler argument is followed back (adapter attribute <- adapter constructor parameter <- Worker's construction of the adapter) to the worker attribute that holds Sampler(...)."""
+    repo = drv.repo
     AD = drv.cls("AsyncIoAdapter")
     arun = drv.methods(AD).get("run")
-    al = [n for n in walk_body(arun) if isinstance(n, ast.For) and is_self_attr(n.iter, "task_allocations")] if arun is not None else []
-    if not al or not isinstance(al[0].target, ast.Tuple):
-        raise AnchorMissing("`for client_id, task_allocation in self.task_allocations` in AsyncIoAdapter.run")
-    cidv = al[0].target.elts[0].id
-    exs = [n for n in ast.walk(al[0]) if isinstance(n, ast.Call) and last_attr(n.func) == "AsyncExecutor"]
+    einit = drv.methods(drv.cls("AsyncExecutor")).get("__init__")
+    ainit = drv.methods(AD).get("__init__")
+    if arun is None or einit is None or ainit is None:
+        raise AnchorMissing("AsyncIoAdapter.run / AsyncIoAdapter.__init__ / AsyncExecutor.__init__")
+    exs = [n for n in walk_body(arun) if isinstance(n, ast.Call) and last_attr(n.func) == "AsyncExecutor"]
     if not exs:
         raise AnchorMissing("AsyncExecutor(...) in AsyncIoAdapter.run")
-    einit = drv.methods(drv.cls("AsyncExecutor")).get("__init__")
+    loop = source.enclosing(exs[0], (ast.For, ast.While, ast.ListComp, ast.GeneratorExp, ast.SetComp, ast.DictComp))
+    if not isinstance(loop, ast.For) or not isinstance(loop.target, ast.Tuple) or not loop.target.elts or not isinstance(loop.target.elts[0], ast.Name):
+        raise AnchorMissing("`for client_id, task_allocation in <the adapter's allocations>` around AsyncExecutor(...) in AsyncIoAdapter.run")
+    cidv = loop.target.elts[0].id
+    ldefs = {n.targets[0].id: n.value for n in ast.walk(loop) if isinstance(n, ast.Assign) and len(n.targets) == 1 and isinstance(n.targets[0], ast.Name)}
+    ldefs = {k: v for k, v in ldefs.items() if sum(1 for n in ast.walk(loop) if isinstance(n, ast.Name) and n.id == k and isinstance(n.ctx, ast.Store)) == 1}
     b = source.bind_args(exs[0], einit)
     ep = [p for p in params_of(einit) if p != "self"]
-    ok = u(b.get(ep[0])) == cidv and u(b.get("sampler")) == "self.sampler"
-    chk.ob(rid, "executor is created with the client id of its row pair and the worker's sampler", ok, exs[0], f"{ep[0]}={u(b.get(ep[0]))} sampler={u(b.get('sampler'))}",
-           key="esrally/driver/driver.py:AsyncIoAdapter.run:executor-client-id")
-    st = [n for n in walk_body(einit) if isinstance(n, ast.Assign) and is_self_attr(n.targets[0]) and u(n.value) == ep[0]]
-    chk.ob(rid, "executor keeps the id it was given", len(st) == 1 and st[0].targets[0].attr == ep[0], st[0] if st else einit, "", key="esrally/driver/driver.py:AsyncExecutor.__init__:client-id")
+    # the executor parameter that becomes the container the samples are added to: stored as self.<attr>, and self.<attr>.add(...) is called (possibly through a hoisted bound method)
+    ex_attr = _attr_from_param(einit)
+    ex_call = drv.methods(drv.cls("AsyncExecutor")).get("__call__")
+    xdefs = local_defs(ex_call) if ex_call is not None else {}
+    adders = {inline(c.func, xdefs) for c in (source.calls_in(ex_call) if ex_call is not None else [])}
+    sp = sorted({p_ for a_, p_ in ex_attr.items() if f"self.{a_}.add" in adders})
+    sp = sp[0] if len(sp) == 1 else ("sampler" if "sampler" in ep else None)
+    ad_from = _attr_from_param(ainit)
+    sites = [c for c in _calls_named(repo, drv, "AsyncIoAdapter") if source.enclosing_class(c) is not None and source.enclosing_class(c).name == "Worker"]
+    e = source.inline_node(b[sp], ldefs) if sp in b else None
+    q = ad_from.get(e.attr) if e is not None and is_self_attr(e) else None
+    srcs = {a.attr if a is not None and is_self_attr(a) else None for a in (source.bind_args(c, ainit).get(q) for c in sites)} if q and sites else {None}
+    wsrc = srcs.pop() if len(srcs) == 1 else None
+    wcls = drv.cls("Worker")
+    w_sampler = sorted({n.targets[0].attr for m in drv.methods(wcls).values() for n in walk_body(m) if isinstance(n, ast.Assign) and len(n.targets) == 1 and is_self_attr(n.targets[0])
+                        and isinstance(n.value, ast.Call) and last_attr(n.value.func) == "Sampler"})
+    cid_txt = u(source.inline_node(b[ep[0]], ldefs)) if ep and ep[0] in b else None
+    if sp is None or e is None or len(w_sampler) != 1 or (wsrc is None and is_self_attr(e) and q is not None and not sites):
+        chk.unknown(rid, "the sampler argument of AsyncExecutor(...) cannot be followed back to the worker (shape not recognised)", exs[0])
+    else:
+        ok = cid_txt == cidv and wsrc == w_sampler[0]
+        chk.ob(rid, "executor is created with the client id of its row pair and the worker's sampler", ok, exs[0], f"{ep[0]}={cid_txt} {sp}={u(e)} (worker attribute: {wsrc})",
+               key="esrally/driver/driver.py:AsyncIoAdapter.run:executor-client-id")
+    st = [n for n in walk_body(einit) if isinstance(n, ast.Assign) and len(n.targets) == 1 and is_self_attr(n.targets[0]) and u(n.value) == ep[0]]
+    # the id is kept under one attribute, and that attribute is what the executor files its samples under (second argument of the add call) - or, as before, it simply keeps the name
+    ok = len(st) == 1
+    detail = ""
+    sadd = drv.methods(drv.cls("Sampler")).get("add")
+    add_calls = [c for c in (source.calls_in(ex_call) if ex_call is not None else []) if any(inline(c.func, xdefs) == f"self.{a_}.add" for a_ in ex_attr)]
+    if ok and sadd is not None and len(add_calls) == 1:
+        ba = source.bind_args(add_calls[0], sadd)
+        idp = [p_ for p_ in params_of(sadd) if p_ == "client_id"]
+        if idp and idp[0] in ba:
+            filed = inline(ba[idp[0]], xdefs)
+            ok = filed == f"self.{st[0].targets[0].attr}"
+            detail = f"samples are filed under {filed}"
+    chk.ob(rid, "executor keeps the id it was given", ok, st[0] if st else einit, detail, key="esrally/driver/driver.py:AsyncExecutor.__init__:client-id")
 
 
 def _attr_from_param(init):
@@ -114,6 +183,14 @@ def _attr_from_param(init):
     return out
 
 
+def _calls_named(repo, drv, name):
+    """call sites of `name`: package-wide when the package index exists already (C01 builds it anyway), else in the driver module only - the shared rule functions are imported by
+    checks that parse nothing but the driver module, and the classes concerned are constructed there"""
+    if getattr(repo, "_call_index", None) is not None:
+        return package_calls(repo, name)
+    return [n for n in ast.walk(drv.tree) if isinstance(n, ast.Call) and last_attr(n.func) == name]
+
+
 def request_events(repo, drv):
     """Executor attributes that hold one of the worker's REQUEST events: a threading.Event the Worker creates for itself, sets in its own message handlers (a request that reaches the
     worker from outside: cancel, complete) and hands down Worker -> AsyncIoAdapter -> AsyncExecutor. Roles by data flow: constructor argument -> `self.<attr> = <param>`, hop by hop,
@@ -123,16 +200,17 @@ def request_events(repo, drv):
     if einit is None or ainit is None or wm.get("__init__") is None:
         raise AnchorMissing("constructors of AsyncExecutor / AsyncIoAdapter / Worker")
     w_events = {}
+    wv = _class_view(drv, WK, repo)  # a set() extracted into a private helper of a handler counts for that handler
     for n in walk_body(wm["__init__"]):
         if isinstance(n, ast.Assign) and len(n.targets) == 1 and is_self_attr(n.targets[0]) and isinstance(n.value, ast.Call) and last_attr(n.value.func) == "Event":
-            setters = sorted(m.name for m in wm.values() for c in walk_body(m) if isinstance(c, ast.Call) and isinstance(c.func, ast.Attribute) and c.func.attr == "set"
+            setters = sorted(m.name for m in wv.values() for c in walk_body(m) if isinstance(c, ast.Call) and isinstance(c.func, ast.Attribute) and c.func.attr == "set"
                              and is_self_attr(c.func.value, n.targets[0].attr))
             if setters:
                 w_events[n.targets[0].attr] = setters
 
     def hop(ctor_name, init, owner):
         """callee parameter -> the attribute of `owner` passed for it at every construction site (None when sites disagree or pass something else)"""
-        sites = [c for c in package_calls(repo, ctor_name) if isinstance(c.func, (ast.Name, ast.Attribute))]
+        sites = [c for c in _calls_named(repo, drv, ctor_name) if isinstance(c.func, (ast.Name, ast.Attribute))]
         out = {}
         for p in params_of(init):
             vals = set()
@@ -170,6 +248,7 @@ def completing_client_signal_rule(chk, rid, repo, drv):
     ex_call = drv.methods(EX).get("__call__")
     if ex_call is None:
         raise AnchorMissing("AsyncExecutor.__call__")
+    ex_call = _expand(ex_call, repo)  # a completion signal extracted into a private helper of the executor is seen in place
     edefs = local_defs(ex_call)
     revs = request_events(repo, drv)
     # the completion event: the request event that the worker's CompleteCurrentTask handler sets
@@ -220,6 +299,1338 @@ def completing_client_signal_rule(chk, rid, repo, drv):
                True, ex_call, f"none of the {len(sets)} set site(s) of self.{done} is executed in this scenario", key=f"{_D}:AsyncExecutor.__call__:completing-client-sets-shared-event")
 
 
+# ---------------------------------------------------------------------------------------------------------------------------------------------
+# Local helper (not in sa/): a small CONCRETE interpreter for extracted functions on representative model values. minieval.ev evaluates pure expressions only; deciding the
+# allocation matrix "on values" needs statements, loops, mutable lists, helper methods of the same class and constructors. Nothing of the repository is imported or executed:
+# the statements of the analysed functions are walked as syntax trees. Anything outside the interpreted subset raises _Cannot (the rule then reports "not recognised").
+
+
+class _Cannot(Exception):
+    """the construct is outside the interpreted subset / has no representative value: inconclusive, never a verdict"""
+
+
+class _Raised(Exception):
+    """the interpreted code executed a `raise`"""
+
+    def __init__(self, node):
+        super().__init__(short(node, 80))
+        self.node = node
+
+
+class _Opaque:
+    """a value without a representative (logger, clock, configuration ...): it may be stored and passed on; attribute reads and calls on it give another opaque value;
+    anything that needs its VALUE (arithmetic, a branch, an iteration) is _Cannot unless the rule supplied a choice oracle."""
+
+    def __init__(self, what):
+        self.what = what
+
+    def __repr__(self):
+        return f"<?{self.what}>"
+
+
+class _Obj:
+    """model instance: fields set by the interpreted constructor / by the rule; cls = ClassDef node of the analysed source (None for a pure model value)"""
+
+    def __init__(self, cls=None, items=None, **fields):
+        self.cls = cls
+        self.fields = dict(fields)
+        self.items = items  # what iterating the object yields (None: not iterable)
+        self.init_args = {}
+
+    def __repr__(self):
+        return f"<{self.cls.name if self.cls is not None else 'model'} {self.fields.get('_label', '')}>"
+
+
+class _Bound:
+    def __init__(self, obj, fn, cls):
+        self.obj, self.fn, self.cls = obj, fn, cls
+
+
+class _Ret(Exception):
+    def __init__(self, v):
+        self.v = v
+
+
+class _Brk(Exception):
+    pass
+
+
+class _Cont(Exception):
+    pass
+
+
+_BIN = {ast.Add: lambda a, b: a + b, ast.Sub: lambda a, b: a - b, ast.Mult: lambda a, b: a * b, ast.Div: lambda a, b: a / b, ast.FloorDiv: lambda a, b: a // b,
+        ast.Mod: lambda a, b: a % b, ast.Pow: lambda a, b: a ** b, ast.BitOr: lambda a, b: a | b, ast.BitAnd: lambda a, b: a & b, ast.BitXor: lambda a, b: a ^ b}
+_SAFE_BUILTINS = {"range": range, "len": len, "min": min, "max": max, "sum": sum, "enumerate": enumerate, "zip": zip, "list": list, "tuple": tuple, "set": set, "dict": dict,
+                  "frozenset": frozenset, "sorted": sorted, "reversed": reversed, "any": any, "all": all, "abs": abs, "int": int, "float": float, "bool": bool, "str": str,
+                  "divmod": divmod, "round": round, "iter": iter, "next": next, "repr": repr}
+_SAFE_LIB = {"itertools.count": itertools.count, "itertools.chain": itertools.chain, "itertools.repeat": itertools.repeat, "itertools.islice": itertools.islice,
+             "itertools.cycle": itertools.cycle, "itertools.chain.from_iterable": itertools.chain.from_iterable, "math.ceil": math.ceil, "math.floor": math.floor,
+             "collections.defaultdict": collections.defaultdict, "collections.OrderedDict": collections.OrderedDict, "collections.deque": collections.deque}
+_SAFE_METHODS = {list: {"append", "extend", "insert", "pop", "remove", "index", "count", "copy", "clear", "reverse", "sort"},
+                 dict: {"get", "setdefault", "items", "keys", "values", "update", "pop", "copy", "clear"},
+                 set: {"add", "discard", "remove", "update", "copy", "clear", "union", "intersection", "difference", "issubset", "issuperset", "pop"},
+                 frozenset: {"union", "intersection", "difference", "issubset", "issuperset"},
+                 tuple: {"index", "count"}, str: {"join", "format", "startswith", "endswith", "split", "strip", "lower", "upper", "replace"},
+                 collections.deque: {"append", "appendleft", "pop", "popleft", "extend", "clear"}, range: {"index", "count"}}
+_SAFE_METHODS[collections.defaultdict] = _SAFE_METHODS[collections.OrderedDict] = _SAFE_METHODS[dict]
+_PLAIN = (int, float, str, bool, bytes, type(None), list, tuple, dict, set, frozenset, range, collections.deque)
+
+
+class _Machine:
+    """interprets functions of ONE module. hooks:
+         on_new(cls node, obj)           called after a model instance of a class of the module was constructed
+         call_hook(dotted callee, args, kwargs) -> value | NotImplemented     for calls the rule gives a meaning itself (clock reads ...)
+         attr_hook(obj, name) -> value | NotImplemented                     attribute of a model object that no field / property / method provides
+         choose(node) -> bool                                               truth value of an opaque condition (default: _Cannot)"""
+
+    MAX_STEPS = 200000
+
+    def __init__(self, mod, on_new=None, call_hook=None, attr_hook=None, choose=None):
+        self.mod = mod
+        self.on_new, self.call_hook, self.attr_hook, self.choose = on_new, call_hook, attr_hook, choose
+        self.steps = 0
+        self.depth = 0
+        self.classes = {c.name: c for c in mod.tree.body if isinstance(c, ast.ClassDef)}
+        self.functions = {f.name: f for f in mod.tree.body if isinstance(f, source.FUNC_TYPES)}
+        # module-level record types: X = collections.namedtuple("X", [fields]) / namedtuple("X", "a b")
+        self.records = {}
+        for st in mod.tree.body:
+            if isinstance(st, ast.Assign) and len(st.targets) == 1 and isinstance(st.targets[0], ast.Name) and isinstance(st.value, ast.Call) and last_attr(st.value.func) == "namedtuple" \
+                    and len(st.value.args) == 2:
+                try:
+                    fl = ast.literal_eval(st.value.args[1])
+                except ValueError:
+                    continue
+                self.records[st.targets[0].id] = fl.replace(",", " ").split() if isinstance(fl, str) else list(fl)
+
+    # -- classes --------------------------------------------------------------------------------------------------------------------------------
+    def _mro(self, cls):
+        out, todo = [], [cls]
+        while todo:
+            c = todo.pop(0)
+            if c in out:
+                continue
+            out.append(c)
+            todo += [self.classes[last_attr(b)] for b in c.bases if last_attr(b) in self.classes]
+        return out
+
+    def _member(self, cls, name):
+        for c in self._mro(cls):
+            for st in c.body:
+                if isinstance(st, source.FUNC_TYPES) and st.name == name:
+                    return st, c
+        return None, None
+
+    @staticmethod
+    def _decos(fn):
+        return {dotted(d.func if isinstance(d, ast.Call) else d) or "?" for d in fn.decorator_list}
+
+    def new(self, cls, args=(), kwargs=None):
+        obj = _Obj(cls)
+        init, owner = self._member(cls, "__init__")
+        if init is not None:
+            self.call_function(init, [obj] + list(args), kwargs or {}, owner, record=obj)
+        elif {"dataclass", "dataclasses.dataclass"} & {dotted(d.func if isinstance(d, ast.Call) else d) for d in cls.decorator_list}:
+            fl = [st for c in reversed(self._mro(cls)) for st in c.body if isinstance(st, ast.AnnAssign) and isinstance(st.target, ast.Name)]
+            names = [st.target.id for st in fl]
+            kwargs = dict(kwargs or {})
+            if len(args) > len(names) or set(kwargs) - set(names[len(args):]):
+                raise _Cannot(f"arguments of dataclass {cls.name}")
+            vals = dict(zip(names, args), **kwargs)
+            for st in fl:
+                if st.target.id not in vals:
+                    if st.value is None:
+                        raise _Cannot(f"{cls.name}: field {st.target.id} not supplied")
+                    vals[st.target.id] = self.ev(st.value, {})
+            obj.fields.update(vals)
+            obj.init_args = dict(vals)
+        elif args or kwargs:
+            raise _Cannot(f"{cls.name}(...) with arguments but without a constructor in the module")
+        if self.on_new is not None:
+            self.on_new(cls, obj)
+        return obj
+
+    # -- calls ------------------------------------------------------------------------------------------------------------------------------------
+    def call_function(self, fn, args, kwargs, cls=None, record=None):
+        if isinstance(fn, ast.AsyncFunctionDef) or any(isinstance(n, (ast.Yield, ast.YieldFrom)) for n in walk_body(fn)):
+            raise _Cannot(f"{fn.name}: coroutines / generators are not interpreted")
+        a = fn.args
+        names = [x.arg for x in a.posonlyargs + a.args]
+        if len(args) > len(names) and a.vararg is None:
+            raise _Cannot(f"{fn.name}: too many positional arguments")
+        env = dict(zip(names, args))
+        if a.vararg is not None:
+            env[a.vararg.arg] = tuple(args[len(names):])
+        kwonly = [x.arg for x in a.kwonlyargs]
+        extra = {}
+        for k, v in kwargs.items():
+            if k in names and k not in env or k in kwonly:
+                env[k] = v
+            elif a.kwarg is not None:
+                extra[k] = v
+            else:
+                raise _Cannot(f"{fn.name}: unexpected argument {k}")
+        if a.kwarg is not None:
+            env[a.kwarg.arg] = extra
+        dflt = dict(zip(names[len(names) - len(a.defaults):], a.defaults))
+        dflt.update({k: d for k, d in zip(kwonly, a.kw_defaults) if d is not None})
+        for nm in names + kwonly:
+            if nm not in env:
+                if nm not in dflt:
+                    raise _Cannot(f"{fn.name}: argument {nm} not supplied")
+                env[nm] = self.ev(dflt[nm], {})
+        if record is not None:
+            record.init_args = {k: v for k, v in env.items() if k != names[0]} if names else {}
+        env["__class__"] = cls
+        self.depth += 1
+        if self.depth > 40:
+            raise _Cannot("call depth")
+        try:
+            self.block(fn.body, env)
+        except _Ret as r:
+            return r.v
+        finally:
+            self.depth -= 1
+        return None
+
+    def _call(self, e, env):
+        if is_logging_call(e):
+            return None
+        f = e.func
+        # arguments
+        args, kwargs = [], {}
+
+        def eval_args():
+            for x in e.args:
+                if isinstance(x, ast.Starred):
+                    args.extend(self._iter(self.ev(x.value, env), x))
+                else:
+                    args.append(self.ev(x, env))
+            for k in e.keywords:
+                if k.arg is None:
+                    v = self.ev(k.value, env)
+                    if not isinstance(v, dict):
+                        raise _Cannot(f"** of {short(k.value, 40)}")
+                    kwargs.update(v)
+                else:
+                    kwargs[k.arg] = self.ev(k.value, env)
+
+        d = dotted(f)
+        head = d.split(".")[0] if d else None
+        if d is not None and head not in env:
+            if self.call_hook is not None:
+                eval_args()
+                r = self.call_hook(d, args, kwargs)
+                if r is not NotImplemented:
+                    return r
+                args, kwargs = [], {}
+            if d == "super":
+                return _Opaque("super()")  # base classes outside the module are not modelled: their constructor / methods are opaque
+            if d == "isinstance" and len(e.args) == 2:
+                v = self.ev(e.args[0], env)
+                cands = e.args[1].elts if isinstance(e.args[1], ast.Tuple) else [e.args[1]]
+                res = False
+                for c in cands:
+                    cn = dotted(c)
+                    if cn == "type(self)" or cn is None:
+                        raise _Cannot(f"isinstance against {short(c, 40)}")
+                    if cn in self.classes:
+                        res = res or (isinstance(v, _Obj) and v.cls is not None and self.classes[cn] in self._mro(v.cls))
+                    elif cn in _SAFE_BUILTINS and isinstance(_SAFE_BUILTINS[cn], type):
+                        res = res or isinstance(v, _SAFE_BUILTINS[cn])
+                    else:
+                        raise _Cannot(f"isinstance against {cn}")
+                if isinstance(v, _Opaque):
+                    raise _Cannot(f"isinstance of {v!r}")
+                return res
+            if d in _SAFE_BUILTINS and d not in self.functions and d not in self.classes:
+                eval_args()
+                return self._apply(_SAFE_BUILTINS[d], args, kwargs, e)
+            full = (self.mod.imports.get(head, head) + d[len(head):]) if head in self.mod.imports else d
+            if full in _SAFE_LIB:
+                eval_args()
+                return self._apply(_SAFE_LIB[full], args, kwargs, e)
+            if d in self.classes:
+                eval_args()
+                return self.new(self.classes[d], args, kwargs)
+            if d in self.records:
+                eval_args()
+                fl = self.records[d]
+                if len(args) > len(fl) or set(kwargs) - set(fl[len(args):]) or len(args) + len(kwargs) != len(fl):
+                    raise _Cannot(f"arguments of record {d}")
+                vals = dict(zip(fl, args), **kwargs)
+                return _Obj(None, items=lambda o, fl=fl: [o.fields[f] for f in fl], **vals)
+            if d in self.functions:
+                eval_args()
+                return self.call_function(self.functions[d], args, kwargs)
+            if head in self.classes and d.count(".") == 1:  # Class.method(...)
+                fn, owner = self._member(self.classes[head], d.split(".")[1])
+                if fn is not None:
+                    eval_args()
+                    if "staticmethod" in self._decos(fn):
+                        return self.call_function(fn, args, kwargs, owner)
+                    if "classmethod" in self._decos(fn):
+                        return self.call_function(fn, [self.classes[head]] + args, kwargs, owner)
+                    return self.call_function(fn, args, kwargs, owner)
+            eval_args()
+            return _Opaque(f"{d}()")
+        callee = self.ev(f, env)
+        eval_args()
+        return self.apply(callee, args, kwargs, e)
+
+    def apply(self, callee, args, kwargs, e=None):
+        if isinstance(callee, _Bound):
+            decos = self._decos(callee.fn)
+            if "staticmethod" in decos:
+                return self.call_function(callee.fn, args, kwargs, callee.cls)
+            first = callee.obj.cls if "classmethod" in decos and isinstance(callee.obj, _Obj) else callee.obj
+            return self.call_function(callee.fn, [first] + list(args), kwargs, callee.cls)
+        if isinstance(callee, ast.ClassDef):
+            return self.new(callee, args, kwargs)
+        if isinstance(callee, source.FUNC_TYPES):
+            return self.call_function(callee, args, kwargs)
+        if isinstance(callee, ast.Lambda):
+            names = [x.arg for x in callee.args.args]
+            if len(names) != len(args) or kwargs:
+                raise _Cannot("lambda arguments")
+            return self.ev(callee.body, dict(getattr(callee, "_env", {}), **dict(zip(names, args))))
+        if isinstance(callee, _Opaque):
+            return _Opaque(f"{callee.what}()")
+        if callable(callee) and getattr(callee, "__self__", None) is not None and type(callee.__self__) in _SAFE_METHODS \
+                and callee.__name__ in _SAFE_METHODS[type(callee.__self__)]:
+            return self._apply(callee, args, kwargs, e)
+        if callable(callee) and (callee in _SAFE_BUILTINS.values() or callee in _SAFE_LIB.values()):
+            return self._apply(callee, args, kwargs, e)
+        if callable(callee) and getattr(callee, "_model_callable", False):
+            return callee(*args, **kwargs)
+        raise _Cannot(f"call of {callee!r}" + (f" in `{short(e, 60)}`" if e is not None else ""))
+
+    def _apply(self, fn, args, kwargs, e):
+        for v in list(args) + list(kwargs.values()):
+            if isinstance(v, _Opaque) and fn not in (list.append, ) and getattr(fn, "__name__", "") not in ("append", "add", "insert", "setdefault", "appendleft", "extend", "update", "get", "pop"):
+                raise _Cannot(f"`{short(e, 60) if e is not None else fn}` needs the value of {v!r}")
+        if "key" in kwargs and not callable(kwargs["key"]):
+            k = kwargs["key"]
+            kwargs = dict(kwargs, key=lambda x: self.apply(k, [x], {}))
+        try:
+            r = fn(*args, **kwargs)
+        except (TypeError, ValueError, IndexError, KeyError, ZeroDivisionError, StopIteration, AttributeError) as x:
+            raise _Cannot(f"`{short(e, 60) if e is not None else fn}`: {type(x).__name__}: {x}")
+        if isinstance(r, (enumerate, zip, reversed, map, filter, type({}.items()), type({}.keys()), type({}.values()))):
+            r = list(r)
+        return r
+
+    # -- expressions ----------------------------------------------------------------------------------------------------------------------------
+    def truth(self, v, node):
+        if isinstance(v, _Opaque):
+            if self.choose is None:
+                raise _Cannot(f"branch on {v!r} in `{short(node, 60)}`")
+            return bool(self.choose(node))
+        if isinstance(v, _Obj):
+            return True
+        return bool(v)
+
+    def _iter(self, v, node):
+        if isinstance(v, _Obj):
+            if v.items is None:
+                raise _Cannot(f"iteration over {v!r} in `{short(node, 60)}`")
+            return list(v.items(v) if callable(v.items) else v.items)
+        if isinstance(v, (list, tuple, set, frozenset, dict, str, range, collections.deque)):
+            return list(v)
+        if isinstance(v, (itertools.count, itertools.cycle, itertools.repeat)):
+            raise _Cannot(f"unbounded iteration in `{short(node, 60)}`")
+        if hasattr(v, "__next__") and not isinstance(v, _Opaque):
+            return list(itertools.islice(v, 100000))
+        raise _Cannot(f"iteration over {v!r} in `{short(node, 60)}`")
+
+    def getattr(self, v, name, node=None):
+        if isinstance(v, _Obj):
+            if name in v.fields:
+                return v.fields[name]
+            if v.cls is not None:
+                fn, owner = self._member(v.cls, name)
+                if fn is not None:
+                    decos = self._decos(fn)
+                    if "property" in decos or "functools.cached_property" in decos or "cached_property" in decos:
+                        return self.call_function(fn, [v], {}, owner)
+                    return _Bound(v, fn, owner)
+                for c in self._mro(v.cls):  # class-level constants
+                    for st in c.body:
+                        if isinstance(st, ast.Assign) and any(isinstance(t, ast.Name) and t.id == name for t in st.targets):
+                            return self.ev(st.value, {})
+            if self.attr_hook is not None:
+                r = self.attr_hook(v, name)
+                if r is not NotImplemented:
+                    return r
+            return _Opaque(f"{v!r}.{name}")
+        if isinstance(v, _Opaque):
+            return _Opaque(f"{v.what}.{name}")
+        if isinstance(v, ast.ClassDef):
+            fn, owner = self._member(v, name)
+            if fn is not None:
+                return _Bound(v, fn, owner) if self._decos(fn) & {"staticmethod", "classmethod"} else fn
+            for c in self._mro(v):  # class-level constants
+                for st in c.body:
+                    if isinstance(st, ast.Assign) and any(isinstance(t, ast.Name) and t.id == name for t in st.targets):
+                        return self.ev(st.value, {})
+            raise _Cannot(f"{v.name}.{name}")
+        if type(v) in _SAFE_METHODS and name in _SAFE_METHODS[type(v)]:
+            return getattr(v, name)
+        raise _Cannot(f"attribute {name} of {type(v).__name__}" + (f" in `{short(node, 60)}`" if node is not None else ""))
+
+    def ev(self, e, env):
+        self.steps += 1
+        if self.steps > self.MAX_STEPS:
+            raise _Cannot("step budget exhausted (unbounded loop?)")
+        if isinstance(e, ast.Constant):
+            return e.value
+        if isinstance(e, ast.Name):
+            if e.id in env:
+                return env[e.id]
+            if e.id in self.classes:
+                return self.classes[e.id]
+            if e.id in self.functions:
+                return self.functions[e.id]
+            if e.id in _SAFE_BUILTINS:
+                return _SAFE_BUILTINS[e.id]
+            if e.id in ("True", "False", "None"):
+                return {"True": True, "False": False, "None": None}[e.id]
+            return _Opaque(e.id)
+        if isinstance(e, ast.Attribute):
+            d = dotted(e)
+            if d is not None and d.split(".")[0] not in env:
+                head = d.split(".")[0]
+                full = (self.mod.imports.get(head, head) + d[len(head):]) if head in self.mod.imports else d
+                if full in _SAFE_LIB:
+                    return _SAFE_LIB[full]
+                if head in self.classes:
+                    return self.getattr(self.ev(e.value, env), e.attr, e)
+                return _Opaque(d)
+            return self.getattr(self.ev(e.value, env), e.attr, e)
+        if isinstance(e, ast.Call):
+            return self._call(e, env)
+        if isinstance(e, ast.Subscript):
+            v = self.ev(e.value, env)
+            if isinstance(v, _Opaque):
+                return _Opaque(f"{v.what}[]")
+            k = self._slice(e.slice, env)
+            try:
+                return v[k]
+            except (KeyError, IndexError, TypeError) as x:
+                raise _Cannot(f"`{short(e, 60)}`: {type(x).__name__}")
+        if isinstance(e, ast.BinOp) and type(e.op) in _BIN:
+            a, b = self.ev(e.left, env), self.ev(e.right, env)
+            if isinstance(a, (_Opaque, _Obj)) or isinstance(b, (_Opaque, _Obj)):
+                if isinstance(e.op, ast.Mod) and isinstance(a, str):
+                    return _Opaque("formatted text")
+                if isinstance(e.op, ast.Mult) and (isinstance(a, list) or isinstance(b, list)) and not isinstance(a, _Opaque) and not isinstance(b, _Opaque):
+                    pass
+                else:
+                    raise _Cannot(f"`{short(e, 60)}` needs the value of {a if isinstance(a, (_Opaque, _Obj)) else b!r}")
+            try:
+                return _BIN[type(e.op)](a, b)
+            except (TypeError, ValueError, ZeroDivisionError) as x:
+                raise _Cannot(f"`{short(e, 60)}`: {type(x).__name__}")
+        if isinstance(e, ast.UnaryOp):
+            v = self.ev(e.operand, env)
+            if isinstance(e.op, ast.Not):
+                return not self.truth(v, e)
+            if isinstance(v, (int, float)) and not isinstance(v, bool) or isinstance(v, bool):
+                return -v if isinstance(e.op, ast.USub) else (+v if isinstance(e.op, ast.UAdd) else ~v)
+            raise _Cannot(f"`{short(e, 60)}`")
+        if isinstance(e, ast.BoolOp):
+            v = None
+            for x in e.values:
+                v = self.ev(x, env)
+                if self.truth(v, x) != isinstance(e.op, ast.And):
+                    return v
+            return v
+        if isinstance(e, ast.Compare):
+            left = self.ev(e.left, env)
+            for op, c in zip(e.ops, e.comparators):
+                right = self.ev(c, env)
+                if isinstance(op, (ast.Is, ast.IsNot)):
+                    if (isinstance(left, _Opaque) and right is None) or (isinstance(right, _Opaque) and left is None):
+                        if self.choose is None:
+                            raise _Cannot(f"`{short(e, 60)}` needs the value of an opaque operand")
+                        r = bool(self.choose(e))
+                    else:
+                        r = (left is right) == isinstance(op, ast.Is)
+                else:
+                    if isinstance(left, _Opaque) or isinstance(right, _Opaque):
+                        if self.choose is None:
+                            raise _Cannot(f"`{short(e, 60)}` needs the value of an opaque operand")
+                        r = bool(self.choose(e))
+                    elif isinstance(op, (ast.Eq, ast.NotEq)) and any(isinstance(x, _Obj) and x.cls is not None and self._member(x.cls, "__eq__")[0] is not None for x in (left, right)) \
+                            and left is not right:
+                        # equality defined by the class: interpreted, not replaced by the identity of the model objects
+                        a_, b_ = (left, right) if isinstance(left, _Obj) and left.cls is not None and self._member(left.cls, "__eq__")[0] is not None else (right, left)
+                        r = self.truth(self.apply(self.getattr(a_, "__eq__"), [b_], {}), e) == isinstance(op, ast.Eq)
+                    elif isinstance(op, (ast.In, ast.NotIn)) and isinstance(right, (list, tuple)) and not any(x is left for x in right) \
+                            and any(isinstance(x, _Obj) and x.cls is not None and self._member(x.cls, "__eq__")[0] is not None for x in [left] + list(right)):
+                        raise _Cannot(f"`{short(e, 60)}`: membership by a class-defined equality")
+                    else:
+                        try:
+                            r = _me._CMP[type(op)](left, right)
+                        except TypeError as x:
+                            raise _Cannot(f"`{short(e, 60)}`: {x}")
+                if not r:
+                    return False
+                left = right
+            return True
+        if isinstance(e, ast.IfExp):
+            return self.ev(e.body if self.truth(self.ev(e.test, env), e.test) else e.orelse, env)
+        if isinstance(e, (ast.List, ast.Tuple, ast.Set)):
+            vals = []
+            for x in e.elts:
+                if isinstance(x, ast.Starred):
+                    vals.extend(self._iter(self.ev(x.value, env), x))
+                else:
+                    vals.append(self.ev(x, env))
+            return vals if isinstance(e, ast.List) else (tuple(vals) if isinstance(e, ast.Tuple) else set(vals))
+        if isinstance(e, ast.Dict):
+            out = {}
+            for k, v in zip(e.keys, e.values):
+                if k is None:
+                    out.update(self.ev(v, env))
+                else:
+                    out[self.ev(k, env)] = self.ev(v, env)
+            return out
+        if isinstance(e, (ast.ListComp, ast.GeneratorExp, ast.SetComp, ast.DictComp)):
+            out = []
+
+            def rec(i, env_):
+                if i == len(e.generators):
+                    out.append((self.ev(e.key, env_), self.ev(e.value, env_)) if isinstance(e, ast.DictComp) else self.ev(e.elt, env_))
+                    return
+                g = e.generators[i]
+                if g.is_async:
+                    raise _Cannot("async comprehension")
+                for v in self._iter(self.ev(g.iter, env_), g.iter):
+                    env2 = dict(env_)
+                    self.bind(g.target, v, env2)
+                    if all(self.truth(self.ev(c, env2), c) for c in g.ifs):
+                        rec(i + 1, env2)
+
+            rec(0, dict(env))
+            return dict(out) if isinstance(e, ast.DictComp) else (set(out) if isinstance(e, ast.SetComp) else out)
+        if isinstance(e, ast.JoinedStr):
+            return _Opaque("formatted text")
+        if isinstance(e, ast.NamedExpr):
+            v = self.ev(e.value, env)
+            self.bind(e.target, v, env)
+            return v
+        if isinstance(e, ast.Lambda):
+            e._env = env
+            return e
+        if isinstance(e, ast.Starred):
+            raise _Cannot("starred expression")
+        raise _Cannot(f"{type(e).__name__} `{short(e, 60)}`")
+
+    def _slice(self, s, env):
+        if isinstance(s, ast.Slice):
+            return slice(*(None if x is None else self.ev(x, env) for x in (s.lower, s.upper, s.step)))
+        v = self.ev(s, env)
+        if isinstance(v, _Opaque):
+            raise _Cannot(f"subscript needs the value of {v!r}")
+        return v
+
+    # -- statements ------------------------------------------------------------------------------------------------------------------------------
+    def bind(self, t, v, env):
+        if isinstance(t, ast.Name):
+            env[t.id] = v
+        elif isinstance(t, (ast.Tuple, ast.List)):
+            if isinstance(v, _Opaque):
+                vals = [_Opaque(f"{v.what}[{i}]") for i in range(len(t.elts))]
+            else:
+                vals = self._iter(v, t)
+            if any(isinstance(x, ast.Starred) for x in t.elts) or len(vals) != len(t.elts):
+                raise _Cannot(f"unpacking into `{short(t, 40)}`")
+            for t_, v_ in zip(t.elts, vals):
+                self.bind(t_, v_, env)
+        elif isinstance(t, ast.Attribute):
+            o = self.ev(t.value, env)
+            if isinstance(o, _Obj):
+                o.fields[t.attr] = v
+            elif not isinstance(o, _Opaque):
+                raise _Cannot(f"store to `{short(t, 40)}`")
+        elif isinstance(t, ast.Subscript):
+            o = self.ev(t.value, env)
+            if isinstance(o, _Opaque):
+                return
+            try:
+                o[self._slice(t.slice, env)] = v
+            except (TypeError, IndexError, KeyError) as x:
+                raise _Cannot(f"store to `{short(t, 40)}`: {type(x).__name__}")
+        else:
+            raise _Cannot(f"assignment target `{short(t, 40)}`")
+
+    def block(self, stmts, env):
+        for s in stmts:
+            self.stmt(s, env)
+
+    def stmt(self, s, env):
+        self.steps += 1
+        if self.steps > self.MAX_STEPS:
+            raise _Cannot("step budget exhausted (unbounded loop?)")
+        if isinstance(s, ast.Expr):
+            if not isinstance(s.value, ast.Constant) and not is_logging_stmt(s):
+                self.ev(s.value, env)
+        elif isinstance(s, ast.Assign):
+            v = self.ev(s.value, env)
+            for t in s.targets:
+                self.bind(t, v, env)
+        elif isinstance(s, ast.AnnAssign):
+            if s.value is not None:
+                self.bind(s.target, self.ev(s.value, env), env)
+        elif isinstance(s, ast.AugAssign):
+            load = source.clone(s.target)
+            cur = self.ev(load, env)
+            rhs = self.ev(s.value, env)
+            if isinstance(cur, list) and isinstance(s.op, ast.Add):
+                cur.extend(self._iter(rhs, s.value))
+                v = cur
+            else:
+                if isinstance(cur, (_Opaque, _Obj)) or isinstance(rhs, (_Opaque, _Obj)) or type(s.op) not in _BIN:
+                    raise _Cannot(f"`{short(s, 60)}`")
+                try:
+                    v = _BIN[type(s.op)](cur, rhs)
+                except (TypeError, ValueError, ZeroDivisionError) as x:
+                    raise _Cannot(f"`{short(s, 60)}`: {type(x).__name__}")
+            self.bind(s.target, v, env)
+        elif isinstance(s, ast.If):
+            self.block(s.body if self.truth(self.ev(s.test, env), s.test) else s.orelse, env)
+        elif isinstance(s, ast.For):
+            broke = False
+            for v in self._iter(self.ev(s.iter, env), s.iter):
+                self.bind(s.target, v, env)
+                try:
+                    self.block(s.body, env)
+                except _Brk:
+                    broke = True
+                    break
+                except _Cont:
+                    continue
+            if not broke:
+                self.block(s.orelse, env)
+        elif isinstance(s, ast.While):
+            broke = False
+            while self.truth(self.ev(s.test, env), s.test):
+                try:
+                    self.block(s.body, env)
+                except _Brk:
+                    broke = True
+                    break
+                except _Cont:
+                    continue
+            if not broke:
+                self.block(s.orelse, env)
+        elif isinstance(s, ast.Return):
+            raise _Ret(self.ev(s.value, env) if s.value is not None else None)
+        elif isinstance(s, ast.Break):
+            raise _Brk()
+        elif isinstance(s, ast.Continue):
+            raise _Cont()
+        elif isinstance(s, (ast.Pass, ast.Assert, ast.Import, ast.ImportFrom, ast.Global, ast.Nonlocal)):
+            pass
+        elif isinstance(s, ast.Raise):
+            raise _Raised(s)
+        elif isinstance(s, ast.Try):
+            try:
+                self.block(s.body, env)
+                self.block(s.orelse, env)
+            finally:
+                self.block(s.finalbody, env)
+        elif isinstance(s, ast.With):
+            for it in s.items:
+                v = self.ev(it.context_expr, env)
+                if it.optional_vars is not None:
+                    self.bind(it.optional_vars, v if isinstance(v, _Opaque) else _Opaque("context"), env)
+            self.block(s.body, env)
+        elif isinstance(s, source.FUNC_TYPES):
+            env[s.name] = s
+        elif isinstance(s, ast.Delete):
+            for t in s.targets:
+                if isinstance(t, ast.Name):
+                    env.pop(t.id, None)
+                elif isinstance(t, ast.Subscript):
+                    o = self.ev(t.value, env)
+                    try:
+                        del o[self._slice(t.slice, env)]
+                    except (TypeError, IndexError, KeyError) as x:
+                        raise _Cannot(f"`{short(s, 60)}`: {type(x).__name__}")
+                else:
+                    raise _Cannot(f"`{short(s, 60)}`")
+        else:
+            raise _Cannot(f"statement {type(s).__name__} at line {getattr(s, 'lineno', '?')}")
+
+
+# ---- O1.1 decided on values: the allocation matrix of representative schedules ------------------------------------------------------------------------------------------------
+
+
+def _leaf(label, clients, completes=False, any_=False):
+    """model of a leaf task of the schedule: iterating it yields itself (track.Task.__iter__), it has a client count and the two completed-by flags"""
+    t = _Obj(None, clients=clients, completes_parent=completes, any_completes_parent=any_, _label=label)
+    t.items = lambda self_: [self_]
+    return t
+
+
+def _par(label, subs, clients=None):
+    """model of a parallel element: iterating it yields its sub-tasks, its client count is the explicit cap or the sum over the sub-tasks (track.Parallel.clients)"""
+    return _Obj(None, items=list(subs), clients=sum(s.fields["clients"] for s in subs) if clients is None else clients, _label=label)
+
+
+def _schedules():
+    """representative schedules (name, elements): empty / single / several elements, elements narrower than the widest one (before and after it), parallel elements with and without
+    over-commitment (more logical clients than rows: None padding), empty elements (first / in the middle / last), completed-by (named task and any)."""
+    T, P = _leaf, _par
+    return [
+        ("no element", []),
+        ("[1]", [T("a", 1)]),
+        ("[2]", [T("a", 2)]),
+        ("[3, 1, 2]", [T("a", 3), T("b", 1), T("c", 2)]),
+        ("[1, 4]", [T("a", 1), T("b", 4)]),
+        ("[8, 5, 8]", [T("a", 8), T("b", 5), T("c", 8)]),
+        ("[par(1+1+1 on 2 clients)]", [P("p", [T("a", 1), T("b", 1), T("c", 1)], clients=2)]),
+        ("[par(2+3), 2]", [P("p", [T("a", 2), T("b", 3)]), T("c", 2)]),
+        ("[par(1 x5 on 2 clients), 2]", [P("p", [T(f"t{i}", 1) for i in range(5)], clients=2), T("c", 2)]),
+        ("[par(3+1 on 4), par(2+2 on 3), 4]", [P("p", [T("a", 3), T("b", 1)]), P("q", [T("c", 2), T("d", 2)], clients=3), T("e", 4)]),
+        ("[empty par, 1]", [P("p", [], clients=0), T("a", 1)]),
+        ("[2, empty par, 2]", [T("a", 2), P("p", [], clients=0), T("b", 2)]),
+        ("[3, empty par]", [T("a", 3), P("p", [], clients=0)]),
+        ("[par(2 completing + 1), 1]", [P("p", [T("a", 2, completes=True), T("b", 1)]), T("c", 1)]),
+        ("[par(1 any + 2 any), 3]", [P("p", [T("a", 1, any_=True), T("b", 2, any_=True)]), T("c", 3)]),
+        ("[2, par(1 completing + 3 on 2 clients), 2]", [T("a", 2), P("p", [T("b", 1, completes=True), T("c", 3)], clients=2), T("d", 2)]),
+    ]
+
+
+def _constructs(fn, names):
+    return {last_attr(c.func) for c in source.calls_in(fn)} & set(names)
+
+
+def _closure_in_module(mod, fn, properties=False):
+    """functions of the module reachable from fn through self.m() / cls.m() / Class.m() / f() calls (and, on request, through reads of properties of its own class)"""
+    funcs = {f.name: f for f in mod.tree.body if isinstance(f, source.FUNC_TYPES)}
+    seen, todo = [], [fn]
+    while todo:
+        f = todo.pop()
+        if any(f is x for x in seen):
+            continue
+        seen.append(f)
+        cls = source.enclosing_class(f)
+        meths = mod.methods(cls) if cls is not None else {}
+        for n in walk_body(f):
+            if isinstance(n, ast.Call) and isinstance(n.func, ast.Attribute) and isinstance(n.func.value, ast.Name) and n.func.value.id in ("self", "cls", cls.name if cls is not None else "") \
+                    and n.func.attr in meths:
+                todo.append(meths[n.func.attr])
+            elif isinstance(n, ast.Call) and isinstance(n.func, ast.Name) and n.func.id in funcs:
+                todo.append(funcs[n.func.id])
+            elif properties and is_self_attr(n) and n.attr in meths and "property" in {dotted(d) for d in meths[n.attr].decorator_list}:
+                todo.append(meths[n.attr])
+    return seen
+
+
+def allocation_matrix_rule(chk, rid, drv):
+    """O1.1 on values. The matrix builder (located by role: the outermost function of the driver module whose call closure constructs both JoinPoint and TaskAllocation) is interpreted,
+    together with the helper methods / properties of its class it calls, on representative model schedules; the obligations are read off the matrices it returns. No shape of the
+    loops, of the row container or of the id counter is assumed; whatever cannot be interpreted is reported as not recognised."""
+    JP, TA = drv.cls("JoinPoint"), drv.cls("TaskAllocation")
+    both = ("JoinPoint", "TaskAllocation")
+    owners = [c for c in drv.classes() if set(both) <= set().union(*[_constructs(f, both) for f in drv.methods(c).values()] or [set()])]
+    cands = [f for c in owners for f in drv.methods(c).values() if params_of(f) == ["self"]
+             and set(both) <= set().union(*[_constructs(g, both) for g in _closure_in_module(drv, f)])]
+    outer = [f for f in cands if not any(g is not f and any(f is h for h in _closure_in_module(drv, g)) for g in cands)]
+    if len(outer) != 1:
+        raise AnchorMissing("matrix builder (the one outermost parameterless method whose call closure constructs both JoinPoint and TaskAllocation)")
+    builder = outer[0]
+    A = source.enclosing_class(builder)
+    is_prop = "property" in {dotted(d) for d in builder.decorator_list}
+    if [p for p in params_of(builder) if p != "self"]:
+        raise AnchorMissing(f"{A.name}.{builder.name}: a matrix builder that takes nothing but the schedule its object was constructed with")
+    # the identity of a join point across processes: the attributes its __eq__ / __hash__ read
+    ident = sorted({n.attr for nm in ("__eq__", "__hash__") for m in [drv.methods(JP).get(nm)] if m is not None for n in walk_body(m) if is_self_attr(n)})
+
+    def is_a(v, cls):
+        return isinstance(v, _Obj) and v.cls is cls
+
+    results = {k: [] for k in ("initial", "after", "fresh", "segment", "ids", "column", "count", "announce")}
+    evaluated = 0
+    said_ = set()
+    for name, sched in _schedules():
+        m = _Machine(drv)
+        try:
+            alloc = m.new(A, [list(sched)])
+            M = m.getattr(alloc, builder.name) if is_prop else m.apply(m.getattr(alloc, builder.name), [], {})
+        except (_Cannot, _Raised) as x:
+            if str(x) not in said_:  # one line per reason, not per schedule
+                said_.add(str(x))
+                chk.unknown(rid, f"matrix builder {A.name}.{builder.name} on schedule {name}: " + ("raises: " if isinstance(x, _Raised) else "not interpretable: ") + str(x), builder)
+            continue
+        if not (isinstance(M, (list, tuple)) and M and all(isinstance(r, (list, tuple)) for r in M)):
+            chk.unknown(rid, f"matrix builder {A.name}.{builder.name} on schedule {name}: the result is not a non-empty sequence of rows", builder)
+            continue
+        evaluated += 1
+        rows = [list(r) for r in M]
+        n_el = len(sched)
+        jps = [[(i, e) for i, e in enumerate(r) if is_a(e, JP)] for r in rows]
+        # initial join point: first entry of every row, one object
+        bad = [ri for ri, r in enumerate(rows) if not r or not is_a(r[0], JP) or r[0] is not rows[0][0]]
+        results["initial"].append((name, not bad, f"row(s) {bad} do not start with the (one) initial join point" if bad else ""))
+        # a join point after every element, on every row, the same object on all rows
+        bad = [ri for ri, j in enumerate(jps) if len(j) != n_el + 1 or not is_a(rows[ri][-1], JP) or any(a[1] is not b[1] for a, b in zip(j, jps[0]))]
+        after_ok = not bad and len(jps[0]) == n_el + 1
+        results["after"].append((name, after_ok, "" if after_ok else f"{n_el} element(s): row(s) {bad or [0]} hold {[len(jps[ri]) for ri in (bad or [0])]} join point(s) instead of {n_el + 1} shared ones "
+                                 "(a row without the element's join point never reports, or reports a step early)"))
+        objs = [e for _, e in jps[0]]
+        fresh = all(a is not b for i, a in enumerate(objs) for b in objs[i + 1:])
+        results["fresh"].append((name, fresh, "" if fresh else "one JoinPoint object is appended for several elements"))
+        if ident:
+            keys = [tuple(repr(e.fields.get(a, _Opaque("unset"))) for a in ident) for e in objs]
+            distinct = len(set(keys)) == len(keys)
+            results["ids"].append((name, distinct, "" if distinct else f"join points with equal identity {ident}: {keys}"))
+        else:
+            results["ids"].append((name, fresh, "JoinPoint defines no __eq__/__hash__: identity is the object"))
+        col = all(len({j[k][0] for j in jps if len(j) > k}) <= 1 for k in range(max(len(j) for j in jps))) and len({len(r) for r in rows}) == 1
+        results["column"].append((name, col, "" if col else f"join points / row ends are not aligned: positions {[[i for i, _ in j] for j in jps]}, row lengths {[len(r) for r in rows]}"))
+        if not after_ok:
+            continue
+        # between join point k and k+1 a row holds nothing but allocations of the leaf tasks of element k (or None)
+        seg_bad, count = [], {}
+        for ri, r in enumerate(rows):
+            pos = [i for i, _ in jps[ri]]
+            for k in range(n_el):
+                leaves = list(m._iter(sched[k], None))
+                for e in r[pos[k] + 1:pos[k + 1]]:
+                    if e is None:
+                        continue
+                    owner = [lf for lf in leaves if is_a(e, TA) and any(v is lf for v in e.fields.values())]
+                    if not owner:
+                        seg_bad.append((ri, k, repr(e)))
+                    else:
+                        count[id(owner[0])] = count.get(id(owner[0]), 0) + 1
+        results["segment"].append((name, not seg_bad, "" if not seg_bad else f"(row, element, entry) {seg_bad[:3]}: the entry does not belong to the element between these two join points"))
+        miss = [(lf.fields["_label"], lf.fields["clients"], count.get(id(lf), 0)) for el in sched for lf in m._iter(el, None) if count.get(id(lf), 0) != lf.fields["clients"]]
+        results["count"].append((name, not miss, "" if not miss else f"(task, clients, allocations in its element) {miss[:3]}"))
+        # what a join point says about completed-by (the client lists it was constructed with) describes the element in front of it and no other: the rows that execute a completing
+        # task / an any-completing task of THAT element; the initial join point says nothing
+        wrong = []
+        for k in range(n_el + 1):
+            said = sorted(sorted(set(v)) for v in objs[k].fields.values() if isinstance(v, (list, tuple, set)) and v)
+            want_ = []
+            if k > 0:
+                for flag in ("completes_parent", "any_completes_parent"):
+                    rws = sorted({ri for ri, r in enumerate(rows) for e in r[jps[ri][k - 1][0] + 1:jps[ri][k][0]] if is_a(e, TA)
+                                  for lf in m._iter(sched[k - 1], None) if lf.fields[flag] and any(v is lf for v in e.fields.values())})
+                    if rws:
+                        want_.append(rws)
+            if said != sorted(want_):
+                wrong.append((k, said, sorted(want_)))
+        results["announce"].append((name, not wrong, "" if not wrong else f"(join point, client lists it carries, rows completing the element in front of it) {wrong[0]}: completed-by of one element "
+                                    "is announced at the join point of another (tasks of that other element are cut short / the element never completes)"))
+    if not evaluated:
+        raise AnchorMissing(f"{A.name}.{builder.name}: no representative schedule could be interpreted")
+    texts = {"initial": "initial join point on every row before the first element", "after": "join point on every row after every schedule element (one shared object per element)",
+             "fresh": "a fresh JoinPoint per schedule element", "segment": "no task allocation outside the two join points of its element",
+             "ids": "join point ids are distinct", "column": "the join point of an element is at the same position on every row (rows of one worker advance with one index)",
+             "count": "every task is allocated once per client between the join points of its element",
+             "announce": "a join point carries the completing clients of the element in front of it and of no other element"}
+    for k, rs in results.items():
+        if not rs:
+            chk.unknown(rid, f"{texts[k]}: no schedule reached this check", builder)
+            continue
+        fails = [(n, d) for n, ok, d in rs if not ok]
+        chk.ob(rid, texts[k], not fails, builder, f"{len(rs)} schedule(s) interpreted" + ("" if not fails else f"; schedule {fails[0][0]}: {fails[0][1]}" + (f" (+{len(fails) - 1} more)" if len(fails) > 1 else "")),
+               key=f"{_D}:{A.name}.{builder.name}:matrix:{k}")
+    return builder
+
+
+# ---------------------------------------------------------------------------------------------------------------------------------------------
+# Local helper (not in sa/): an anchored function analysed TOGETHER WITH the private helpers it calls. `_expand(fn, ...)` returns a copy of fn in which every call of a helper
+# method of its class / helper function of its module that is private to fn (all its call sites in the package lie in fn or in other such helpers; it is none of the functions
+# the rules anchor on by name) is replaced by the helper's body: parameters bound to the arguments, colliding locals renamed, `return` turned into the assignment / the end of
+# the inlined block. Guards, guard facts, CFG queries and statement searches of the rules then see the caller and the extracted code as ONE function, whatever was extracted.
+# Statements keep their positions in the file (reports point at the real lines); when nothing is inlined the function itself is returned.
+
+# functions the rules look up by name (anchors): never inlined into their callers
+_ANCHORS = {"joinpoint_reached", "move_to_next_task", "may_complete_current_task", "finished", "start_benchmark", "drive", "at_joinpoint", "current_tasks_and_advance", "send_samples",
+            "drive_at", "complete_current_task", "on_benchmark_complete", "on_task_finished", "start_worker", "tasks", "is_joinpoint", "run", "update_progress_message",
+            "post_process_samples", "__init__", "__call__", "send", "wakeupAfter", "schedule_for", "execute_single", "allocations", "join_points", "tasks_per_joinpoint", "clients"}
+
+
+def _clone(n):
+    """structural copy of a syntax tree WITHOUT the parent / module links (copy.deepcopy would follow them and copy the whole module); positions and the N8 marks are kept"""
+    if isinstance(n, list):
+        return [_clone(x) for x in n]
+    if not isinstance(n, ast.AST):
+        return n
+    new = type(n)()
+    for f, v in ast.iter_fields(n):
+        setattr(new, f, _clone(v))
+    for a in n._attributes:
+        if hasattr(n, a):
+            setattr(new, a, getattr(n, a))
+    for a in ("_synthetic_arm", "_from_constant", "_boolctx"):
+        if hasattr(n, a):
+            setattr(new, a, getattr(n, a))
+    return new
+
+
+def _calls_in_order(e, cond=False):
+    """(call, conditionally evaluated?) for the calls of an expression in the order in which they complete"""
+    if e is None:
+        return
+    if isinstance(e, (ast.Lambda, ast.ListComp, ast.SetComp, ast.DictComp, ast.GeneratorExp)):
+        for c in ast.walk(e):
+            if isinstance(c, ast.Call):
+                yield c, True
+        return
+    if isinstance(e, ast.BoolOp):
+        for i, v in enumerate(e.values):
+            yield from _calls_in_order(v, cond or i > 0)
+        return
+    if isinstance(e, ast.IfExp):
+        yield from _calls_in_order(e.test, cond)
+        yield from _calls_in_order(e.body, True)
+        yield from _calls_in_order(e.orelse, True)
+        return
+    if isinstance(e, ast.Compare):
+        yield from _calls_in_order(e.left, cond)
+        for i, v in enumerate(e.comparators):
+            yield from _calls_in_order(v, cond or i > 0)
+        return
+    for ch in ast.iter_child_nodes(e):
+        if isinstance(ch, ast.expr) or isinstance(ch, (ast.keyword, ast.Starred)):
+            yield from _calls_in_order(ch, cond)
+        elif isinstance(ch, ast.keyword):
+            yield from _calls_in_order(ch.value, cond)
+    if isinstance(e, ast.Call):
+        yield e, cond
+
+
+def _tail_returns_only(stmts, top=True):
+    """every `return` of the block is in tail position: the last statement, or inside the arms of a trailing if (N8 has already folded guard clauses into that form)"""
+    for i, s in enumerate(stmts):
+        last = i == len(stmts) - 1
+        if isinstance(s, ast.Return):
+            if not last:
+                return False
+        elif isinstance(s, ast.If) and last:
+            if not (_tail_returns_only(s.body, False) and _tail_returns_only(s.orelse, False)):
+                return False
+        elif any(isinstance(x, ast.Return) for x in source.walk_local(s)):
+            return False
+    return True
+
+
+class _Expander:
+    MAX_INLINES = 16
+
+    def __init__(self, root, mod, repo):
+        self.root, self.mod, self.repo = root, mod, repo
+        self.cls = source.enclosing_class(root)
+        self.meths = mod.methods(self.cls) if self.cls is not None else {}
+        self.funcs = {f.name: f for f in mod.tree.body if isinstance(f, source.FUNC_TYPES)}
+        self.names = {n.id for n in ast.walk(root) if isinstance(n, ast.Name)} | set(params_of(root))
+        self.bound_in_root = {n.id for n in ast.walk(root) if isinstance(n, ast.Name) and isinstance(n.ctx, (ast.Store, ast.Del))} | set(params_of(root))
+        self.inlined = []
+        self.count = 0
+        self._private = {}
+
+    # -- which calls are helper calls ----------------------------------------------------------------------------------------------------------------
+    def resolve(self, c):
+        """(helper def, bound?) for a call of a private helper of the root, else None"""
+        f = c.func
+        h, bound = None, False
+        if isinstance(f, ast.Attribute) and isinstance(f.value, ast.Name) and self.cls is not None and f.value.id in ("self", "cls", self.cls.name) and f.attr in self.meths:
+            h = self.meths[f.attr]
+            decos = {dotted(d) for d in h.decorator_list}
+            if decos - {"staticmethod", "classmethod"}:
+                return None
+            bound = "staticmethod" not in decos
+            if f.value.id == self.cls.name and bound and "classmethod" not in decos:
+                return None  # Class.method(obj, ...): explicit receiver, not followed
+        elif isinstance(f, ast.Name) and f.id in self.funcs and f.id not in self.bound_in_root:
+            h = self.funcs[f.id]
+            if h.decorator_list:
+                return None
+        if h is None or h is self.root or not isinstance(h, ast.FunctionDef) or h.name in _ANCHORS or h.name.startswith("receive") or (h.name.startswith("__") and h.name.endswith("__")):
+            return None
+        a = h.args
+        if a.vararg or a.kwarg or a.posonlyargs or any(isinstance(x, ast.Starred) for x in c.args) or any(k.arg is None for k in c.keywords):
+            return None
+        if any(isinstance(n, (ast.Yield, ast.YieldFrom, ast.Await, ast.Global, ast.Nonlocal, ast.FunctionDef, ast.AsyncFunctionDef, ast.ClassDef, ast.Try)) for n in walk_body(h)):
+            return None
+        if sum(1 for n in walk_body(h) if isinstance(n, ast.stmt)) > 60 or not self.private(h, ()):
+            return None
+        return h, bound
+
+    def private(self, h, stack):
+        """every call site of the helper's name in the package lies in the root or in another private helper of the root, and the name is not handed around as a value"""
+        if h.name in self._private:
+            return self._private[h.name]
+        if h.name in stack:
+            return False
+        sites = _calls_named(self.repo, self.mod, h.name)
+        ok = bool(sites)  # something that is never called by name (a message handler, an entry point) is not a helper of anybody
+        for x in sites:
+            ef = source.enclosing_func(x)
+            if ef is self.root or getattr(ef, "_origin", None) is self.root:
+                continue
+            if ef is None or ef is h or source.module_of(x) is not self.mod or ef.name in _ANCHORS or ef.name.startswith("receive") \
+                    or source.enclosing_class(ef) is not source.enclosing_class(self.root) or not self.private(ef, stack + (h.name,)):
+                ok = False
+                break
+        if ok:
+            idx = getattr(self.mod, "_c01_value_refs", None)
+            if idx is None:  # names of the module that are read as VALUES (not in call position): one walk per module
+                idx = {"attr": set(), "name": set()}
+                for n in ast.walk(self.mod.tree):
+                    if isinstance(n, (ast.Attribute, ast.Name)) and isinstance(n.ctx, ast.Load) and not (isinstance(source.parent(n), ast.Call) and source.parent(n).func is n):
+                        idx["attr" if isinstance(n, ast.Attribute) else "name"].add(n.attr if isinstance(n, ast.Attribute) else n.id)
+                self.mod._c01_value_refs = idx
+            ok = h.name not in idx["attr" if source.enclosing_class(h) is not None else "name"]
+        self._private[h.name] = ok
+        return ok
+
+    # -- inlining one call ---------------------------------------------------------------------------------------------------------------------------
+    def fresh(self, base):
+        nm, i = base, 1
+        while nm in self.names:
+            i += 1
+            nm = f"{base}_{i}"
+        self.names.add(nm)
+        return nm
+
+    def body_for(self, c, h, bound, mode, target, at):
+        """statements replacing the call c of helper h. mode: 'expr' (value unused), 'assign' (value stored to the Name `target`), 'return' (the caller returns the value)"""
+        a = h.args
+        pnames = [x.arg for x in a.args]
+        selfname = pnames[0] if bound and pnames else None
+        params = pnames[1:] if bound else pnames
+        argmap = {}
+        for i, x in enumerate(c.args):
+            if i >= len(params):
+                return None
+            argmap[params[i]] = x
+        kwonly = [x.arg for x in a.kwonlyargs]
+        for k in c.keywords:
+            if k.arg in argmap or (k.arg not in params and k.arg not in kwonly):
+                return None
+            argmap[k.arg] = k.value
+        dflt = dict(zip(pnames[len(pnames) - len(a.defaults):], a.defaults))
+        dflt.update({k: d for k, d in zip(kwonly, a.kw_defaults) if d is not None})
+        for p in params + kwonly:
+            if p not in argmap:
+                if p not in dflt:
+                    return None
+                argmap[p] = dflt[p]
+        body = [s for s in h.body if not (isinstance(s, ast.Expr) and isinstance(s.value, ast.Constant))]
+        if mode != "return" and not _tail_returns_only(body):
+            return None
+        stored = {n.id for s in body for n in ast.walk(s) if isinstance(n, ast.Name) and isinstance(n.ctx, (ast.Store, ast.Del))}
+        scoped = {n.id for s in body for x in ast.walk(s) if isinstance(x, (ast.ListComp, ast.SetComp, ast.DictComp, ast.GeneratorExp, ast.Lambda))
+                  for g in (x.generators if not isinstance(x, ast.Lambda) else []) for n in ast.walk(g.target) if isinstance(n, ast.Name)}
+        scoped |= {x.arg for s in body for l in ast.walk(s) if isinstance(l, ast.Lambda) for x in l.args.args}
+        free_in_args = {n.id for v in argmap.values() for n in ast.walk(v) if isinstance(n, ast.Name)}
+        if scoped & (free_in_args | set(argmap)) or (selfname is not None and selfname in stored):
+            return None
+        ren, pre = {}, []
+        for p in params + kwonly:
+            v = argmap[p]
+            if p not in stored and isinstance(v, (ast.Name, ast.Constant)):
+                ren[p] = _clone(v)
+            else:
+                nm = p if p not in self.names else self.fresh(f"{p}__{h.name.strip('_')}")
+                self.names.add(nm)
+                ren[p] = ast.Name(id=nm, ctx=ast.Load())
+                pre.append(ast.copy_location(ast.Assign(targets=[ast.Name(id=nm, ctx=ast.Store())], value=_clone(v)), at))
+        for x in sorted(stored - set(params) - set(kwonly) - scoped):
+            if x in self.names:
+                ren[x] = ast.Name(id=self.fresh(f"{x}__{h.name.strip('_')}"), ctx=ast.Load())
+            else:
+                self.names.add(x)
+        if selfname is not None and selfname != "self":
+            recv = c.func.value.id if isinstance(c.func, ast.Attribute) else "self"
+            ren[selfname] = ast.Name(id=recv, ctx=ast.Load())
+
+        class R(ast.NodeTransformer):
+            def visit_Name(self_, n):
+                if n.id in ren and n.id not in scoped:
+                    r = _clone(ren[n.id])
+                    if isinstance(r, ast.Name):
+                        r.ctx = type(n.ctx)()
+                    elif not isinstance(n.ctx, ast.Load):
+                        raise ValueError("store to a substituted parameter")
+                    return ast.copy_location(r, n)
+                return n
+
+        try:
+            new = [R().visit(_clone(s)) for s in body]
+        except ValueError:
+            return None
+
+        def conv(stmts):
+            out = []
+            for s in stmts:
+                if isinstance(s, ast.Return):
+                    if mode == "assign":
+                        out.append(ast.copy_location(ast.Assign(targets=[ast.Name(id=target, ctx=ast.Store())], value=s.value if s.value is not None else ast.Constant(value=None)), s))
+                    elif s.value is not None and any(isinstance(x, ast.Call) for x in ast.walk(s.value)):
+                        out.append(ast.copy_location(ast.Expr(value=s.value), s))
+                    elif not out and len(stmts) == 1:
+                        out.append(ast.copy_location(ast.Pass(), s))
+                elif isinstance(s, ast.If):
+                    s.body, s.orelse = conv(s.body) or [ast.copy_location(ast.Pass(), s)], conv(s.orelse)
+                    out.append(s)
+                else:
+                    out.append(s)
+            return out
+
+        if mode != "return":
+            falls = not source._terminates(new)
+            new = conv(new)
+            if mode == "assign" and falls:
+                new.append(ast.copy_location(ast.Assign(targets=[ast.Name(id=target, ctx=ast.Store())], value=ast.Constant(value=None)), at))
+        elif not source._terminates(new):
+            new.append(ast.copy_location(ast.Return(value=None), at))
+        for s in pre + new:
+            for x in ast.walk(s):
+                if not hasattr(x, "lineno") and isinstance(x, (ast.expr, ast.stmt)):
+                    ast.copy_location(x, at)
+        self.inlined.append(h)
+        self.count += 1
+        return pre + new
+
+    # -- statements --------------------------------------------------------------------------------------------------------------------------------
+    def own_exprs(self, s):
+        """the expressions a statement evaluates itself, once, before any nested block runs (evaluation order)"""
+        if isinstance(s, ast.Assign):
+            return [s.value] + list(s.targets)
+        if isinstance(s, ast.AugAssign):
+            return [s.target, s.value]
+        if isinstance(s, ast.AnnAssign):
+            return [s.value, s.target]
+        if isinstance(s, (ast.Expr, ast.Return)):
+            return [s.value]
+        if isinstance(s, ast.If):
+            return [s.test]
+        if isinstance(s, ast.For):
+            return [s.iter]
+        if isinstance(s, ast.With):
+            return [s.items[0].context_expr] if s.items else []
+        if isinstance(s, (ast.Raise,)):
+            return [s.exc, s.cause]
+        return []
+
+    def one(self, s, stack):
+        """[statements] replacing s after inlining its first helper call, or None"""
+        if self.count >= self.MAX_INLINES:
+            return None
+        calls = [x for e in self.own_exprs(s) if e is not None for x in _calls_in_order(e)]
+        if any(isinstance(x, (ast.Await, ast.Yield, ast.YieldFrom, ast.NamedExpr)) for e in self.own_exprs(s) if e is not None for x in ast.walk(e)):
+            return None
+        before = []  # calls that complete before the candidate
+        for c, cond in calls:
+            if is_logging_call(c):
+                continue
+            r = self.resolve(c)
+            if r is None:
+                before.append(c)
+                continue
+            own_args = {id(x) for x in ast.walk(c)}
+            if cond or r[0].name in stack or any(id(x) not in own_args for x in before):
+                return None  # evaluated conditionally / recursion / another call completes first: inlining the body in front of the statement would reorder effects
+            h, bound = r
+            if isinstance(s, ast.Expr) and s.value is c:
+                new = self.body_for(c, h, bound, "expr", None, s)
+                return None if new is None else (new, h)
+            if isinstance(s, ast.Return) and s.value is c:
+                new = self.body_for(c, h, bound, "return", None, s)
+                return None if new is None else (new, h)
+            if isinstance(s, ast.Assign) and s.value is c and len(s.targets) == 1 and isinstance(s.targets[0], ast.Name):
+                new = self.body_for(c, h, bound, "assign", s.targets[0].id, s)
+                return None if new is None else (new, h)
+            tmp = self.fresh(f"r__{h.name.strip('_')}")
+            new = self.body_for(c, h, bound, "assign", tmp, s)
+            if new is None:
+                return None
+
+            class Sub(ast.NodeTransformer):
+                def visit_Call(self_, n):
+                    if n is c:
+                        return ast.copy_location(ast.Name(id=tmp, ctx=ast.Load()), n)
+                    return self_.generic_visit(n)
+
+            return new + [Sub().visit(s)], h
+        return None
+
+    def block(self, stmts, stack=()):
+        out = []
+        todo = [(s, stack) for s in stmts]
+        while todo:
+            s, st = todo.pop(0)
+            r = self.one(s, st)
+            if r is not None:
+                new, h = r
+                todo = [(x, st + (h.name,)) if x is not s else (x, st) for x in new] + todo
+                continue
+            for fld in ("body", "orelse", "finalbody"):
+                b = getattr(s, fld, None)
+                if isinstance(b, list) and b and isinstance(b[0], ast.stmt):
+                    setattr(s, fld, self.block(b, st))
+            for hd in getattr(s, "handlers", []) or []:
+                hd.body = self.block(hd.body, st)
+            out.append(s)
+        return out or ([ast.copy_location(ast.Pass(), stmts[0])] if stmts else [])
+
+
+_expanded: dict = {}
+
+
+def _expand(fn, repo):
+    """fn analysed together with its private helpers (see above); fn itself when it calls none"""
+    key = id(fn)
+    if key in _expanded and _expanded[key][0] is fn:
+        return _expanded[key][1]
+    mod = source.module_of(fn)
+    ex = _Expander(fn, mod, repo)
+    body = ex.block(_clone(fn.body))
+    if not ex.inlined:
+        new = fn
+    else:
+        new = type(fn)(name=fn.name, args=_clone(fn.args), body=body, decorator_list=_clone(fn.decorator_list), returns=_clone(fn.returns), type_comment=None)
+        if "type_params" in type(fn)._fields:
+            new.type_params = []
+        ast.copy_location(new, fn)
+        ast.fix_missing_locations(new)
+        source.set_parents(new)
+        new._parent = source.parent(fn)
+        for n in ast.walk(new):
+            n._module = mod
+        new._origin = fn
+        new._inlined = list(ex.inlined)
+    _expanded[key] = (fn, new)
+    return new
+
+
+def _origin(fn):
+    return getattr(fn, "_origin", fn)
+
+
+def _within(node, fn):
+    """node (of the real module) lies in fn or in one of the private helpers that were inlined into fn"""
+    ef = source.enclosing_func(node)
+    return ef is not None and (ef is _origin(fn) or ef is fn or any(ef is h for h in getattr(fn, "_inlined", [])))
+
+
+def _pure_defs(defs):
+    """the single-assignment locals whose value is computed without calls other than pure builtins (len, min, ...): reading the local is reading the expression"""
+    pure = {"len", "min", "max", "sum", "abs", "bool", "int", "float", "sorted", "list", "tuple", "set", "any", "all"}
+    return {k: v for k, v in defs.items() if all(dotted(x.func) in pure for x in ast.walk(v) if isinstance(x, ast.Call)) and not any(isinstance(x, (ast.Await, ast.Yield)) for x in ast.walk(v))}
+
+
+def _class_view(mod, cls, repo):
+    """method name -> the method analysed together with its private helpers; helpers that were inlined into their caller are left out (their code is seen there)"""
+    meths = mod.methods(cls)
+    exp = {n: _expand(f, repo) for n, f in meths.items()}
+    inl = {id(h) for f in exp.values() for h in getattr(f, "_inlined", [])}
+    return {n: f for n, f in exp.items() if id(meths[n]) not in inl}
+
+
+def _worker_list_attrs(dm):
+    """Driver attributes that collect the started workers: self.<attr>.append(w) where w is what start_worker() is called with (role by data flow, not by attribute name)"""
+    out = set()
+    for m in dm.values():
+        started = {c.args[0].id for c in source.calls_in(m, attr="start_worker") if c.args and isinstance(c.args[0], ast.Name)}
+        for c in source.calls_in(m, attr="append"):
+            if isinstance(c.func, ast.Attribute) and is_self_attr(c.func.value) and c.args and isinstance(c.args[0], ast.Name) and c.args[0].id in started:
+                out.add(c.func.value.attr)
+    return out
+
+
+def _client_to_worker_attrs(dm):
+    """Driver attributes mapping a client id to the id of its worker: self.<attr>[client] = <id>, where <id> is the per-worker counter handed to start_worker()"""
+    out = set()
+    for m in dm.values():
+        given = {a.id for c in source.calls_in(m, attr="start_worker") for a in list(c.args[1:]) + [k.value for k in c.keywords] if isinstance(a, ast.Name)}
+        counted = {n.target.id for n in walk_body(m) if isinstance(n, ast.AugAssign) and isinstance(n.target, ast.Name) and isinstance(n.op, ast.Add) and source.is_const(n.value, 1)}
+        also = {a.id for c in source.calls_in(m, attr="create_client") for a in list(c.args) + [k.value for k in c.keywords] if isinstance(a, ast.Name)}
+        ids = given & (counted | also)
+        for n in walk_body(m):
+            if isinstance(n, ast.Assign) and len(n.targets) == 1 and isinstance(n.targets[0], ast.Subscript) and is_self_attr(n.targets[0].value) and isinstance(n.value, ast.Name) and n.value.id in ids:
+                out.add(n.targets[0].value.attr)
+    return out
+
+
+def _arrival_roles(repo, drv, jr, jr_calls):
+    """parameters of joinpoint_reached by what the handler passes for them: 'id' = the message field the worker fills with an attribute of its own (its id), 'ts' = the field the
+    message constructor fills with a clock read (the worker's own timestamp). Falls back to the positions (id, timestamp) when the chain cannot be followed."""
+    ps = params_of(jr)
+    roles = {"id": ps[1] if len(ps) > 1 else None, "ts": ps[2] if len(ps) > 2 else None}
+    try:
+        init = drv.methods(drv.cls("JoinPointReached")).get("__init__")
+    except AnchorMissing:
+        return roles
+    if init is None or not jr_calls:
+        return roles
+    fields = {}
+    for n in walk_body(init):
+        if isinstance(n, ast.Assign) and len(n.targets) == 1 and is_self_attr(n.targets[0]):
+            if isinstance(n.value, ast.Name) and n.value.id in params_of(init):
+                fields[n.targets[0].attr] = ("param", n.value.id)
+            elif isinstance(n.value, ast.Call) and (dotted(n.value.func) or "").startswith("time."):
+                fields[n.targets[0].attr] = ("clock", None)
+    cons = package_calls(repo, "JoinPointReached")
+
+    def identity(c, arg):
+        """arg is an attribute of the sending actor that is its identity: stored once outside the constructor, from a field of a message it received, and never changed"""
+        cls = source.enclosing_class(c)
+        if cls is None or not is_self_attr(arg):
+            return False
+        ws = [n for m in cls.body if isinstance(m, source.FUNC_TYPES) and m.name != "__init__" for n in walk_body(m) if isinstance(n, (ast.Assign, ast.AugAssign))
+              and any(is_self_attr(t_, arg.attr) for t_ in (n.targets if isinstance(n, ast.Assign) else [n.target]))]
+        return len(ws) == 1 and isinstance(ws[0], ast.Assign) and isinstance(ws[0].value, ast.Attribute) and isinstance(ws[0].value.value, ast.Name) \
+            and ws[0].value.value.id in params_of(source.enclosing_func(ws[0]))[1:2]
+
+    derived = {"id": [], "ts": []}
+    for p, a in source.bind_args(jr_calls[0], jr).items():
+        if isinstance(a, ast.Attribute) and isinstance(a.value, ast.Name) and a.attr in fields:
+            kind, ip = fields[a.attr]
+            if kind == "clock":
+                derived["ts"].append(p)
+            elif cons and all(identity(c, source.bind_args(c, init).get(ip)) for c in cons):
+                derived["id"].append(p)
+    if len(derived["id"]) == 1 and len(derived["ts"]) == 1:
+        return {"id": derived["id"][0], "ts": derived["ts"][0]}
+    return roles
+
+
+class _Section:
+    """one rule section of run(): an anchor that cannot be located makes THIS rule inconclusive and lets the remaining rules be evaluated (a later rule that needs a role located
+    by a skipped section is inconclusive too); a defect in one part of the protocol is still reported when another part has an unknown shape."""
+
+    def __init__(self, chk, rid):
+        self.chk, self.rid = chk, rid
+
+    def __enter__(self):
+        return self
+
+    def __exit__(self, et, ev, tb):
+        if et is None:
+            return False
+        if issubclass(et, AnchorMissing):
+            self.chk.inconclusive.append(f"anchor missing: {ev}")
+            return True
+        if issubclass(et, _Cannot):
+            self.chk.inconclusive.append(f"{self.rid}: not interpretable: {ev}")
+            return True
+        if issubclass(et, NameError):  # UnboundLocalError / free variable of a closure defined by a skipped section
+            self.chk.inconclusive.append(f"{self.rid}: anchor missing: needs a role that an earlier rule could not locate ({ev})")
+            return True
+        return False
+
+
 def run(chk):
     repo = chk.repo
     drv = repo.module(_D)
@@ -230,6 +1641,8 @@ def run(chk):
         "all-workers barrier and not-finished test; broadcasts iterate the full worker list; BenchmarkComplete exactly once behind barrier and finished; "
         "CompleteCurrentTask guarded by a per-step flag; the worker waits for its executor, ships samples and clears both events before JoinPointReached; "
         "the complete event is set only with cause; every normal exit of the wake-up chain has scheduled a successor (no dead end); "
+        "the allocation matrix (O1.1), the worker's row index and the row view (O1.9, O1.10) are decided on VALUES: the builder / the methods are interpreted as syntax trees on model "
+        "schedules and a model matrix (local interpreter, nothing of the repository is executed); methods are analysed together with the private helpers extracted from them; "
         "the first of several co-located clients of the task named by completed-by must not set the worker-wide complete event on static conditions alone (O1.11, decided on values)."
     )
     chk.not_decided = ("races between the executor thread and the actor thread, FIFO/fairness assumptions, 'every client runs its task exactly once' as a count, "
@@ -239,705 +1652,959 @@ def run(chk):
     DA = model.actor("DriverActor")
     W = model.actor("Worker")
     TE = model.actor("TaskExecutionActor")
-    dm = drv.methods(Driver)
+    # every method is analysed together with the private helpers extracted from it (see _expand); a helper that was inlined into its caller is not looked at a second time
+    dm = _class_view(drv, Driver, repo)
+    wm = _class_view(drv, W.node, repo)
 
     # ---- O1.1 join points bracket every element ---------------------------------------------------------
-    chk.rule("O1.1", "the allocation-matrix builder appends one JoinPoint object to every client row before the schedule loop and, on every path of one "
-             "iteration of the schedule loop, after all TaskAllocation appends; join point ids are distinct", 5,
+    chk.rule("O1.1", "in the allocation matrix the builder returns for representative schedules (interpreted on model values, helper methods followed) every row starts with one shared "
+             "JoinPoint and holds one further shared, fresh JoinPoint after each schedule element, at the same position on every row; every TaskAllocation lies between the two join "
+             "points of its element, each task once per client; join point ids are distinct; a join point names the completing clients of its own element only", 8,
              "any schedule with >= 2 elements: clients would run into the next element without synchronising (or deadlock at a missing join point on one row)")
-    builder = None
-    for f in drv.functions():
-        names = {last_attr(c.func) for c in source.calls_in(f)}
-        if "JoinPoint" in names and "TaskAllocation" in names:
-            builder = f
-    if builder is None:
-        raise AnchorMissing("matrix builder (function constructing both JoinPoint and TaskAllocation)")
-    g = cfg_of(builder)
-    defs = local_defs(builder)
-    sched_loops = [n for n in walk_body(builder) if isinstance(n, ast.For) and is_self_attr(n.iter, "schedule")]
-    if not sched_loops:
-        raise AnchorMissing("schedule loop (for ... in self.schedule) in the matrix builder")
-    L = sched_loops[0]
-    # row count: matrix = [None] * X
-    rowcount = None
-    matrix = None
-    for n in walk_body(builder):
-        if isinstance(n, ast.Assign) and isinstance(n.value, ast.BinOp) and isinstance(n.value.op, ast.Mult) and isinstance(n.targets[0], ast.Name) \
-                and (isinstance(n.value.left, ast.List) != isinstance(n.value.right, ast.List)):
-            matrix = n.targets[0].id
-            rowcount = inline(n.value.left if isinstance(n.value.right, ast.List) else n.value.right, defs)
-    if matrix is None:
-        raise AnchorMissing("matrix allocation `[None] * <rows>` in the builder")
-
-    def jp_broadcasts():
-        out = []
-        for n in walk_body(builder):
-            if isinstance(n, ast.For) and isinstance(n.iter, ast.Call) and last_attr(n.iter.func) == "range" and len(n.iter.args) == 1 and isinstance(n.target, ast.Name):
-                if inline(n.iter.args[0], defs) != rowcount or _has_jump(n):
-                    continue
-                lbody = [s_ for s_ in n.body if not is_logging_stmt(s_)]
-                if len(lbody) != 1:
-                    continue
-                st = lbody[0]
-                if isinstance(st, ast.Expr) and isinstance(st.value, ast.Call) and last_attr(st.value.func) == "append" and isinstance(st.value.func, ast.Attribute):
-                    recv = st.value.func.value
-                    if isinstance(recv, ast.Subscript) and isinstance(recv.value, ast.Name) and recv.value.id == matrix and isinstance(recv.slice, ast.Name) and recv.slice.id == n.target.id:
-                        arg = st.value.args[0] if st.value.args else None
-                        if isinstance(arg, ast.Name):
-                            out.append((n, arg.id))
-        return out
-
-    bcs = jp_broadcasts()
-    jp_assigns = [n for n in walk_body(builder) if isinstance(n, ast.Assign) and isinstance(n.value, ast.Call) and last_attr(n.value.func) == "JoinPoint" and isinstance(n.targets[0], ast.Name)]
-    jp_vars = {a.targets[0].id for a in jp_assigns}
-    bcs = [(n, v) for n, v in bcs if v in jp_vars]
-    Lh = g.node_of(L)
-    pre = [(n, v) for n, v in bcs if L not in list(source.ancestors(n))]
-    inl = [(n, v) for n, v in bcs if L in list(source.ancestors(n))]
-    ok = bool(pre) and g.dominated_by_nodes(Lh, [g.node_of(n) for n, _ in pre])
-    chk.ob("O1.1", "initial join point on every row before the schedule loop", ok, pre[0][0] if pre else builder,
-           f"{len(pre)} broadcast loop(s) over range({rowcount}) before the schedule loop")
-    starts = g.edge_targets(Lh, "iter")
-    inl_nodes = [g.node_of(n) for n, _ in inl]
-    ok = bool(inl) and all(Lh.id not in g.reachable([s], avoid=inl_nodes) for s in starts)
-    path = None
-    if inl and not ok:
-        p = g.find_path(starts[0], Lh, avoid=inl_nodes)
-        path = g.describe_path(p) if p else None
-    chk.ob("O1.1", "join point on every row after every schedule element", ok, inl[0][0] if inl else L,
-           f"{len(inl)} broadcast loop(s) inside the schedule loop" + ("" if ok else " — an iteration can reach the back edge without appending the join point to all rows"), path=path)
-    # the join point appended in the loop is constructed in the same iteration (fresh object) before the broadcast
-    for n, v in inl:
-        fresh = [g.node_of(a) for a in jp_assigns if a.targets[0].id == v and L in list(source.ancestors(a))]
-        ok = bool(fresh) and all(g.node_of(n).id not in g.reachable(starts, avoid=fresh) for _ in [0])
-        chk.ob("O1.1", "a fresh JoinPoint per schedule element", ok, n, f"variable {v}")
-    # TaskAllocation appends precede the broadcast within an iteration
-    ta_appends = []
-    for n in walk_body(builder):
-        if isinstance(n, ast.Call) and last_attr(n.func) == "append" and n.args and isinstance(n.func, ast.Attribute) and isinstance(n.func.value, ast.Subscript) \
-                and isinstance(n.func.value.value, ast.Name) and n.func.value.value.id == matrix:
-            a = n.args[0]
-            val = defs.get(a.id) if isinstance(a, ast.Name) else a
-            if isinstance(val, ast.Call) and last_attr(val.func) == "TaskAllocation":
-                ta_appends.append(n)
-    if not ta_appends:
-        raise AnchorMissing("TaskAllocation append into the matrix")
-    ok = all(not g.path_exists(b, g.node_of(t), avoid=[Lh]) for b in inl_nodes for t in ta_appends)
-    chk.ob("O1.1", "no task allocation after the element's join point", ok, ta_appends[0], f"{len(ta_appends)} TaskAllocation append site(s)")
-    # distinct ids
-    for a in jp_assigns:
-        idv = a.value.args[0] if a.value.args else None
-        ok = False
-        if isinstance(idv, ast.Name):
-            incs = [n for n in walk_body(builder) if isinstance(n, ast.AugAssign) and isinstance(n.target, ast.Name) and n.target.id == idv.id
-                    and isinstance(n.op, ast.Add) and source.is_const(n.value, 1)]
-            an = g.node_of(a)
-            # every path from this construction to the next construction (or exit) passes an increment
-            others = [g.node_of(x) for x in jp_assigns]
-            r = g.reachable([an] if False else [g.nodes[y] for y, _ in g.succ[an.id]], avoid=[g.node_of(i) for i in incs], edge_ok=g.normal_edge)
-            ok = bool(incs) and not any(o.id in r for o in others)
-        chk.ob("O1.1", "join point ids are distinct (id incremented between constructions)", ok, a, short(a, 70))
+    with _Section(chk, "O1.1"):
+        allocation_matrix_rule(chk, "O1.1", drv)
 
     # ---- O1.2 barrier guards Drive ----------------------------------------------------------------------------
-    chk.rule("O1.2", "Drive is constructed only in the routine reached from the JoinPointReached handler, behind the true edge of "
-             "`arrival counter == len(workers)` and the false edge of the finished test; the counter is incremented exactly once per arrival", 6,
+    chk.rule("O1.2", "Drive is constructed only in the routine reached from the JoinPointReached handler (private helpers analysed in place), behind the barrier test - the branch on the "
+             "arrival counter, evaluated for 1, 2, 3 arrivals of 3 started workers: it must hold for the last arrival only - and the false edge of the finished test; the counter is "
+             "incremented exactly once per arrival", 6,
              "two workers, the second slower: the first would be driven into the next element early")
-    jr = dm.get("joinpoint_reached")
-    mv = dm.get("move_to_next_task")
-    if jr is None or mv is None:
-        raise AnchorMissing("Driver.joinpoint_reached / move_to_next_task")
-    gjr = cfg_of(jr)
-    drive_sites = package_calls(repo, "Drive")
-    if not drive_sites:
-        raise AnchorMissing("construction of Drive")
-    for c in drive_sites:
-        fn = source.enclosing_func(c)
-        cls = source.enclosing_class(c)
-        if fn is None:
-            raise AnchorMissing(f"function enclosing the construction of Drive at {source.loc(c)}")
-        ok = cls is not None and cls.name == "DriverActor" and not fn.name.startswith("receive")
-        callers = [x for x in package_calls(repo, fn.name) if source.enclosing_func(x) is not fn]
-        ok = ok and bool(callers) and all(source.enclosing_func(x) is mv for x in callers)
-        chk.ob("O1.2", f"Drive() constructed in {cls.name if cls else '?'}.{fn.name}, called only from Driver.move_to_next_task", ok, c,
-               f"callers: {sorted({source.qualname(x) for x in callers})}")
-    mv_calls = [x for x in package_calls(repo, "move_to_next_task")]
-    ok = bool(mv_calls) and all(source.enclosing_func(x) is jr for x in mv_calls)
-    chk.ob("O1.2", "move_to_next_task called only from joinpoint_reached", ok, mv_calls[0] if mv_calls else mv, f"{len(mv_calls)} call site(s)")
-    jr_calls = package_calls(repo, "joinpoint_reached")
-    ok = bool(jr_calls) and all(source.enclosing_func(x).name == "receiveMsg_JoinPointReached" for x in jr_calls)
-    chk.ob("O1.2", "joinpoint_reached called only from the JoinPointReached handler", ok, jr_calls[0] if jr_calls else jr, f"{len(jr_calls)} call site(s)")
-    # barrier counter
-    incs = [n for n in walk_body(jr) if isinstance(n, ast.AugAssign) and is_self_attr(n.target) and isinstance(n.op, ast.Add) and source.is_const(n.value, 1)]
-    counter = None
-    barrier_tests = []
-    for n in walk_body(jr):
-        if isinstance(n, ast.If) and isinstance(n.test, ast.Compare) and len(n.test.ops) == 1:
-            l, r = n.test.left, n.test.comparators[0]
-            for a, b in ((l, r), (r, l)):
-                if is_self_attr(a) and any(i.target.attr == a.attr and not guards(i) for i in incs):
-                    counter = a.attr
-                    barrier_tests.append(n)
-    if counter is None or not barrier_tests:
-        raise AnchorMissing("barrier test on the arrival counter (attribute incremented by one per arrival) in joinpoint_reached")
-    bt = barrier_tests[0]
-    left_is_counter = is_self_attr(bt.test.left, counter)
-    other = bt.test.comparators[0] if left_is_counter else bt.test.left
-    # the test is evaluated for arrived in (1, 2, 3) of 3 workers: it must separate exactly `arrived == 3`; the arm taken then is the barrier-closed arm
-    _cmp = _me._CMP.get(type(bt.test.ops[0])) if type(bt.test.ops[0]) in (ast.Eq, ast.NotEq, ast.Lt, ast.LtE, ast.Gt, ast.GtE) else None
-    res = [(_cmp(a, 3) if left_is_counter else _cmp(3, a)) for a in (1, 2, 3)] if _cmp is not None else [None] * 3
-    ok = u(other) == "len(self.workers)" and res[0] == res[1] and res[1] != res[2] and None not in res
-    closed_pol = bool(res[2])
-    chk.ob("O1.2", "barrier: arrival counter == len(workers)", ok, bt, f"`{u(bt.test)}`" + ("" if ok else " lets the step close before all workers arrived (or never)"))
-    cinc = [i for i in incs if i.target.attr == counter]
-    btn = gjr.node_of(bt)
-    ok = len(cinc) == 1 and gjr.dominated_by_nodes(btn, [gjr.node_of(cinc[0])]) and not guards(cinc[0])
-    chk.ob("O1.2", "arrival counter incremented exactly once per arrival, before the barrier test", ok, cinc[0] if cinc else jr, f"{len(cinc)} increment(s) of self.{counter}")
-    others = [n for m in dm.values() for n in walk_body(m) if isinstance(n, (ast.Assign, ast.AugAssign)) and
-              any(is_self_attr(t, counter) for t in (n.targets if isinstance(n, ast.Assign) else [n.target])) and m.name not in ("__init__",) and n not in cinc]
-    for o in others:
-        ok = isinstance(o, ast.Assign) and source.is_const(o.value, 0) and source.enclosing_func(o) is jr and any(t is bt.test and pol == closed_pol for t, pol in guards(o))
-        chk.ob("O1.2", "arrival counter reset only when the barrier closes", ok, o, short(o, 60))
-    for x in mv_calls:
-        gs = guards(x)
-        in_barrier = any(t is bt.test and pol == closed_pol for t, pol in gs)
-        not_finished = _call_fact(x, "finished", False)
-        chk.ob("O1.2", "next element driven only behind barrier and not finished", in_barrier and not_finished, x,
-               f"guards: {[(u(t), pol) for t, pol in gs]}")
+    with _Section(chk, "O1.2"):
+        jr = dm.get("joinpoint_reached")
+        mv = dm.get("move_to_next_task")
+        if jr is None or mv is None:
+            raise AnchorMissing("Driver.joinpoint_reached / move_to_next_task")
+        gjr = cfg_of(jr)
+        wl = _worker_list_attrs(dm)  # the list of started workers (role: collects what start_worker() was called with)
+        if not wl:
+            raise AnchorMissing("the Driver attribute that collects the started workers (self.<attr>.append(w) next to start_worker(w, ...))")
+        drive_sites = package_calls(repo, "Drive")
+        if not drive_sites:
+            raise AnchorMissing("construction of Drive")
+        for c in drive_sites:
+            fn = source.enclosing_func(c)
+            cls = source.enclosing_class(c)
+            if fn is None:
+                raise AnchorMissing(f"function enclosing the construction of Drive at {source.loc(c)}")
+            callers = [x for x in package_calls(repo, fn.name) if source.enclosing_func(x) is not fn]
+            if not callers:
+                chk.unknown("O1.2", f"no call site of {fn.name} (which constructs Drive) is visible by name", c)
+                continue
+            ok = cls is not None and cls.name == "DriverActor" and not fn.name.startswith("receive") and all(_within(x, mv) for x in callers)
+            chk.ob("O1.2", f"Drive() constructed in {cls.name if cls else '?'}.{fn.name}, called only from Driver.move_to_next_task", ok, c,
+                   f"callers: {sorted({source.qualname(x) for x in callers})}")
+        mv_sites = package_calls(repo, "move_to_next_task")
+        if not mv_sites:
+            raise AnchorMissing("call of move_to_next_task")
+        chk.ob("O1.2", "move_to_next_task called only from joinpoint_reached", all(_within(x, jr) for x in mv_sites), mv_sites[0], f"{len(mv_sites)} call site(s)")
+        mv_calls = source.calls_in(jr, attr="move_to_next_task")  # as they appear in the handler routine (private helpers inlined)
+        jr_calls = package_calls(repo, "joinpoint_reached")
+        hjr = DA.methods.get("receiveMsg_JoinPointReached")
+        if not jr_calls or hjr is None:
+            raise AnchorMissing("call of joinpoint_reached / DriverActor.receiveMsg_JoinPointReached")
+        hjr = _expand(hjr, repo)
+        chk.ob("O1.2", "joinpoint_reached called only from the JoinPointReached handler", all(_within(x, hjr) for x in jr_calls), jr_calls[0], f"{len(jr_calls)} call site(s)")
+        # barrier counter: the attribute incremented by one, unconditionally, per arrival; barrier test: the branch of the routine that reads it. The test is EVALUATED for arrived in
+        # (1, 2, 3) of 3 started workers: it must separate exactly `arrived == 3`; the arm taken then is the barrier-closed arm
+        incs = [n for n in walk_body(jr) if isinstance(n, ast.AugAssign) and is_self_attr(n.target) and isinstance(n.op, ast.Add) and source.is_const(n.value, 1)
+                and not guards(n, path_sensitive=True)]
+        counter, bt, res = None, None, None
+        jdefs = _pure_defs(local_defs(jr))
+        for n in walk_body(jr):
+            if not isinstance(n, ast.If):
+                continue
+            test = source.inline_node(n.test, jdefs)
+            reads = {x.attr for x in ast.walk(test) if is_self_attr(x)}
+            cands = [i.target.attr for i in incs if i.target.attr in reads]
+            if len(cands) != 1:
+                continue
+            # what the other attributes of the test stand for with three started workers: the worker list itself, or an attribute the class derives from it (n = len(self.workers))
+            three = {w: ["w0", "w1", "w2"] for w in wl}
+            others_, foreign, unknown_ = {}, [], []
+            for x_ in sorted(reads - {cands[0]}):
+                if x_ in wl:
+                    others_[x_] = three[x_]
+                    continue
+                defs_ = [a_.value for m_ in dm.values() for a_ in walk_body(m_) if isinstance(a_, ast.Assign) and any(is_self_attr(t_, x_) for t_ in a_.targets) and m_.name != "__init__"]
+                derived = [d_ for d_ in defs_ if any(is_self_attr(y_) and y_.attr in wl for y_ in ast.walk(d_))]
+                try:
+                    if derived and len(derived) == len(defs_):
+                        others_[x_] = _me.ev(derived[0], {"self": _me.Record(**three)})
+                    elif defs_:
+                        foreign.append(x_)
+                        others_[x_] = 3
+                    else:
+                        unknown_.append(x_)
+                except _me.CannotEval:
+                    unknown_.append(x_)
+            if unknown_:
+                continue
+            try:
+                vals = [bool(_me.ev(test, {"self": _me.Record(**{cands[0]: a}, **others_)})) for a in (1, 2, 3)]
+            except _me.CannotEval:
+                continue
+            counter, bt, res, bt_reads = cands[0], n, vals, reads - {cands[0]}
+            break
+        if counter is None:
+            raise AnchorMissing("barrier test on the arrival counter (attribute incremented by one per arrival) in joinpoint_reached")
+        ok = bool(bt_reads) and not foreign and res[0] == res[1] and res[1] != res[2]
+        closed_pol = bool(res[2])
+        chk.ob("O1.2", "barrier: arrival counter == len(workers)", ok, bt, f"`{u(bt.test)}` for 1, 2, 3 of 3 workers: {res}" + ("" if ok else
+               (" lets the step close before all workers arrived (or never)" if not foreign else f" compares the arrivals with {foreign} (not derived from the started workers {sorted(wl)})")))
+
+        def closed(node):
+            """node runs only when the barrier has just closed (explicit arm or what is left after a guard clause)"""
+            return any(t is bt.test and pol == closed_pol for t, pol in guards(node, path_sensitive=True))
+
+        def still_open(node):
+            return any(t is bt.test and pol != closed_pol for t, pol in guards(node, path_sensitive=True))
+
+        cinc = [n for n in walk_body(jr) if isinstance(n, (ast.AugAssign, ast.Assign)) and any(is_self_attr(t_, counter) for t_ in (n.targets if isinstance(n, ast.Assign) else [n.target]))
+                and not (isinstance(n, ast.Assign) and source.is_const(n.value, 0))]
+        btn = gjr.node_of(bt)
+        ok = len(cinc) == 1 and isinstance(cinc[0], ast.AugAssign) and isinstance(cinc[0].op, ast.Add) and source.is_const(cinc[0].value, 1) \
+            and gjr.dominated_by_nodes(btn, [gjr.node_of(cinc[0])]) and not guards(cinc[0], path_sensitive=True)
+        chk.ob("O1.2", "arrival counter incremented exactly once per arrival, before the barrier test", ok, cinc[0] if cinc else jr, f"{len(cinc)} increment(s) of self.{counter}")
+        others = [n for m in dm.values() for n in walk_body(m) if isinstance(n, (ast.Assign, ast.AugAssign)) and
+                  any(is_self_attr(t, counter) for t in (n.targets if isinstance(n, ast.Assign) else [n.target])) and m.name not in ("__init__",) and not any(n is x for x in cinc)]
+        for o in others:
+            ok = isinstance(o, ast.Assign) and source.is_const(o.value, 0) and source.enclosing_func(o) is jr and closed(o)
+            chk.ob("O1.2", "arrival counter reset only when the barrier closes", ok, o, short(o, 60))
+        for x in mv_calls:
+            gs = guards(x, path_sensitive=True)
+            not_finished = _call_fact(x, "finished", False)
+            chk.ob("O1.2", "next element driven only behind barrier and not finished", closed(x) and not_finished, x,
+                   f"guards: {[(u(t), pol) for t, pol in gs]}")
 
     # ---- O1.2b broadcasts cover the whole worker list ----------------------------------------------------------------
-    chk.rule("O1.2b", "the loops that send Drive and CompleteCurrentTask iterate the complete worker list with no filter, break, continue or return; "
-             "each worker's start time is read from the per-step entry of that worker's index", 3,
+    chk.rule("O1.2b", "the loops that send Drive and CompleteCurrentTask address every started worker exactly once (loop header and address argument evaluated for three started workers) "
+             "with no filter, break, continue or return; each worker's start time is read from the per-step entry stored under that worker's id, the pair read in the order written", 3,
              ">= 2 workers: one worker is never driven / never told to complete, so the barrier never closes")
-    for fname, sendname in (("move_to_next_task", "drive_at"), ("may_complete_current_task", "complete_current_task")):
-        fn = dm.get(fname)
-        if fn is None:
-            raise AnchorMissing(f"Driver.{fname}")
-        for c in source.calls_in(fn, attr=sendname):
-            loop = source.enclosing(c, ast.For)
-            ok = False
-            detail = "not inside a loop over the workers"
-            if loop is not None:
-                it = loop.iter
-                full = is_self_attr(it, "workers") or (isinstance(it, ast.Call) and last_attr(it.func) == "enumerate" and len(it.args) == 1 and is_self_attr(it.args[0], "workers"))
-                cond = guards(c, stop=loop)
+    with _Section(chk, "O1.2b"):
+        for fname, sendname in (("move_to_next_task", "drive_at"), ("may_complete_current_task", "complete_current_task")):
+            fn = dm.get(fname)
+            if fn is None:
+                raise AnchorMissing(f"Driver.{fname}")
+            sends = source.calls_in(fn, attr=sendname)
+            if not sends:
+                raise AnchorMissing(f"{sendname} call in Driver.{fname}")
+            # the argument that is the address the message goes to: the parameter the sending method hands to send() as target
+            sm = DA.methods.get(sendname)
+            tpar = [c_.args[0].id for c_ in source.calls_in(sm, attr="send") if c_.args and isinstance(c_.args[0], ast.Name) and c_.args[0].id in params_of(sm)] if sm is not None else []
+            for c in sends:
+                loop = source.enclosing(c, (ast.For, ast.While, ast.ListComp, ast.GeneratorExp, ast.SetComp, ast.DictComp), )
+                addr = source.bind_args(c, sm).get(tpar[0]) if tpar else (c.args[0] if c.args else None)
+                if not isinstance(loop, ast.For) or addr is None or fn not in list(source.ancestors(loop)):
+                    chk.unknown("O1.2b", f"{fname}: the {sendname} call is not inside a for loop of the routine (broadcast shape not recognised)", c)
+                    continue
+                # the loop header and the address argument are EVALUATED for three started workers: every worker must be addressed exactly once
+                mach = _Machine(drv)
+                started = ["w0", "w1", "w2"]
+                me_ = _Obj(None, **{w: list(started) for w in wl})
+                step_entries, covered, keyed = {}, [], []
+                try:
+                    for v in mach._iter(mach.ev(loop.iter, {"self": me_}), loop.iter):
+                        env = {"self": me_}
+                        mach.bind(loop.target, v, env)
+                        for st_ in loop.body:  # plain single assignments in front of the call (w = entry[1] ...)
+                            if isinstance(st_, ast.Assign) and len(st_.targets) == 1 and isinstance(st_.targets[0], ast.Name) and not any(isinstance(x, ast.Call) for x in ast.walk(st_.value)):
+                                try:
+                                    mach.bind(st_.targets[0], mach.ev(st_.value, env), env)
+                                except _Cannot:
+                                    pass
+                        a_ = mach.ev(addr, env)
+                        covered.append(a_)
+                        if sendname == "drive_at":
+                            for n in ast.walk(loop):
+                                if isinstance(n, ast.Subscript) and isinstance(n.value, ast.Name) and n.value.id in params_of(fn) and isinstance(n.ctx, ast.Load):
+                                    keyed.append((a_, mach.ev(n.slice, env), n))
+                except _Cannot as x:
+                    chk.unknown("O1.2b", f"{fname}: broadcast loop `for {u(loop.target)} in {u(loop.iter)}` not interpretable: {x}", loop)
+                    continue
+                full = sorted(map(repr, covered)) == sorted(map(repr, started))
+                cond = guards(c, stop=loop, path_sensitive=True)
                 ok = full and not _has_jump(loop) and not cond
-                detail = f"for ... in {u(it)}" + ("" if full else " (not the complete worker list)") + (" with jump statements" if _has_jump(loop) else "") + (f" under {[(u(t), p) for t, p in cond]}" if cond else "")
-                if ok and sendname == "drive_at" and isinstance(it, ast.Call):
-                    # per-worker timestamp from the per-step map at the enumerate index
-                    idx = loop.target.elts[0].id if isinstance(loop.target, ast.Tuple) and isinstance(loop.target.elts[0], ast.Name) else None
-                    subs = [n for n in ast.walk(loop) if isinstance(n, ast.Subscript) and isinstance(n.slice, ast.Name) and n.slice.id == idx and isinstance(n.value, ast.Name)
-                            and n.value.id in params_of(fn)]
-                    ok = bool(subs)
-                    detail += f"; start time from {u(subs[0]) if subs else 'no per-worker entry'}"
-            chk.ob("O1.2b", f"{fname}: {sendname} to every worker", ok, c, detail)
-    # the map key is the worker id of the arriving worker
-    stores = [n for n in walk_body(jr) if isinstance(n, ast.Assign) and isinstance(n.targets[0], ast.Subscript) and is_self_attr(n.targets[0].value)
-              and isinstance(n.targets[0].slice, ast.Name) and n.targets[0].slice.id == params_of(jr)[1]]
-    chk.ob("O1.2b", "per-step map keyed by the arriving worker's id", bool(stores) and not guards(stores[0]), stores[0] if stores else jr, short(stores[0], 70) if stores else "")
-    stepmap = stores[0].targets[0].value.attr if stores else None
-    # the entry is (worker's own timestamp, coordinator's receive time); the start time sent back is worker_ts + (start - received): the same pair order at writer and reader
-    ok = False
-    detail = ""
-    if stores and isinstance(stores[0].value, ast.Tuple) and len(stores[0].value.elts) == 2:
-        e0, e1 = stores[0].value.elts
-        w_ok = isinstance(e0, ast.Name) and e0.id == params_of(jr)[2] and isinstance(e1, ast.Call) and (dotted(e1.func) or "").startswith("time.")
+                detail = f"for ... in {u(loop.iter)} addresses {covered} of {started}" + ("" if full else " (not every started worker exactly once)") + (" with jump statements" if _has_jump(loop) else "") \
+                    + (f" under {[(u(t), p) for t, p in cond]}" if cond else "")
+                if ok and sendname == "drive_at":
+                    # the per-step entry read for a worker is the one stored under that worker's id (= its position in the list of started workers)
+                    if not keyed:
+                        chk.unknown("O1.2b", f"{fname}: no read of a per-worker entry of the closed step's arrival map in the Drive loop", loop)
+                        continue
+                    wrong = [(w_, k_) for w_, k_, _ in keyed if not (w_ in started and k_ == started.index(w_))]
+                    ok = not wrong
+                    detail += f"; start time from {u(keyed[0][2])}" + ("" if ok else f": (worker, key read) {wrong[:2]} is another worker's entry")
+                chk.ob("O1.2b", f"{fname}: {sendname} to every worker", ok, c, detail)
+        # the map key is the worker id of the arriving worker
+        roles = _arrival_roles(repo, drv, jr, jr_calls)
+        jdefs_ = local_defs(jr)
+        stores = [n for n in walk_body(jr) if isinstance(n, ast.Assign) and isinstance(n.targets[0], ast.Subscript) and is_self_attr(n.targets[0].value)
+                  and isinstance(n.value, ast.Tuple)]
+        if len(stores) != 1:
+            raise AnchorMissing("the one store of an arrival into the per-step map (self.<map>[<key>] = (<timestamp>, <clock read>)) in joinpoint_reached")
+        key_ = source.inline_node(stores[0].targets[0].slice, jdefs_, no_calls=True)
+        ok = isinstance(key_, ast.Name) and key_.id == roles["id"] and not guards(stores[0], path_sensitive=True)
+        chk.ob("O1.2b", "per-step map keyed by the arriving worker's id", ok, stores[0], short(stores[0], 70) + ("" if ok else f": the key is not the worker id parameter `{roles['id']}` (or the store is conditional)"))
+        stepmap = stores[0].targets[0].value.attr
+        # the entry is (worker's own timestamp, coordinator's receive time); the start time sent back is worker_ts + (start - received): the same pair order at writer and reader
         dcall = source.calls_in(mv, attr="drive_at")
         unp = [n for n in walk_body(mv) if isinstance(n, ast.Assign) and isinstance(n.targets[0], ast.Tuple) and len(n.targets[0].elts) == 2 and isinstance(n.value, ast.Subscript)
                and isinstance(n.value.value, ast.Name) and n.value.value.id in params_of(mv) and all(isinstance(t, ast.Name) for t in n.targets[0].elts)]
-        if w_ok and dcall and unp and len(dcall[0].args) >= 2:
-            A, B = (t.id for t in unp[0].targets[0].elts)
+        elts = list(stores[0].value.elts)
+        pos_ts = [i for i, e in enumerate(elts) if isinstance(source.inline_node(e, jdefs_, no_calls=True), ast.Name) and source.inline_node(e, jdefs_, no_calls=True).id == roles["ts"]]
+        pos_ck = [i for i, e in enumerate(elts) if isinstance(e, ast.Call) and (dotted(e.func) or "").startswith("time.")]
+        if not (len(elts) == 2 and len(pos_ts) == 1 and len(pos_ck) == 1 and dcall and unp and len(dcall[0].args) >= 2):
+            chk.unknown("O1.2b", "start-time pair: the writer is not a pair of (worker timestamp parameter, clock read) or the reader does not unpack the pair (shape not recognised)", stores[0])
+        else:
+            e0, e1 = elts[pos_ts[0]], elts[pos_ck[0]]
+            names = [t.id for t in unp[0].targets[0].elts]
+            A, B = names[pos_ts[0]], names[pos_ck[0]]  # what the reader takes for the worker's timestamp / the coordinator's receive time, by position in the pair as written
             mdefs = local_defs(mv)
             inl = source.inline_node(dcall[0].args[1], mdefs, no_calls=True)
             free = {n.id for n in ast.walk(inl) if isinstance(n, ast.Name)} - {A, B}
+            ok = False
             if len(free) == 1:
                 S = next(iter(free))
                 sdef = mdefs.get(S)
                 ok = rat_equal(inl, parse_expr(f"{A} + {S} - {B}")) and sdef is not None and any(isinstance(x, ast.Call) and (dotted(x.func) or "") == dotted(e1.func) for x in ast.walk(sdef))
-            detail = f"written ({u(e0)}, {short(e1, 30)}), read as ({A}, {B}), start time sent: {u(inl)}"
-        else:
-            detail = "writer is not (worker timestamp parameter, clock read) or the reader does not unpack the pair"
-    chk.ob("O1.2b", "start time == worker's timestamp + (coordinator's start - coordinator's receive time), pair read in the order written", ok, stores[0] if stores else jr, detail,
-           key="esrally/driver/driver.py:Driver.move_to_next_task:start-time-pair")
+            detail = f"written {u(stores[0].value)}, read as ({', '.join(names)}), start time sent: {u(inl)}"
+            chk.ob("O1.2b", "start time == worker's timestamp + (coordinator's start - coordinator's receive time), pair read in the order written", ok, stores[0], detail,
+                   key="esrally/driver/driver.py:Driver.move_to_next_task:start-time-pair")
 
     # ---- O1.3 completion exactly once ------------------------------------------------------------------------------
     chk.rule("O1.3", "BenchmarkComplete is constructed at one site reached only behind barrier-complete and finished; the step attribute is incremented exactly "
-             "once before the finished test; finished compares it with len(join_points)-1; counter and per-step map are reset before any message is sent", 6,
+             "once before the finished test; finished (evaluated for step 0, 1, 2 of 2) holds from the last step on and the number of steps is len(join_points)-1 (evaluated for 3 "
+             "join points); counter and per-step map are reset before any message is sent", 6,
              "last element, any worker count: completion reported early, twice or never")
-    bc = package_calls(repo, "BenchmarkComplete")
-    chk.ob("O1.3", "single construction site of BenchmarkComplete", len(bc) == 1, bc[0] if bc else drv.tree, f"{len(bc)} site(s)")
-    for c in bc:
-        fn = source.enclosing_func(c)
-        if fn is None:
-            raise AnchorMissing(f"function enclosing the construction of BenchmarkComplete at {source.loc(c)}")
-        callers = [x for x in package_calls(repo, fn.name) if source.enclosing_func(x) is not fn and source.enclosing_class(x) is not None
-                   and source.enclosing_class(x).name in ("Driver",)]
-        ok = bool(callers) and all(source.enclosing_func(x) is jr for x in callers)
-        for x in callers:
-            gs = guards(x)
-            ok = ok and any(t is bt.test and pol == closed_pol for t, pol in gs) and _call_fact(x, "finished", True)
-        chk.ob("O1.3", "completion only behind barrier and finished", ok, c, f"callers: {[source.loc(x) for x in callers]}")
-    fin = dm.get("finished")
-    if fin is None:
-        raise AnchorMissing("Driver.finished")
-    rets = [n for n in walk_body(fin) if isinstance(n, ast.Return)]
-    stepattr = None
-    ok = False
-    if len(rets) == 1 and isinstance(rets[0].value, ast.Compare) and len(rets[0].value.ops) == 1:
-        cmpn = rets[0].value
-        l, r = cmpn.left, cmpn.comparators[0]
-        if is_self_attr(l) and is_self_attr(r) and l.attr != r.attr and type(cmpn.ops[0]) in (ast.Eq, ast.NotEq, ast.Lt, ast.LtE, ast.Gt, ast.GtE):
-            # roles, not operand positions: the total is the operand start_benchmark assigns, the step attribute is the operand joinpoint_reached writes
-            sb = dm.get("start_benchmark")
+    with _Section(chk, "O1.3"):
+        bc = package_calls(repo, "BenchmarkComplete")
+        if not bc:
+            raise AnchorMissing("construction of BenchmarkComplete")
+        chk.ob("O1.3", "single construction site of BenchmarkComplete", len(bc) == 1, bc[0], f"{len(bc)} site(s)")
+        for c in bc:
+            fn = source.enclosing_func(c)
+            if fn is None:
+                raise AnchorMissing(f"function enclosing the construction of BenchmarkComplete at {source.loc(c)}")
+            sites = [x for x in package_calls(repo, fn.name) if source.enclosing_func(x) is not fn and source.enclosing_class(x) is not None
+                     and source.enclosing_class(x).name in ("Driver",)]
+            if not sites:
+                chk.unknown("O1.3", f"no call site of {fn.name} (which constructs BenchmarkComplete) in Driver is visible by name", c)
+                continue
+            ok = all(_within(x, jr) for x in sites)
+            callers = source.calls_in(jr, attr=fn.name)
+            for x in callers:
+                ok = ok and closed(x) and _call_fact(x, "finished", True)
+            chk.ob("O1.3", "completion only behind barrier and finished", ok and bool(callers), c, f"callers: {[source.loc(x) for x in sites]}")
+        fin = dm.get("finished")
+        if fin is None:
+            raise AnchorMissing("Driver.finished")
+        rets = [n for n in walk_body(fin) if isinstance(n, ast.Return)]
+        sb = dm.get("start_benchmark")
 
-            def _written(fn_, attr):
-                return fn_ is not None and any(isinstance(n, (ast.Assign, ast.AugAssign)) and any(is_self_attr(t, attr) for t in (n.targets if isinstance(n, ast.Assign) else [n.target]))
-                                               for n in walk_body(fn_))
+        def _written(fn_, attr):
+            return fn_ is not None and any(isinstance(n, (ast.Assign, ast.AugAssign)) and any(is_self_attr(t, attr) for t in (n.targets if isinstance(n, ast.Assign) else [n.target]))
+                                           for n in walk_body(fn_))
 
-            total_is_left = (_written(sb, l.attr) and not _written(sb, r.attr)) or (_written(jr, r.attr) and not _written(jr, l.attr))
-            stepattr, total = (r.attr, l.attr) if total_is_left else (l.attr, r.attr)
-            # the comparison is evaluated for step in (0, 1, 2) of total 2: it must hold exactly from step == total on
-            _fc = _me._CMP[type(cmpn.ops[0])]
-            shape = [bool(_fc(2, s) if total_is_left else _fc(s, 2)) for s in (0, 1, 2)] == [False, False, True]
-            # total assigned from len(<allocator>.join_points) - 1
-            for n in walk_body(sb) if sb else []:
-                if isinstance(n, ast.Assign) and any(is_self_attr(t, total) for t in n.targets):
-                    v = n.value
-                    ok = shape and isinstance(v, ast.BinOp) and isinstance(v.op, ast.Sub) and source.is_const(v.right, 1) and isinstance(v.left, ast.Call) and last_attr(v.left.func) == "len" \
-                        and bool(v.left.args) and last_attr(v.left.args[0]) == "join_points"
-    chk.ob("O1.3", "finished: step == len(join_points) - 1", ok, fin, short(rets[0], 70) if rets else "")
-    if stepattr:
+        # roles, not operand positions: the total is the attribute start_benchmark assigns, the step attribute is the one joinpoint_reached writes. The returned expression is
+        # EVALUATED for step in (0, 1, 2) of total 2: it must hold exactly from step == total on
+        fexpr = source.inline_node(rets[0].value, local_defs(fin), no_calls=True) if len(rets) == 1 and rets[0].value is not None else None
+        freads = sorted({x.attr for x in ast.walk(fexpr) if is_self_attr(x)}) if fexpr is not None else []
+        steps_ = [a for a in freads if _written(jr, a) and not _written(sb, a)]
+        totals_ = [a for a in freads if _written(sb, a) and not _written(jr, a)]
+        if len(steps_) != 1 or len(totals_) != 1 or len(freads) != 2:
+            raise AnchorMissing("Driver.finished: one expression over the step attribute (written by joinpoint_reached) and the number of steps (assigned by start_benchmark)")
+        stepattr, total = steps_[0], totals_[0]
+        try:
+            shape = [bool(_me.ev(fexpr, {"self": _me.Record(**{stepattr: s, total: 2})})) for s in (0, 1, 2)]
+        except _me.CannotEval as x:
+            raise AnchorMissing(f"Driver.finished: `{u(fexpr)}` cannot be evaluated: {x}")
+        # total assigned from len(<allocator>.join_points) - 1: evaluated for 3 join points
+        tot = [n for n in walk_body(sb) if isinstance(n, ast.Assign) and any(is_self_attr(t, total) for t in n.targets)]
+        if len(tot) != 1:
+            raise AnchorMissing(f"the one assignment of self.{total} in start_benchmark")
+        tv = source.inline_node(tot[0].value, {k: v for k, v in local_defs(sb).items() if not any(isinstance(x, ast.Call) and last_attr(x.func) != "len" for x in ast.walk(v))})
+        jp_reads = [x for x in ast.walk(tv) if isinstance(x, ast.Attribute) and x.attr == "join_points"]
+        if not jp_reads:
+            chk.ob("O1.3", "finished: step == len(join_points) - 1", False, tot[0], f"self.{total} = {u(tv)} is not derived from the allocator's join points")
+        else:
+            class _JP(ast.NodeTransformer):
+                def visit_Attribute(self, n):
+                    return ast.copy_location(ast.Name(id="JPS", ctx=ast.Load()), n) if n.attr == "join_points" else self.generic_visit(n)
+
+            try:
+                tval = _me.ev(ast.fix_missing_locations(_JP().visit(source.clone(tv))), {"JPS": ["j0", "j1", "j2"]})
+            except _me.CannotEval as x:
+                raise AnchorMissing(f"start_benchmark: `{u(tv)}` cannot be evaluated: {x}")
+            ok = shape == [False, False, True] and tval == 2
+            chk.ob("O1.3", "finished: step == len(join_points) - 1", ok, fin, f"`{short(rets[0], 70)}` for step 0, 1, 2 of 2: {shape}; self.{total} = `{u(tv)}` = {tval} for 3 join points (2 elements)")
         sincs = [n for m in dm.values() for n in walk_body(m) if isinstance(n, (ast.AugAssign, ast.Assign)) and
                  any(is_self_attr(t, stepattr) for t in (n.targets if isinstance(n, ast.Assign) else [n.target])) and m.name != "__init__"]
         ok = len(sincs) == 1 and isinstance(sincs[0], ast.AugAssign) and source.is_const(sincs[0].value, 1) and isinstance(sincs[0].op, ast.Add) and source.enclosing_func(sincs[0]) is jr \
-            and [t is bt.test and pol == closed_pol for t, pol in guards(sincs[0])] == [True]
+            and [t is bt.test and pol == closed_pol for t, pol in guards(sincs[0], path_sensitive=True)] == [True]
         chk.ob("O1.3", "step attribute incremented exactly once per closed barrier", ok, sincs[0] if sincs else jr, f"{len(sincs)} writer(s) of self.{stepattr} outside __init__")
         if sincs:
             # every evaluation of finished() in the handler routine (whatever the polarity / form of the test it feeds)
             fin_tests = [n for n in walk_body(jr) if isinstance(n, ast.Call) and last_attr(n.func) == "finished"]
-            ok = bool(fin_tests) and all(gjr.dominated_by_nodes(gjr.node_of(t), [gjr.node_of(sincs[0])]) for t in fin_tests)
-            chk.ob("O1.3", "step incremented before the finished test", ok, source.enclosing_stmt(fin_tests[0]) if fin_tests else jr, "")
-    # resets before any message
-    resets = [n for n in walk_body(jr) if isinstance(n, ast.Assign) and any(is_self_attr(t, counter) or (stepmap and is_self_attr(t, stepmap)) for t in n.targets)
-              and any(t is bt.test and pol == closed_pol for t, pol in guards(n))]
-    msg_calls = [c for c in source.calls_in(jr) if last_attr(c.func) in ("move_to_next_task", "on_benchmark_complete", "on_task_finished", "drive_at", "send")]
-    ok = len(resets) >= 2 and all(gjr.dominated_by_nodes(gjr.node_of(c), [gjr.node_of(r)]) for c in msg_calls for r in resets)
-    chk.ob("O1.3", "arrival counter and per-step map reset before any message is sent", ok, resets[0] if resets else jr, f"{len(resets)} reset(s), {len(msg_calls)} sending call(s)")
-    # the local copy handed to move_to_next_task is taken before the reset
-    for x in mv_calls:
-        a = x.args[0] if x.args else None
-        ok = isinstance(a, ast.Name) and a.id in local_defs(jr) and stepmap and is_self_attr(local_defs(jr)[a.id], stepmap)
-        chk.ob("O1.3", "the closed step's arrival map is handed to move_to_next_task", bool(ok), x, short(x, 60))
+            if not fin_tests:
+                raise AnchorMissing("evaluation of finished() in joinpoint_reached")
+            ok = all(gjr.dominated_by_nodes(gjr.node_of(t), [gjr.node_of(sincs[0])]) for t in fin_tests) and source.enclosing_func(sincs[0]) is jr
+            chk.ob("O1.3", "step incremented before the finished test", ok, source.enclosing_stmt(fin_tests[0]), "")
+        # resets before any message
+        resets = [n for n in walk_body(jr) if isinstance(n, ast.Assign) and any(is_self_attr(t, counter) or is_self_attr(t, stepmap) for t in n.targets) and closed(n)]
+        msg_calls = [c for c in source.calls_in(jr) if last_attr(c.func) in ("move_to_next_task", "on_benchmark_complete", "on_task_finished", "drive_at", "send")]
+        ok = len(resets) >= 2 and all(gjr.dominated_by_nodes(gjr.node_of(c), [gjr.node_of(r)]) for c in msg_calls for r in resets)
+        # another way of emptying them (map.clear(), counter -= n, del ...) is a shape this rule does not judge
+        other_ = [n for n in walk_body(jr) if closed(n) and ((isinstance(n, ast.AugAssign) and is_self_attr(n.target, counter)) or (isinstance(n, ast.Delete) and any(is_self_attr(x, stepmap) for x in ast.walk(n)))
+                  or (isinstance(n, ast.Call) and isinstance(n.func, ast.Attribute) and n.func.attr in ("clear", "pop", "popitem") and is_self_attr(n.func.value, stepmap)))
+                  and not any(n is x for x in cinc)]
+        if len(resets) < 2 and other_:
+            chk.unknown("O1.3", f"arrival counter / per-step map are emptied by `{short(other_[0], 50)}` instead of a fresh assignment (reset shape not recognised)", other_[0])
+        else:
+            chk.ob("O1.3", "arrival counter and per-step map reset before any message is sent", ok, resets[0] if resets else jr, f"{len(resets)} reset(s), {len(msg_calls)} sending call(s)")
+        # the local copy handed to move_to_next_task is taken before the reset
+        for x in mv_calls:
+            a = x.args[0] if x.args else None
+            ok = isinstance(a, ast.Name) and a.id in local_defs(jr) and is_self_attr(source.inline_node(a, local_defs(jr), no_calls=True), stepmap)
+            chk.ob("O1.3", "the closed step's arrival map is handed to move_to_next_task", bool(ok), x, short(x, 60))
 
     # ---- O1.4 completed-by broadcast at most once per step ----------------------------------------------------------------------
-    chk.rule("O1.4", "every CompleteCurrentTask broadcast is controlled by the negation of one boolean attribute that is set on the same path before the "
-             "broadcast and cleared only when the barrier closes", 4,
+    chk.rule("O1.4", "every CompleteCurrentTask broadcast (wherever it was extracted to) is prevented by one boolean attribute that is set on the same path before the "
+             "broadcast (guard facts evaluated with the attribute set) and cleared only when the barrier closes; the pending test maps client -> worker before it consults the "
+             "worker-keyed arrival map; the 'any' selection is evaluated on three arrivals", 4,
              ">= 3 workers arriving one by one after the completing task: the broadcast is repeated, cutting short the next element")
-    mc = dm.get("may_complete_current_task")
-    gmc = cfg_of(mc)
-    cc_calls = source.calls_in(mc, attr="complete_current_task")
-    if not cc_calls:
-        raise AnchorMissing("complete_current_task call in may_complete_current_task")
-    flag = None
-    for c in cc_calls:
-        # guard facts (negations pushed in, conjunctions split, either arm): `not self.<flag>`
-        negs = [f_.operand.attr for f_ in _pat.fact_nodes(c) if _is_not(f_, is_self_attr)]
-        f0 = negs[0] if negs else None
-        flag = flag or f0
-        sets = [n for n in walk_body(mc) if isinstance(n, ast.Assign) and any(is_self_attr(t, f0) for t in n.targets) and source.is_const(n.value, True)] if f0 else []
-        cn = gmc.node_of(c)
-        ok = f0 is not None and f0 == flag and any(gmc.dominated_by_nodes(cn, [gmc.node_of(s)]) for s in sets)
-        chk.ob("O1.4", "broadcast guarded by `not <flag>` and flag set before it", ok, c, f"flag={f0}, {len(sets)} set site(s)")
-    if flag:
-        clears = [n for m in dm.values() for n in walk_body(m) if isinstance(n, ast.Assign) and any(is_self_attr(t, flag) for t in n.targets)
-                  and not source.is_const(n.value, True) and m.name != "__init__"]
-        ok = len(clears) >= 1 and all(source.enclosing_func(n) is jr and any(t is bt.test and pol == closed_pol for t, pol in guards(n)) and source.is_const(n.value, False) for n in clears)
-        chk.ob("O1.4", "flag cleared only when the barrier closes", ok, clears[0] if clears else jr, f"{len(clears)} clearing store(s)")
-    # key-domain agreement: the per-step arrival map is keyed by WORKER id; the pending test must map client -> worker first
-    if stepmap:
+    with _Section(chk, "O1.4"):
+        mc = dm.get("may_complete_current_task")
+        if mc is None:
+            raise AnchorMissing("Driver.may_complete_current_task")
+        gmc = cfg_of(mc)
+        cc_calls = source.calls_in(mc, attr="complete_current_task")
+        if not cc_calls:
+            raise AnchorMissing("complete_current_task call in may_complete_current_task")
+        # single-assignment locals that merely rename another local (x = y): facts are read through them
+        mc_defs = local_defs(mc)
+        alias = {k: v.id for k, v in mc_defs.items() if isinstance(v, ast.Name)}
+
+        def canon(nm):
+            seen_ = set()
+            while nm in alias and nm not in seen_:
+                seen_.add(nm)
+                nm = alias[nm]
+            return nm
+
+        def blocked_by(c, attr):
+            """with self.<attr> == True some condition on the way to c is false: decided by evaluating the atomic guard facts of c (negations pushed in, guard clauses included)"""
+            for f_ in _pat.fact_nodes(c, path_sensitive=True):
+                if not any(is_self_attr(x, attr) for x in ast.walk(f_)):
+                    continue
+                try:
+                    if not _me.ev(f_, {"self": _me.Record(**{attr: True})}):
+                        return True
+                except _me.CannotEval:
+                    continue
+            return False
+
+        flag = None
+        for c in cc_calls:
+            cn = gmc.node_of(c)
+            sets = [n for n in walk_body(mc) if isinstance(n, ast.Assign) and len(n.targets) == 1 and is_self_attr(n.targets[0]) and source.is_const(n.value, True)
+                    and gmc.dominated_by_nodes(cn, [gmc.node_of(n)])]
+            flags = sorted({n.targets[0].attr for n in sets if blocked_by(c, n.targets[0].attr)})
+            f0 = flags[0] if flags else None
+            if f0 is None:
+                # a memo of another representation (a set of steps, a counter ...): something of the object is changed before the broadcast AND read on the way to it
+                changed = {x.attr for n in walk_body(mc) if isinstance(n, (ast.Assign, ast.AugAssign, ast.Expr)) and gmc.dominated_by_nodes(cn, [gmc.node_of(n)])
+                           for x in ast.walk(n) if is_self_attr(x) and (isinstance(x.ctx, ast.Store) or (isinstance(source.parent(x), ast.Attribute) and isinstance(source.parent(source.parent(x)), ast.Call)
+                                                                                                    and source.parent(x).attr in ("add", "append", "update", "setdefault")))}
+                read_ = {x.attr for f_ in _pat.fact_nodes(c, path_sensitive=True) for x in ast.walk(f_) if is_self_attr(x)}
+                if changed & read_:
+                    chk.unknown("O1.4", f"the broadcast is controlled by self.{sorted(changed & read_)[0]}, which is not a boolean set to True before it (memo shape not recognised)", c)
+                    continue
+            flag = flag or f0
+            ok = f0 is not None and f0 == flag
+            chk.ob("O1.4", "broadcast guarded by `not <flag>` and flag set before it", ok, c, f"flag={f0}, {len(sets)} attribute(s) set to True before the broadcast"
+                   + ("" if ok else ": no attribute that is set before the broadcast also prevents it when set"))
+        if flag:
+            clears = [n for m in dm.values() for n in walk_body(m) if isinstance(n, ast.Assign) and any(is_self_attr(t, flag) for t in n.targets)
+                      and not source.is_const(n.value, True) and m.name != "__init__"]
+            ok = len(clears) >= 1 and all(source.enclosing_func(n) is jr and closed(n) and source.is_const(n.value, False) for n in clears)
+            chk.ob("O1.4", "flag cleared only when the barrier closes", ok, clears[0] if clears else jr, f"{len(clears)} clearing store(s)")
+        # key-domain agreement: the per-step arrival map is keyed by WORKER id; the pending test must map client -> worker first (through the client -> worker map start_benchmark fills)
+        c2w = _client_to_worker_attrs(dm)
+        if not c2w:
+            raise AnchorMissing("the Driver attribute mapping a client id to its worker's id (self.<map>[client] = <id given to start_worker>)")
         lookups = []
         for n in walk_body(mc):
             if isinstance(n, ast.Compare) and len(n.ops) == 1 and isinstance(n.ops[0], (ast.In, ast.NotIn)) and is_self_attr(n.comparators[0], stepmap):
                 lookups.append((n, n.left))
             elif isinstance(n, ast.Subscript) and is_self_attr(n.value, stepmap):
                 lookups.append((n, n.slice))
-        mdefs = local_defs(mc)
+            elif isinstance(n, ast.Call) and isinstance(n.func, ast.Attribute) and n.func.attr in ("get", "__contains__") and is_self_attr(n.func.value, stepmap) and n.args:
+                lookups.append((n, n.args[0]))
+        mdefs = dict(mc_defs)
         # loop-local single assignments too
         for n in walk_body(mc):
             if isinstance(n, ast.Assign) and len(n.targets) == 1 and isinstance(n.targets[0], ast.Name):
                 mdefs.setdefault(n.targets[0].id, n.value)
         for n, key in lookups:
-            src = mdefs.get(key.id) if isinstance(key, ast.Name) else key
-            ok = isinstance(src, ast.Subscript) and is_self_attr(src.value, "clients_per_worker")
+            src = key
+            for _ in range(4):
+                if isinstance(src, ast.Name) and src.id in mdefs:
+                    src = mdefs[src.id]
+            if isinstance(src, ast.Call) and isinstance(src.func, ast.Attribute) and src.func.attr == "get" and src.args:
+                src = ast.Subscript(value=src.func.value, slice=src.args[0], ctx=ast.Load())
+            ok = isinstance(src, ast.Subscript) and is_self_attr(src.value) and src.value.attr in c2w
             chk.ob("O1.4", "arrival map (keyed by worker id) consulted with the client's worker id", ok, n,
-                   f"key `{u(key)}` = `{u(src) if src is not None else '?'}`" + ("" if ok else " is not a worker id obtained from clients_per_worker[client]: with several clients per worker the test reads the wrong entry"))
+                   f"key `{u(key)}` = `{u(src) if src is not None else '?'}`" + ("" if ok else f" is not a worker id obtained from self.{sorted(c2w)[0]}[client]: with several clients per worker the test reads the wrong entry"))
         if not lookups:
-            chk.ob("O1.4", "pending test for the completing task's clients", False, mc, "the completed-by branch never consults the per-step arrival map")
-    # the decision to broadcast depends on nothing but (which join points complete their parent, already sent?, is a client of the completing task still pending?):
-    # every condition on a path to a broadcast reads only those quantities
-    jl_names = sorted({t.id for n in walk_body(mc) if isinstance(n, ast.Assign) for t in n.targets if isinstance(t, ast.Name) and "joinpoints_completing_parent" in t.id})
-    pend_names = sorted({n.func.value.id for n in walk_body(mc) if isinstance(n, ast.Call) and last_attr(n.func) == "append" and isinstance(n.func.value, ast.Name)
-                         and any(isinstance(f_, ast.Compare) and stepmap and any(is_self_attr(x, stepmap) for x in ast.walk(f_)) for f_ in _pat.fact_nodes(n))})
-    allowed = set(jl_names) | set(pend_names) | ({f"self.{flag}"} if flag else set())
-    for c in cc_calls:
-        extra = []
-        for f_ in _pat.fact_nodes(c, path_sensitive=True):
-            reads = {u(x) for x in ast.walk(f_) if (isinstance(x, ast.Name) and x.id not in ("len", "self", "any", "all", "bool")) or (isinstance(x, ast.Attribute) and isinstance(x.value, ast.Name) and x.value.id == "self")}
-            if not reads <= allowed:
-                extra.append(u(f_))
-        chk.ob("O1.4", "the broadcast depends only on (completing join points, already sent, pending clients of the completing task)", not extra, c,
-               f"quantities {sorted(allowed)}" + ("" if not extra else f"; further condition(s) {extra}: for some layout of clients on workers the element is never completed (or completed early)"),
-               key=f"{_D}:Driver.may_complete_current_task:broadcast-conditions:{cc_calls.index(c)}")
-    # the join point object is shared by all rows, so its attributes describe the ELEMENT, not the arriving client: with 'any' an arrival counts only when the arriving client
-    # executes a task of the element (a worker whose clients idle through the element reaches the join point at once). Decided on values: the selecting comprehension is evaluated
-    # for an arrival of client 0 / client 1 at a join point whose element is executed by client 0 only, and at a join point of an element without completed-by.
-    from sa.minieval import CannotEval as Unknown, Record, ev as _ev
-    tp = params_of(mc)[1]
-    any_sel = [n for n in walk_body(mc) if isinstance(n, ast.Assign) and len(n.targets) == 1 and isinstance(n.targets[0], ast.Name) and n.targets[0].id.startswith("any_")
-               and isinstance(n.value, (ast.ListComp, ast.GeneratorExp))]
-    if not any_sel:
-        raise AnchorMissing("selection of arrivals that complete an 'any' element in may_complete_current_task")
-    jp_any = Record(any_task_completes_parent=[0], clients_executing_completing_task=[], num_clients_executing_completing_task=0, preceding_task_completes_parent=False)
-    jp_none = Record(any_task_completes_parent=[], clients_executing_completing_task=[], num_clients_executing_completing_task=0, preceding_task_completes_parent=False)
-    cases = [("client 0 (executes a task of the element)", Record(client_id=0, task=jp_any), 1), ("client 1 (idle in the element)", Record(client_id=1, task=jp_any), 0),
-             ("client 0 at a join point without completed-by", Record(client_id=0, task=jp_none), 0)]
-    for what, arr, want in cases:
-        try:
-            got = len(list(_ev(any_sel[0].value, {tp: [arr]})))
-        except Unknown as e:
-            chk.unknown("O1.4", f"'any' selection for {what}: cannot evaluate: {e}", any_sel[0])
-            continue
-        chk.ob("O1.4", f"'any': arrival of {what} {'completes' if want else 'does not complete'} the element", got == want, any_sel[0],
-               f"`{short(any_sel[0].value, 110)}` selects {got} arrival(s)" + ("" if got == want else ": the element is completed although none of its tasks has finished (every request after the first is cut)" if got > want else ": the element never completes"),
-               key=f"{_D}:Driver.may_complete_current_task:any-arrival:{what.split(' (')[0]}:{want}")
-    mc_calls = package_calls(repo, "may_complete_current_task")
-    ok = bool(mc_calls) and all(source.enclosing_func(x) is jr and any(t is bt.test and pol != closed_pol for t, pol in guards(x)) for x in mc_calls)
-    chk.ob("O1.4", "completion check only while the barrier is still open", ok, mc_calls[0] if mc_calls else mc, "")
-    ccs = package_calls(repo, "CompleteCurrentTask")
-    for c in ccs:
-        fn = source.enclosing_func(c)
-        if fn is None:
-            raise AnchorMissing(f"function enclosing the construction of CompleteCurrentTask at {source.loc(c)}")
-        callers = [x for x in package_calls(repo, fn.name) if source.enclosing_func(x) is not fn]
-        ok = all(source.enclosing_func(x) is mc for x in callers) and bool(callers)
-        chk.ob("O1.4", "CompleteCurrentTask constructed only for may_complete_current_task", ok, c, f"callers {[source.qualname(x) for x in callers]}")
+            if any(is_self_attr(x, stepmap) for x in walk_body(mc)):
+                chk.unknown("O1.4", f"pending test: self.{stepmap} is read in may_complete_current_task in a form that is not recognised", mc)
+            else:
+                chk.ob("O1.4", "pending test for the completing task's clients", False, mc, "the completed-by branch never consults the per-step arrival map")
+        # the decision to broadcast depends on nothing but (which join points complete their parent, already sent?, is a client of the completing task still pending?):
+        # every condition on a path to a broadcast reads only those quantities. Roles by data flow: selections = locals computed from the arrivals parameter alone;
+        # pending = locals filled / filtered under a test on the per-step arrival map
+        if len(params_of(mc)) < 2:
+            raise AnchorMissing("may_complete_current_task(self, <arrivals>)")
+        tp = params_of(mc)[1]
 
-    from rules.C02 import joinpoint_lists_reset
+        def _only_reads(e, names):
+            loc = {x.id for x in ast.walk(e) if isinstance(x, ast.Name) and isinstance(x.ctx, ast.Store)}
+            return {x.id for x in ast.walk(e) if isinstance(x, ast.Name) and isinstance(x.ctx, ast.Load)} - loc - {"len", "list", "set", "tuple", "sorted", "any", "all", "bool"} <= set(names) \
+                and not any(is_self_attr(x) for x in ast.walk(e))
 
-    joinpoint_lists_reset(chk, "O1.4", drv)
+        selections = {t.id: n.value for n in walk_body(mc) if isinstance(n, ast.Assign) for t in n.targets if isinstance(t, ast.Name)
+                      and isinstance(n.value, (ast.ListComp, ast.GeneratorExp, ast.SetComp, ast.Call)) and any(isinstance(x, ast.Name) and x.id == tp for x in ast.walk(n.value))
+                      and _only_reads(n.value, [tp])}
+        jl_names = sorted(selections)
+
+        def _on_stepmap(e):
+            return any(is_self_attr(x, stepmap) for x in ast.walk(e))
+
+        pend_names = {n.func.value.id for n in walk_body(mc) if isinstance(n, ast.Call) and last_attr(n.func) in ("append", "add") and isinstance(n.func.value, ast.Name)
+                      and any(_on_stepmap(source.inline_node(f_, mdefs)) for f_ in _pat.fact_nodes(n))}
+        pend_names |= {t.id for n in walk_body(mc) if isinstance(n, ast.Assign) for t in n.targets if isinstance(t, ast.Name)
+                       and isinstance(n.value, (ast.ListComp, ast.GeneratorExp, ast.SetComp)) and any(_on_stepmap(i_) for g_ in n.value.generators for i_ in g_.ifs)}
+        allowed = {canon(x) for x in jl_names} | {canon(x) for x in pend_names} | ({f"self.{flag}"} if flag else set())
+        for c in cc_calls:
+            extra = []
+            for f_ in _pat.fact_nodes(c, path_sensitive=True):
+                reads = {canon(x.id) if isinstance(x, ast.Name) else u(x) for x in ast.walk(f_)
+                         if (isinstance(x, ast.Name) and x.id not in ("len", "self", "any", "all", "bool")) or (isinstance(x, ast.Attribute) and isinstance(x.value, ast.Name) and x.value.id == "self")}
+                if not reads <= allowed:
+                    extra.append(u(f_))
+            chk.ob("O1.4", "the broadcast depends only on (completing join points, already sent, pending clients of the completing task)", not extra, c,
+                   f"quantities {sorted(allowed)}" + ("" if not extra else f"; further condition(s) {extra}: for some layout of clients on workers the element is never completed (or completed early)"),
+                   key=f"{_D}:Driver.may_complete_current_task:broadcast-conditions:{cc_calls.index(c)}")
+        # the join point object is shared by all rows, so its attributes describe the ELEMENT, not the arriving client: with 'any' an arrival counts only when the arriving client
+        # executes a task of the element (a worker whose clients idle through the element reaches the join point at once). Decided on values: the selections over the arrivals are
+        # evaluated for an arrival of client 0 / client 1 at a join point whose element is executed by client 0 only, and at a join point of an element without completed-by; the
+        # 'any' selection is the one that selects the arrival of the executing client.
+        from sa.minieval import CannotEval as Unknown, Record, ev as _ev
+        jp_any = Record(any_task_completes_parent=[0], clients_executing_completing_task=[], num_clients_executing_completing_task=0, preceding_task_completes_parent=False)
+        jp_none = Record(any_task_completes_parent=[], clients_executing_completing_task=[], num_clients_executing_completing_task=0, preceding_task_completes_parent=False)
+        cases = [("client 0 (executes a task of the element)", Record(client_id=0, task=jp_any), 1), ("client 1 (idle in the element)", Record(client_id=1, task=jp_any), 0),
+                 ("client 0 at a join point without completed-by", Record(client_id=0, task=jp_none), 0)]
+
+        def _count(expr, arr):
+            v = _ev(expr, {tp: [arr]})
+            return len(list(v)) if isinstance(v, (list, tuple, set)) else int(bool(v))
+
+        any_sel, undecided = None, []
+        for nm, expr in selections.items():
+            try:
+                if _count(expr, cases[0][1]) == 1:
+                    any_sel = any_sel or (nm, expr)
+            except Unknown as e:
+                undecided.append(f"{nm}: {e}")
+        if any_sel is None:
+            raise AnchorMissing("selection of arrivals that complete an 'any' element in may_complete_current_task" + (f" ({'; '.join(undecided)})" if undecided else ""))
+        any_node = source.enclosing_stmt(any_sel[1])
+        for what, arr, want in cases:
+            try:
+                got = _count(any_sel[1], arr)
+            except Unknown as e:
+                chk.unknown("O1.4", f"'any' selection for {what}: cannot evaluate: {e}", any_node)
+                continue
+            chk.ob("O1.4", f"'any': arrival of {what} {'completes' if want else 'does not complete'} the element", got == want, any_node,
+                   f"`{short(any_sel[1], 110)}` selects {got} arrival(s)" + ("" if got == want else ": the element is completed although none of its tasks has finished (every request after the first is cut)" if got > want else ": the element never completes"),
+                   key=f"{_D}:Driver.may_complete_current_task:any-arrival:{what.split(' (')[0]}:{want}")
+        mc_sites = package_calls(repo, "may_complete_current_task")
+        if not mc_sites:
+            raise AnchorMissing("call of may_complete_current_task")
+        mc_calls = source.calls_in(jr, attr="may_complete_current_task")
+        ok = all(_within(x, jr) for x in mc_sites) and bool(mc_calls) and all(still_open(x) for x in mc_calls)
+        chk.ob("O1.4", "completion check only while the barrier is still open", ok, mc_calls[0] if mc_calls else mc_sites[0], "")
+        ccs = package_calls(repo, "CompleteCurrentTask")
+        for c in ccs:
+            fn = source.enclosing_func(c)
+            if fn is None:
+                raise AnchorMissing(f"function enclosing the construction of CompleteCurrentTask at {source.loc(c)}")
+            callers = [x for x in package_calls(repo, fn.name) if source.enclosing_func(x) is not fn]
+            if not callers:
+                chk.unknown("O1.4", f"no call site of {fn.name} (which constructs CompleteCurrentTask) is visible by name", c)
+                continue
+            ok = all(_within(x, mc) for x in callers)
+            chk.ob("O1.4", "CompleteCurrentTask constructed only for may_complete_current_task", ok, c, f"callers {[source.qualname(x) for x in callers]}")
+
+    with _Section(chk, "O1.4"):
+        from rules.C02 import joinpoint_lists_reset  # owned by rules/C02.py; the same necessary condition is decided on values by O1.1 (announce)
+
+        joinpoint_lists_reset(chk, "O1.4", drv)
+
+    # ---- worker roles (by data flow): the two request events, the executor future, the "start wake-up pending" flag ------------------------------------------------------------
+    te = _class_view(drv, TE.node, repo)
+    w_done, w_cancel, x_done = "complete", "cancel", "complete"
+    try:
+        revs = request_events(repo, drv)
+        d_ = [(a, y) for a, (y, setters) in revs.items() if "receiveMsg_CompleteCurrentTask" in setters]
+        o_ = [(a, y) for a, (y, setters) in revs.items() if "receiveMsg_CompleteCurrentTask" not in setters]
+        if len(d_) == 1 and len(o_) == 1:
+            (x_done, w_done), (_, w_cancel) = d_[0], o_[0]
+    except AnchorMissing:
+        pass
+    fut_ = sorted({n.targets[0].attr for m in wm.values() for n in walk_body(m) if isinstance(n, ast.Assign) and len(n.targets) == 1 and is_self_attr(n.targets[0])
+                   and isinstance(n.value, ast.Call) and last_attr(n.value.func) == "submit"})
+    w_future = fut_[0] if len(fut_) == 1 else "executor_future"
+    dr0, wk0 = wm.get("receiveMsg_Drive"), wm.get("receiveMsg_WakeupMessage")
+    sd_ = sorted({n.targets[0].attr for n in (walk_body(dr0) if dr0 is not None else []) if isinstance(n, ast.Assign) and len(n.targets) == 1 and is_self_attr(n.targets[0]) and source.is_const(n.value, True)}
+                 & {n.targets[0].attr for n in (walk_body(wk0) if wk0 is not None else []) if isinstance(n, ast.Assign) and len(n.targets) == 1 and is_self_attr(n.targets[0]) and source.is_const(n.value, False)})
+    w_pending = sd_[0] if len(sd_) == 1 else "start_driving"
+
+    def _recv(n, defs):
+        """text of the receiver of a method call, single-assignment locals resolved (`fut = self.executor_future; fut.result()`)"""
+        return inline(n.func.value, defs) if isinstance(n, ast.Call) and isinstance(n.func, ast.Attribute) else None
+
+    def _jp_sends(fn):
+        """send(...) calls of fn whose payload is a JoinPointReached (constructed in place or into a single-assignment local first)"""
+        fdefs = local_defs(fn)
+        out = []
+        for c_ in source.calls_in(fn, attr="send"):
+            pl = c_.args[1] if len(c_.args) >= 2 else None
+            if isinstance(pl, ast.Name):
+                pl = fdefs.get(pl.id)
+            if isinstance(pl, ast.Call) and last_attr(pl.func) == "JoinPointReached":
+                out.append(c_)
+        return out
+
+    def _jp(f_):
+        return isinstance(f_, ast.Call) and last_attr(f_.func) == "at_joinpoint"
 
     # ---- O1.5 worker side of the barrier ------------------------------------------------------------------------------------------
     chk.rule("O1.5", "JoinPointReached is sent only in the join-point branch of the worker's drive routine, after waiting for the executor future (if any), "
              "shipping samples and clearing both events (cancel, complete)", 5,
              "completed-by in element k cuts short element k+1 (stale complete event), or the step closes while requests are still running")
-    wd = W.methods.get("drive")
-    if wd is None:
-        raise AnchorMissing("Worker.drive")
-    gwd = cfg_of(wd)
-    jps = package_calls(repo, "JoinPointReached")
-    chk.ob("O1.5", "single construction site of JoinPointReached", len(jps) == 1 and source.enclosing_func(jps[0]) is wd, jps[0] if jps else wd, f"{len(jps)} site(s)")
-    for c in jps:
-        if source.enclosing_func(c) is not wd:
-            continue
-        send = source.parent(c)
-        if not isinstance(send, ast.Call):
-            # the message is held in a local first: the send is the call that gets that local as an argument
-            tg_ = send.targets[0].id if isinstance(send, ast.Assign) and len(send.targets) == 1 and isinstance(send.targets[0], ast.Name) else None
-            uses = [n for n in walk_body(wd) if isinstance(n, ast.Call) and last_attr(n.func) == "send" and tg_ is not None and any(isinstance(a, ast.Name) and a.id == tg_ for a in n.args)]
-            if not uses:
-                raise AnchorMissing("send(...) of the JoinPointReached message constructed in Worker.drive")
-            send = uses[0]
-        sn = gwd.node_of(send)
-        gs = guards(send)
-        fs_ = _pat.fact_nodes(send)
-        ok = len(fs_) == 1 and isinstance(fs_[0], ast.Call) and last_attr(fs_[0].func) == "at_joinpoint"
-        chk.ob("O1.5", "sent only at a join point", ok, send, f"guards {[(u(t), p) for t, p in gs]}")
-        res = [n for n in walk_body(wd) if isinstance(n, ast.Call) and last_attr(n.func) == "result" and isinstance(n.func, ast.Attribute) and is_self_attr(n.func.value, "executor_future")]
-        ok = False
-        if res:
-            # only guarded by the join-point test and `future is not None` (guard facts: either arm, either polarity of the written test)
-            def _jp(f_):
-                return isinstance(f_, ast.Call) and last_attr(f_.func) == "at_joinpoint"
-
-            extra = [f_ for f_ in _pat.fact_nodes(res[0]) if not (_jp(f_) or _is_not(f_, _jp)) and not _pat.is_(f_, "self.executor_future is not None", "None is not self.executor_future", "self.executor_future")]
-            ok = not extra and not gwd.path_exists(sn, gwd.node_of(res[0]), avoid=[gwd.entry])
-            # the send is not reachable from the arm of the future test that holds result() without passing result()
-            ift = source.enclosing(res[0], ast.If)
-            if ok and ift is not None:
-                tnode = gwd.node_of(ift)
-                arm = "true" if any(res[0] in list(ast.walk(s_)) for s_ in ift.body) else "false"
-                tstarts = gwd.edge_targets(tnode, arm)
-                ok = all(sn.id not in gwd.reachable([s], avoid=[gwd.node_of(res[0])]) for s in tstarts)
-        chk.ob("O1.5", "executor future awaited before the barrier message", ok, res[0] if res else send, "result() on the pending future precedes JoinPointReached" if ok else "the future is not (always) awaited")
-        for what, pred in (("samples shipped", lambda n: isinstance(n, ast.Call) and last_attr(n.func) == "send_samples"),
-                           ("cancel event cleared", lambda n: isinstance(n, ast.Call) and u(n.func) == "self.cancel.clear"),
-                           ("complete event cleared", lambda n: isinstance(n, ast.Call) and u(n.func) == "self.complete.clear")):
-            xs = [n for n in walk_body(wd) if pred(n)]
-            ok = bool(xs) and gwd.dominated_by_nodes(sn, [gwd.node_of(x) for x in xs])
-            chk.ob("O1.5", f"{what} before JoinPointReached", ok, xs[0] if xs else send, "")
+    with _Section(chk, "O1.5"):
+        wd = wm.get("drive")
+        if wd is None:
+            raise AnchorMissing("Worker.drive")
+        gwd = cfg_of(wd)
+        wdefs = local_defs(wd)
+        jps = package_calls(repo, "JoinPointReached")
+        if not jps:
+            raise AnchorMissing("construction of JoinPointReached")
+        chk.ob("O1.5", "single construction site of JoinPointReached", len(jps) == 1 and _within(jps[0], wd), jps[0], f"{len(jps)} site(s)")
+        sends = _jp_sends(wd)
+        if not sends and any(_within(c, wd) for c in jps):
+            raise AnchorMissing("send(...) of the JoinPointReached message constructed in Worker.drive")
+        for send in sends:
+            sn = gwd.node_of(send)
+            gs = guards(send, path_sensitive=True)
+            fs_ = _pat.fact_nodes(send)
+            ok = len(fs_) == 1 and _jp(fs_[0])
+            chk.ob("O1.5", "sent only at a join point", ok, send, f"guards {[(u(t), p) for t, p in gs]}")
+            res = [n for n in walk_body(wd) if isinstance(n, ast.Call) and last_attr(n.func) == "result" and _recv(n, wdefs) == f"self.{w_future}"]
+            ok = False
+            if res:
+                # only guarded by the join-point test and `future is not None` (guard facts: either arm, either polarity of the written test)
+                extra = [f_ for f_ in _pat.fact_nodes(res[0]) if not (_jp(f_) or _is_not(f_, _jp)) and inline(f_, wdefs) not in (f"self.{w_future} is not None", f"None is not self.{w_future}", f"self.{w_future}")]
+                ok = not extra and not gwd.path_exists(sn, gwd.node_of(res[0]), avoid=[gwd.entry])
+                # the send is not reachable from the arm of the future test that holds result() without passing result()
+                ift = source.enclosing(res[0], ast.If)
+                if ok and ift is not None:
+                    tnode = gwd.node_of(ift)
+                    arm = "true" if any(res[0] in list(ast.walk(s_)) for s_ in ift.body) else "false"
+                    tstarts = gwd.edge_targets(tnode, arm)
+                    ok = all(sn.id not in gwd.reachable([s], avoid=[gwd.node_of(res[0])]) for s in tstarts)
+            elif [n for n in walk_body(wd) if isinstance(n, ast.Call) and last_attr(n.func) in ("result", "wait", "exception", "as_completed") and gwd.dominated_by_nodes(sn, [gwd.node_of(n)])]:
+                chk.unknown("O1.5", f"the join-point branch waits for something, but not through self.{w_future}.result() (shape not recognised)", send)
+                continue
+            chk.ob("O1.5", "executor future awaited before the barrier message", ok, res[0] if res else send, "result() on the pending future precedes JoinPointReached" if ok else "the future is not (always) awaited")
+            for what, pred in (("samples shipped", lambda n: isinstance(n, ast.Call) and last_attr(n.func) == "send_samples"),
+                               ("cancel event cleared", lambda n: isinstance(n, ast.Call) and last_attr(n.func) == "clear" and _recv(n, wdefs) == f"self.{w_cancel}"),
+                               ("complete event cleared", lambda n: isinstance(n, ast.Call) and last_attr(n.func) == "clear" and _recv(n, wdefs) == f"self.{w_done}")):
+                xs = [n for n in walk_body(wd) if pred(n)]
+                ok = bool(xs) and gwd.dominated_by_nodes(sn, [gwd.node_of(x) for x in xs])
+                chk.ob("O1.5", f"{what} before JoinPointReached", ok, xs[0] if xs else send, "")
 
     # ---- O1.6 complete is set only with cause ---------------------------------------------------------------------------------------
     chk.rule("O1.6", "the complete event is set only (a) in the CompleteCurrentTask handler when not at a join point, (b) in the executor's finally under "
              "completes_parent / any_completes_parent of its own task", 3,
              "a plain sequential task following a parallel element is cut short")
-    sets = [n for m in repo.all_modules() for n in ast.walk(m.tree) if isinstance(n, ast.Call) and last_attr(n.func) == "set" and isinstance(n.func, ast.Attribute)
-            and last_attr(n.func.value) == "complete"]
-    if len(sets) < 2:
-        raise AnchorMissing("set sites of the complete event")
-    ex_call = drv.methods(drv.cls("AsyncExecutor")).get("__call__")
-    edefs = local_defs(ex_call)
-    for s in sets:
-        fn = source.enclosing_func(s)
-        cls = source.enclosing_class(s)
-        gs = guards(s)
-        if cls is not None and cls.name == "Worker" and fn.name == "receiveMsg_CompleteCurrentTask":
-            continue  # decided below as a truth table over (at join point, Drive pending)
-        elif cls is not None and cls.name == "AsyncExecutor" and fn is ex_call:
+    with _Section(chk, "O1.6"):
+        ev_names = {w_done, x_done}
+
+        def _on_event(n, meth):
+            return isinstance(n, ast.Call) and isinstance(n.func, ast.Attribute) and n.func.attr == meth and last_attr(n.func.value) in ev_names
+
+        sets = [n for m in repo.all_modules() for n in ast.walk(m.tree) if _on_event(n, "set")]
+        if len(sets) < 2:
+            raise AnchorMissing("set sites of the complete event")
+        ex_call = drv.methods(drv.cls("AsyncExecutor")).get("__call__")
+        hct = wm.get("receiveMsg_CompleteCurrentTask")
+        if ex_call is None or hct is None:
+            raise AnchorMissing("AsyncExecutor.__call__ / Worker.receiveMsg_CompleteCurrentTask")
+        ex_call = _expand(ex_call, repo)
+        edefs = local_defs(ex_call)
+        for s in sets:
+            if not (_within(s, hct) or _within(s, ex_call)):  # the handler is decided below as a truth table over (at join point, Drive pending), the executor right here
+                chk.ob("O1.6", f"complete.set() in {source.qualname(s)}", False, s, "set site outside the two sanctioned places")
+        ex_sets = [n for n in walk_body(ex_call) if _on_event(n, "set") and _recv(n, edefs) == f"self.{x_done}"]
+        for s in ex_sets:
             in_finally = any(isinstance(a, ast.Try) and any(s in list(ast.walk(fb)) for fb in a.finalbody) for a in source.ancestors(s))
             # positive guard facts (either arm of the written test), locals resolved to what they were assigned from
             names = [inline(f_, edefs) for f_ in _pat.fact_nodes(s) if isinstance(f_, (ast.Name, ast.Attribute))]
             ok = in_finally and any(x in ("self.task.completes_parent", "self.task.any_completes_parent") for x in names)
             chk.ob("O1.6", "executor: complete.set() only for a task that completes its parent", ok, s, f"in finally={in_finally}, cause={names}")
-        else:
-            chk.ob("O1.6", f"complete.set() in {source.qualname(s)}", False, s, "set site outside the two sanctioned places")
 
-    # both causes must be signalled by the executor (several clients of one worker share the event: a finished completing client must end its siblings)
-    ex_sets = [s_ for s_ in sets if source.enclosing_func(s_) is ex_call]
-    for cause in ("self.task.completes_parent", "self.task.any_completes_parent"):
-        have = False
-        for s_ in ex_sets:
-            for f_ in _pat.fact_nodes(s_):
-                if isinstance(f_, (ast.Name, ast.Attribute)) and cause in (inline(f_, edefs), u(f_)):
-                    have = True
-        chk.ob("O1.6", f"executor signals completion when {cause.split('.')[-1]}", have, ex_call,
-               "complete.set() in the finally under this cause" if have else "no complete.set() for this cause: sibling clients in the same worker keep running, no worker reaches the join point, the race hangs",
-               key=f"{_D}:AsyncExecutor.__call__:cause:{cause}")
+        # both causes must be signalled by the executor (several clients of one worker share the event: a finished completing client must end its siblings)
+        for cause in ("self.task.completes_parent", "self.task.any_completes_parent"):
+            have = False
+            for s_ in ex_sets:
+                for f_ in _pat.fact_nodes(s_):
+                    if isinstance(f_, (ast.Name, ast.Attribute)) and cause in (inline(f_, edefs), u(f_)):
+                        have = True
+            chk.ob("O1.6", f"executor signals completion when {cause.split('.')[-1]}", have, ex_call,
+                   "complete.set() in the finally under this cause" if have else "no complete.set() for this cause: sibling clients in the same worker keep running, no worker reaches the join point, the race hangs",
+                   key=f"{_D}:AsyncExecutor.__call__:cause:{cause}")
 
-    complete_read_exemption_rule(chk, "O1.6", drv)
-    # the event is cleared at exactly one point of the step cycle: in the join-point branch of Worker.drive before JoinPointReached is sent. The coordinator sends
-    # CompleteCurrentTask only for the step it has driven, so a request set after that point belongs to the running (or about to start) tasks; clearing it anywhere
-    # else (wake-up handler, Drive handler, executor) loses a request that is never repeated.
-    clears_ = [n for m_ in repo.all_modules() for n in ast.walk(m_.tree) if isinstance(n, ast.Call) and isinstance(n.func, ast.Attribute) and n.func.attr == "clear"
-               and last_attr(n.func.value) == "complete"]
-    wd_ = W.methods.get("drive")
-    gwd = cfg_of(wd_)
-    jp_send = [c for c in source.calls_in(wd_, attr="send") if len(c.args) >= 2 and isinstance(c.args[1], ast.Call) and last_attr(c.args[1].func) == "JoinPointReached"]
-    if not clears_ or not jp_send:
-        raise AnchorMissing("complete.clear() / send(JoinPointReached)")
-    for n in clears_:
-        fn = source.enclosing_func(n)
-        ok = fn is wd_ and gwd.dominated_by_nodes(gwd.node_of(jp_send[0]), [gwd.node_of(n)]) and any(isinstance(f_, ast.Call) and u(f_.func) == "self.at_joinpoint" for f_ in _pat.fact_nodes(n))
-        chk.ob("O1.6", "complete.clear() only at the join point, before JoinPointReached is sent", ok, n, f"in {source.qualname(n)}" + ("" if ok else
-               ": a CompleteCurrentTask that arrived between Drive and this point is wiped; the worker runs tasks of an element that is already completed and the request is never repeated"),
-               key=f"{_D}:{source.qualname(n)}:complete.clear")
+        complete_read_exemption_rule(chk, "O1.6", drv)
+        # the event is cleared at exactly one point of the step cycle: in the join-point branch of Worker.drive before JoinPointReached is sent. The coordinator sends
+        # CompleteCurrentTask only for the step it has driven, so a request set after that point belongs to the running (or about to start) tasks; clearing it anywhere
+        # else (wake-up handler, Drive handler, executor) loses a request that is never repeated.
+        clears_ = [n for m_ in repo.all_modules() for n in ast.walk(m_.tree) if _on_event(n, "clear")]
+        wd_ = wm.get("drive")
+        if wd_ is None:
+            raise AnchorMissing("Worker.drive")
+        gwd = cfg_of(wd_)
+        jp_send = _jp_sends(wd_)
+        if not clears_ or not jp_send:
+            raise AnchorMissing("complete.clear() / send(JoinPointReached)")
+        for n in clears_:
+            if not _within(n, wd_):
+                chk.ob("O1.6", "complete.clear() only at the join point, before JoinPointReached is sent", False, n, f"in {source.qualname(n)}"
+                       ": a CompleteCurrentTask that arrived between Drive and this point is wiped; the worker runs tasks of an element that is already completed and the request is never repeated",
+                       key=f"{_D}:{source.qualname(n)}:complete.clear")
+        for n in [n for n in walk_body(wd_) if _on_event(n, "clear")]:
+            ok = gwd.dominated_by_nodes(gwd.node_of(jp_send[0]), [gwd.node_of(n)]) and any(_jp(f_) for f_ in _pat.fact_nodes(n))
+            chk.ob("O1.6", "complete.clear() only at the join point, before JoinPointReached is sent", ok, n, f"in {source.qualname(n)}" + ("" if ok else
+                   ": a CompleteCurrentTask that arrived between Drive and this point is wiped; the worker runs tasks of an element that is already completed and the request is never repeated"),
+                   key=f"{_D}:{source.qualname(n)}:complete.clear")
 
-    # Worker handler: truth table over (J = at join point, S = Drive received but start wake-up pending)
-    from sa.sym import UnknownAtom, truth_table
+        # Worker handler: truth table over (J = at join point, S = Drive received but start wake-up pending)
+        from sa.sym import UnknownAtom, truth_table
 
-    hct = W.methods.get("receiveMsg_CompleteCurrentTask")
-    if hct is None:
-        raise AnchorMissing("Worker.receiveMsg_CompleteCurrentTask")
-    hsets = [s for s in sets if source.enclosing_func(s) is hct]
+        hdefs = local_defs(hct)
+        hsets = [n for n in walk_body(hct) if _on_event(n, "set")]
 
-    def classify(n):
-        if isinstance(n, ast.Call) and u(n.func) == "self.at_joinpoint":
-            return "J"
-        if is_self_attr(n, "start_driving"):
-            return "S"
-        return None
+        def classify(n):
+            n = source.inline_node(n, hdefs)  # `at_jp = self.at_joinpoint()` evaluated once and tested twice
+            if _jp(n) and u(n.func) == "self.at_joinpoint":
+                return "J"
+            if is_self_attr(n, w_pending):
+                return "S"
+            return None
 
-    from sa.sym import atoms_of
-    import itertools
+        from sa.sym import atoms_of
 
-    free = []
-    for s_ in hsets:
-        for test, pol in guards(s_):
-            for a in atoms_of(test):
-                if classify(a) is None and u(a) not in free:
-                    free.append(u(a))
+        free = []
+        for s_ in hsets:
+            for test, pol in guards(s_, path_sensitive=True):  # what is known to hold when the set runs: guard clauses (`if not at_joinpoint(): set; return`) count like else arms
+                for a in atoms_of(test):
+                    if classify(a) is None and u(a) not in free:
+                        free.append(u(a))
 
-    def classify2(n):
-        c = classify(n)
-        if c is not None:
-            return c
-        return u(n) if u(n) in free else None
+        def classify2(n):
+            c = classify(n)
+            if c is not None:
+                return c
+            return u(n) if u(n) in free else None
 
-    names = ["J", "S"] + free
-    table_all, table_any = {}, {}
-    for J in (False, True):
-        for S in (False, True):
-            results = []
-            for fv in itertools.product([False, True], repeat=len(free)):
-                env = dict(zip(names, (J, S) + fv))
-                reach = False
-                for s_ in hsets:
-                    val = True
-                    for test, pol in guards(s_):
-                        rows = truth_table(test, names, classify2)
-                        v = [r for e, r in rows if e == env][0]
-                        val = val and (v == pol)
-                    reach = reach or val
-                results.append(reach)
-            table_all[(J, S)] = all(results)
-            table_any[(J, S)] = any(results)
-    want = {(False, False): True, (False, True): True, (True, True): True, (True, False): False}
-    for k, v in want.items():
-        what = {(False, False): "running tasks: complete must be set", (False, True): "running tasks (flag irrelevant): complete must be set",
-                (True, True): "Drive received, start wake-up pending: the request concerns the tasks about to start and must be remembered",
-                (True, False): "waiting at the join point after finishing the step: the request is stale and must be ignored"}[k]
-        ok = table_all[k] if v else not table_any[k]
-        chk.ob("O1.6", f"CompleteCurrentTask handler at (join point={k[0]}, drive pending={k[1]})", ok, hct,
-               f"{what}; handler sets complete: always={table_all[k]} sometimes={table_any[k]}" + (f" (depends on extra condition(s) {free})" if free else ""),
-               key=f"{_D}:Worker.receiveMsg_CompleteCurrentTask:table{k}")
+        names = ["J", "S"] + free
+        table_all, table_any = {}, {}
+        for J in (False, True):
+            for S in (False, True):
+                results = []
+                for fv in itertools.product([False, True], repeat=len(free)):
+                    env = dict(zip(names, (J, S) + fv))
+                    reach = False
+                    for s_ in hsets:
+                        val = True
+                        for test, pol in guards(s_, path_sensitive=True):
+                            rows = truth_table(test, names, classify2)
+                            v = [r for e, r in rows if e == env][0]
+                            val = val and (v == pol)
+                        reach = reach or val
+                    results.append(reach)
+                table_all[(J, S)] = all(results)
+                table_any[(J, S)] = any(results)
+        want = {(False, False): True, (False, True): True, (True, True): True, (True, False): False}
+        for k, v in want.items():
+            what = {(False, False): "running tasks: complete must be set", (False, True): "running tasks (flag irrelevant): complete must be set",
+                    (True, True): "Drive received, start wake-up pending: the request concerns the tasks about to start and must be remembered",
+                    (True, False): "waiting at the join point after finishing the step: the request is stale and must be ignored"}[k]
+            ok = table_all[k] if v else not table_any[k]
+            chk.ob("O1.6", f"CompleteCurrentTask handler at (join point={k[0]}, drive pending={k[1]})", ok, hct,
+                   f"{what}; handler sets complete: always={table_all[k]} sometimes={table_any[k]}" + (f" (depends on extra condition(s) {free})" if free else ""),
+                   key=f"{_D}:Worker.receiveMsg_CompleteCurrentTask:table{k}")
 
     # ---- O1.7 wake-up chain has no dead end ----------------------------------------------------------------------------------------------
     chk.rule("O1.7", "every normal-exit path of the wake-up chain routines (worker / task executor WakeupMessage handlers, Worker.drive, handlers that submit "
              "to the pool) has sent a protocol message, armed a wake-up or tail-called the drive routine", 6,
              "parallel element with capped clients and completed-by: the worker sits at a row with nothing scheduled and the race hangs")
+    with _Section(chk, "O1.7"):
+        _always: dict = {}
 
-    def progress_nodes(fn, g, cls):
-        out = []
-        fdefs = local_defs(fn)
-        for n in walk_body(fn):
-            if isinstance(n, ast.Call):
-                nm = last_attr(n.func)
-                payload = n.args[1] if nm == "send" and len(n.args) >= 2 else None
-                if isinstance(payload, ast.Name):  # the message constructed into a (single-assignment) local first
-                    payload = fdefs.get(payload.id)
-                if nm == "wakeupAfter":
-                    out.append(g.node_of(n))
-                elif isinstance(payload, ast.Call) and last_attr(payload.func) in ("JoinPointReached", "BenchmarkFailure", "BenchmarkCancelled", "ReadyForWork", "WorkerIdle"):
-                    out.append(g.node_of(n))
-                elif nm == "drive" and isinstance(n.func, ast.Attribute) and isinstance(n.func.value, ast.Name) and n.func.value.id == "self":
-                    out.append(g.node_of(n))
-        return out
+        def always(view, name, pred, stack=()):
+            """every normal path through the method `name` of the class passes a call satisfying pred (directly or through another method of the class that always does)"""
+            key = (id(view), name, pred.__name__)
+            if key in _always:
+                return _always[key]
+            fn_ = view.get(name)
+            if fn_ is None or name in stack:
+                return False
+            g_ = cfg_of(fn_)
+            ns = [g_.node_of(n) for n in walk_body(fn_) if isinstance(n, ast.Call) and (pred(n, fn_) or (isinstance(n.func, ast.Attribute) and isinstance(n.func.value, ast.Name)
+                  and n.func.value.id == "self" and n.func.attr in view and n.func.attr != name and always(view, n.func.attr, pred, stack + (name,))))]
+            r = bool(ns) and g_.must_pass(g_.entry, ns, normal_only=True)
+            if not stack:
+                _always[key] = r
+            return r
 
-    chain = [(W, "receiveMsg_WakeupMessage"), (W, "drive"), (W, "receiveMsg_Drive"), (W, "receiveMsg_StartWorker"),
-             (TE, "receiveMsg_WakeupMessage"), (TE, "receiveMsg_DoTask")]
-    for cls, name in chain:
-        fn = cls.methods.get(name)
-        if fn is None:
-            raise AnchorMissing(f"{cls.name}.{name}")
-        gg = cfg_of(fn)
-        pn = progress_nodes(fn, gg, cls)
-        ok = bool(pn) and gg.must_pass(gg.entry, pn)
-        path = None
-        if not ok:
-            p = gg.find_path(gg.entry, gg.exit, avoid=pn)
-            path = gg.describe_path(p) if p else None
-        chk.ob("O1.7", f"{cls.name}.{name}: no dead end", ok, fn, f"{len(pn)} progress site(s)" + ("" if ok else "; a normal-exit path schedules nothing: " + " ".join(path or [])),
-               key=f"{_D}:{cls.name}.{name}:dead-end", path=path)
-        for sub in [n for n in walk_body(fn) if isinstance(n, ast.Call) and last_attr(n.func) == "submit"]:
-            wk = [gg.node_of(n) for n in walk_body(fn) if isinstance(n, ast.Call) and last_attr(n.func) == "wakeupAfter"]
-            ok = bool(wk) and gg.must_pass(gg.node_of(sub), wk, normal_only=True)
-            chk.ob("O1.7", f"{cls.name}.{name}: submit arms a wake-up", ok, sub, "")
-    # start_driving flag: set by Drive, consumed (reset) before drive() in the wake-up handler
-    wk = W.methods["receiveMsg_WakeupMessage"]
-    gwk = cfg_of(wk)
-    sd_tests = [n for n in walk_body(wk) if isinstance(n, ast.If) and any(is_self_attr(x, "start_driving") for x in ast.walk(n.test))]
+        def is_progress(n, fn):
+            nm = last_attr(n.func)
+            payload = n.args[1] if nm == "send" and len(n.args) >= 2 else None
+            if isinstance(payload, ast.Name):  # the message constructed into a (single-assignment) local first
+                payload = local_defs(fn).get(payload.id)
+            return nm == "wakeupAfter" or (isinstance(payload, ast.Call) and last_attr(payload.func) in ("JoinPointReached", "BenchmarkFailure", "BenchmarkCancelled", "ReadyForWork", "WorkerIdle")) \
+                or (nm == "drive" and isinstance(n.func, ast.Attribute) and isinstance(n.func.value, ast.Name) and n.func.value.id == "self")
 
-    def _sd(n):
-        """n executes only when start_driving was found set (guard fact, whichever arm / polarity the test is written in)"""
-        return any(is_self_attr(f_, "start_driving") for f_ in _pat.fact_nodes(n))
+        def is_wakeup(n, fn):
+            return last_attr(n.func) == "wakeupAfter"
 
-    resets = [n for n in walk_body(wk) if isinstance(n, ast.Assign) and any(is_self_attr(x, "start_driving") for x in n.targets) and source.is_const(n.value, False) and _sd(n)]
-    drives = [n for n in walk_body(wk) if isinstance(n, ast.Call) and u(n.func) == "self.drive" and _sd(n)]
-    ok = bool(resets) and bool(drives)
-    chk.ob("O1.7", "Drive -> start_driving -> wake-up -> drive() hand-over", ok, sd_tests[0] if sd_tests else wk, "flag consumed (reset) and drive() called" if ok else "start_driving is not consumed/reset before driving")
-    dr = W.methods["receiveMsg_Drive"]
-    ok = any(isinstance(n, ast.Assign) and any(is_self_attr(x, "start_driving") for x in n.targets) and source.is_const(n.value, True) for n in walk_body(dr))
-    chk.ob("O1.7", "Drive handler sets start_driving", ok, dr, "")
-    # the flag means "a start wake-up is pending": once it is set the handler must arm exactly that wake-up on every path and must not start driving itself
-    gdr = cfg_of(dr)
-    sets_ = [n for n in walk_body(dr) if isinstance(n, ast.Assign) and any(is_self_attr(x, "start_driving") for x in n.targets) and source.is_const(n.value, True)]
-    wkn = [gdr.node_of(n) for n in walk_body(dr) if isinstance(n, ast.Call) and last_attr(n.func) == "wakeupAfter"]
-    direct = [n for n in walk_body(dr) if isinstance(n, ast.Call) and u(n.func) == "self.drive"]
-    ok = bool(sets_) and bool(wkn) and all(gdr.must_pass(gdr.node_of(s_), wkn, normal_only=True) for s_ in sets_) and not direct
-    chk.ob("O1.7", "Drive handler: flag set => start wake-up armed on every path, no direct drive()", ok, direct[0] if direct else (sets_[0] if sets_ else dr),
-           "" if ok else ("drive() is called with start_driving still set: the next polling wake-up is taken for the start wake-up and the worker advances while its clients are running"
-                          if direct else "a path sets the flag without arming the wake-up"), key=f"{_D}:Worker.receiveMsg_Drive:flag-implies-wakeup")
+        def nodes_of(fn, g, view, pred):
+            """the calls of fn that satisfy pred, plus its calls of methods of the same class (shared helpers, not inlined) that satisfy it on every normal path"""
+            return [g.node_of(n) for n in walk_body(fn) if isinstance(n, ast.Call) and (pred(n, fn) or (isinstance(n.func, ast.Attribute) and isinstance(n.func.value, ast.Name)
+                    and n.func.value.id == "self" and n.func.attr in view and view[n.func.attr] is not fn and always(view, n.func.attr, pred)))]
+
+        chain = [(W, wm, "receiveMsg_WakeupMessage"), (W, wm, "drive"), (W, wm, "receiveMsg_Drive"), (W, wm, "receiveMsg_StartWorker"),
+                 (TE, te, "receiveMsg_WakeupMessage"), (TE, te, "receiveMsg_DoTask")]
+        for cls, view, name in chain:
+            fn = view.get(name)
+            if fn is None:
+                raise AnchorMissing(f"{cls.name}.{name}")
+            gg = cfg_of(fn)
+            pn = nodes_of(fn, gg, view, is_progress)
+            ok = bool(pn) and gg.must_pass(gg.entry, pn)
+            path = None
+            if not ok:
+                p = gg.find_path(gg.entry, gg.exit, avoid=pn)
+                path = gg.describe_path(p) if p else None
+            chk.ob("O1.7", f"{cls.name}.{name}: no dead end", ok, fn, f"{len(pn)} progress site(s)" + ("" if ok else "; a normal-exit path schedules nothing: " + " ".join(path or [])),
+                   key=f"{_D}:{cls.name}.{name}:dead-end", path=path)
+            for sub in [n for n in walk_body(fn) if isinstance(n, ast.Call) and last_attr(n.func) == "submit"]:
+                wk = nodes_of(fn, gg, view, is_wakeup)
+                ok = bool(wk) and gg.must_pass(gg.node_of(sub), wk, normal_only=True)
+                chk.ob("O1.7", f"{cls.name}.{name}: submit arms a wake-up", ok, sub, "")
+        # start_driving flag: set by Drive, consumed (reset) before drive() in the wake-up handler
+        wk = wm["receiveMsg_WakeupMessage"]
+        gwk = cfg_of(wk)
+        sd_tests = [n for n in walk_body(wk) if isinstance(n, ast.If) and any(is_self_attr(x, w_pending) for x in ast.walk(n.test))]
+
+        def _sd(n):
+            """n executes only when start_driving was found set (guard fact, whichever arm / polarity the test is written in)"""
+            return any(is_self_attr(f_, w_pending) or _pat.is_(f_, f"self.{w_pending} is True", f"self.{w_pending} == True") for f_ in _pat.fact_nodes(n))
+
+        resets = [n for n in walk_body(wk) if isinstance(n, ast.Assign) and any(is_self_attr(x, w_pending) for x in n.targets) and source.is_const(n.value, False) and _sd(n)]
+        drives = [n for n in walk_body(wk) if isinstance(n, ast.Call) and u(n.func) == "self.drive" and _sd(n)]
+        ok = bool(resets) and bool(drives)
+        chk.ob("O1.7", "Drive -> start_driving -> wake-up -> drive() hand-over", ok, sd_tests[0] if sd_tests else wk, "flag consumed (reset) and drive() called" if ok else "start_driving is not consumed/reset before driving")
+        dr = wm["receiveMsg_Drive"]
+        ok = any(isinstance(n, ast.Assign) and any(is_self_attr(x, w_pending) for x in n.targets) and source.is_const(n.value, True) for n in walk_body(dr))
+        chk.ob("O1.7", "Drive handler sets start_driving", ok, dr, "")
+        # the flag means "a start wake-up is pending": once it is set the handler must arm exactly that wake-up on every path and must not start driving itself
+        gdr = cfg_of(dr)
+        sets_ = [n for n in walk_body(dr) if isinstance(n, ast.Assign) and any(is_self_attr(x, w_pending) for x in n.targets) and source.is_const(n.value, True)]
+        wkn = nodes_of(dr, gdr, wm, is_wakeup)
+        direct = [n for n in walk_body(dr) if isinstance(n, ast.Call) and u(n.func) == "self.drive"]
+        ok = bool(sets_) and bool(wkn) and all(gdr.must_pass(gdr.node_of(s_), wkn, normal_only=True) for s_ in sets_) and not direct
+        chk.ob("O1.7", "Drive handler: flag set => start wake-up armed on every path, no direct drive()", ok, direct[0] if direct else (sets_[0] if sets_ else dr),
+               "" if ok else ("drive() is called with start_driving still set: the next polling wake-up is taken for the start wake-up and the worker advances while its clients are running"
+                              if direct else "a path sets the flag without arming the wake-up"), key=f"{_D}:Worker.receiveMsg_Drive:flag-implies-wakeup")
 
     # ---- O1.9 index advance / join-point predicate ------------------------------------------------------------------------------------------
     chk.rule("O1.9", "the worker's row index advances by exactly one per read (current := next; next += 1) and `at join point` means ALL entries at the "
-             "index are join points", 3, "a row is skipped or executed twice; a worker with a mixed row treats it as a join point")
-    ca = W.methods.get("current_tasks_and_advance")
-    if ca is None:
-        raise AnchorMissing("Worker.current_tasks_and_advance")
-    gca = cfg_of(ca)
-    cur = [n for n in walk_body(ca) if isinstance(n, ast.Assign) and any(is_self_attr(t, "current_task_index") for t in n.targets)]
-    nxt = [n for n in walk_body(ca) if isinstance(n, ast.AugAssign) and is_self_attr(n.target, "next_task_index")]
-    ok = len(cur) == 1 and is_self_attr(cur[0].value, "next_task_index") and len(nxt) == 1 and isinstance(nxt[0].op, ast.Add) and source.is_const(nxt[0].value, 1) \
-        and gca.dominated_by_nodes(gca.node_of(nxt[0]), [gca.node_of(cur[0])]) and not guards(cur[0]) and not guards(nxt[0])
-    chk.ob("O1.9", "current := next; next += 1", ok, ca, f"{len(cur)} store(s) to current, {len(nxt)} increment(s) of next")
-    reads = [n for n in walk_body(ca) if isinstance(n, ast.Call) and last_attr(n.func) == "tasks" and n.args and is_self_attr(n.args[0], "current_task_index")]
-    ok = bool(reads) and bool(cur) and gca.dominated_by_nodes(gca.node_of(reads[0]), [gca.node_of(cur[0])])
-    chk.ob("O1.9", "the row is read at the new current index", ok, reads[0] if reads else ca, "")
-    # other writers of next_task_index / current_task_index
-    for attr in ("next_task_index", "current_task_index"):
-        ws = [n for m in W.methods.values() for n in walk_body(m) if isinstance(n, (ast.Assign, ast.AugAssign)) and
-              any(is_self_attr(t, attr) for t in (n.targets if isinstance(n, ast.Assign) else [n.target])) and m.name not in ("__init__", "current_tasks_and_advance")]
-        bad = [w for w in ws if not (isinstance(w, ast.Assign) and source.is_const(w.value, 0) and source.enclosing_func(w).name == "receiveMsg_StartWorker")]
-        chk.ob("O1.9", f"no other writer of {attr}", not bad, bad[0] if bad else ca, f"{len(ws)} other store(s)")
-    CA = drv.cls("ClientAllocations")
-    ij = drv.methods(CA).get("is_joinpoint")
-    ok = False
-    if ij is not None:
-        rets = [n for n in walk_body(ij) if isinstance(n, ast.Return)]
-        if len(rets) == 1 and isinstance(rets[0].value, ast.Call) and last_attr(rets[0].value.func) == "all":
-            ge = rets[0].value.args[0]
-            ok = isinstance(ge, (ast.GeneratorExp, ast.ListComp)) and isinstance(ge.elt, ast.Call) and dotted(ge.elt.func) == "isinstance" and last_attr(ge.elt.args[1]) == "JoinPoint" and not ge.generators[0].ifs
-    chk.ob("O1.9", "is_joinpoint: all entries are join points", ok, ij if ij is not None else CA, "")
+             "index are join points (the worker's methods and the row view are interpreted on a model matrix)", 3, "a row is skipped or executed twice; a worker with a mixed row treats it as a join point")
+    with _Section(chk, "O1.9"):
+        ca0 = W.methods.get("current_tasks_and_advance")
+        aj0 = W.methods.get("at_joinpoint")
+        if ca0 is None or aj0 is None:
+            raise AnchorMissing("Worker.current_tasks_and_advance / Worker.at_joinpoint")
+        CA = drv.cls("ClientAllocations")
+        # the worker attribute that holds the row view: the receiver of the .tasks(...) / .is_joinpoint(...) calls of the two methods (and of the helpers they call)
+        views = {c.func.value.attr for f in _closure_in_module(drv, ca0) + _closure_in_module(drv, aj0) for c in source.calls_in(f) if isinstance(c.func, ast.Attribute)
+                 and c.func.attr in ("tasks", "is_joinpoint") and is_self_attr(c.func.value)}
+        if len(views) != 1:
+            raise AnchorMissing("the worker attribute holding its ClientAllocations (receiver of .tasks(...) / .is_joinpoint(...))")
+        view_attr = next(iter(views))
+        log = []
+
+        def _model_view():
+            def tasks(idx, *a, **k):
+                log.append(("tasks", idx))
+                return [("row", idx)]
+
+            def is_joinpoint(idx):
+                log.append(("is_joinpoint", idx))
+                return False
+
+            tasks._model_callable = is_joinpoint._model_callable = True
+            return _Obj(None, tasks=tasks, is_joinpoint=is_joinpoint)
+
+        mach = _Machine(drv)
+        wobj = mach.new(W.node)  # the constructor is interpreted: the initial indices are the worker's own
+        before = {k: v for k, v in wobj.fields.items() if isinstance(v, int) and not isinstance(v, bool)}
+        wobj.fields[view_attr] = _model_view()
+        got, asked = [], []
+        for k in range(3):
+            r = mach.apply(mach.getattr(wobj, ca0.name), [], {})
+            got.append(r[0][1] if isinstance(r, list) and len(r) == 1 and isinstance(r[0], tuple) and r[0][0] == "row" else repr(r))
+            n0 = len(log)
+            mach.apply(mach.getattr(wobj, aj0.name), [], {})
+            asked.append([i for what, i in log[n0:] if what == "is_joinpoint"])
+        ok = got == [0, 1, 2]
+        chk.ob("O1.9", "current := next; next += 1", ok, wm.get(ca0.name, ca0), f"three reads of a fresh worker return the rows {got}" + ("" if ok else " instead of [0, 1, 2]: a row is skipped or read twice"))
+        ok = asked == [[0], [1], [2]]
+        chk.ob("O1.9", "the row is read at the new current index", ok, wm.get(aj0.name, aj0), f"after the k-th read at_joinpoint() asks about row(s) {asked}" + ("" if ok else ": not the row that was just read"))
+        # other writers of the index attributes (the integer attributes the reads changed)
+        after = {k: v for k, v in wobj.fields.items() if isinstance(v, int) and not isinstance(v, bool)}
+        idx_attrs = sorted(k for k in after if before.get(k) != after[k])
+        if not idx_attrs:
+            raise AnchorMissing("the worker's index attributes (integer attributes changed by current_tasks_and_advance)")
+        inl_ = {id(h) for h in getattr(wm.get(ca0.name), "_inlined", [])}
+        for attr in idx_attrs:
+            ws = [n for m in wm.values() for n in walk_body(m) if isinstance(n, (ast.Assign, ast.AugAssign)) and
+                  any(is_self_attr(t, attr) for t in (n.targets if isinstance(n, ast.Assign) else [n.target])) and m.name not in ("__init__", ca0.name)]
+            bad = [w for w in ws if not (isinstance(w, ast.Assign) and source.is_const(w.value, 0) and source.enclosing_func(w).name == "receiveMsg_StartWorker")]
+            chk.ob("O1.9", f"no other writer of {attr}", not bad, bad[0] if bad else wm.get(ca0.name, ca0), f"{len(ws)} other store(s)")
+        # the row view on a model matrix of two clients: (join point, join point) / (task, None) / (task, join point)
+        ij = drv.methods(CA).get("is_joinpoint")
+        tk = drv.methods(CA).get("tasks")
+        adders = [f for f in drv.methods(CA).values() if len(params_of(f)) == 3 and f.name not in ("tasks", "is_joinpoint", "__init__")]
+        if ij is None or tk is None or len(adders) != 1:
+            raise AnchorMissing("ClientAllocations.is_joinpoint / tasks / the method that adds a client's row")
+        m2 = _Machine(drv)
+        JPc, TAc = drv.cls("JoinPoint"), drv.cls("TaskAllocation")
+        j0, j1 = m2.new(JPc, [0]), m2.new(JPc, [1])
+        if drv.methods(TAc).get("__init__") is None:
+            raise AnchorMissing("TaskAllocation.__init__")
+        t_args = [_Opaque(f"arg{i}") for i in range(len([p for p in params_of(drv.methods(TAc)["__init__"]) if p != "self"]))]
+        ta0, ta1 = m2.new(TAc, list(t_args)), m2.new(TAc, list(t_args))
+        rows = {7: [j0, ta0, ta1, j1], 9: [j0, None, j1, j1]}
+        view = m2.new(CA)
+        for cid, row in rows.items():
+            m2.apply(m2.getattr(view, adders[0].name), [cid, row], {})
+        jp_is = [bool(m2.apply(m2.getattr(view, ij.name), [i], {})) for i in range(4)]
+        ok = jp_is == [True, False, False, True]
+        chk.ob("O1.9", "is_joinpoint: all entries are join points", ok, ij, f"rows (JP, JP), (task, None), (task, JP), (JP, JP) -> {jp_is}" + ("" if ok else ": a row that still holds a task is taken for a join point (or a join point is not recognised)"))
 
     # ---- O1.10 every allocated (client, task) pair is run exactly once ------------------------------------------------------------------------------
     chk.rule("O1.10", "the worker's row view pairs every client with its own non-empty entry at the index; the executor adapter creates exactly one executor per (client, task allocation) "
              "of the row, unconditionally, and awaits all of them; one parameter source per task", 6,
              "a client's allocation is dropped (task runs with fewer clients) or started twice; a failed/late client is not awaited before the join point")
-    tk = drv.methods(CA).get("tasks")
-    ok = False
-    if tk is not None:
-        loops_ = [n for n in walk_body(tk) if isinstance(n, ast.For) and is_self_attr(n.iter, "allocations")]
-        if loops_:
-            Lr = loops_[0]
-            av = Lr.target.id
-            entry = [n for n in ast.walk(Lr) if isinstance(n, ast.Assign) and u(n.value) == f"{av}['tasks'][{params_of(tk)[1]}]"]
-            apps = [n for n in ast.walk(Lr) if isinstance(n, ast.Call) and last_attr(n.func) == "append" and n.args and isinstance(n.args[0], ast.Call) and last_attr(n.args[0].func) == "ClientAllocation"]
-            if entry and apps:
-                ev_ = u(entry[0].targets[0])
-                a0 = apps[0].args[0]
-                # guard facts of the append (either arm, any conjunct order): `<entry> is not None`, and nothing else but the remove_empty parameter
-                fs_ = _pat.fact_nodes(apps[0], stop=Lr)
-                nn_ = [f_ for f_ in fs_ if _pat.is_(f_, "V_e is not None", "None is not V_e", binds={"e": ev_})]
-                ok = [u(x) for x in a0.args] == [f"{av}['client_id']", ev_] and bool(nn_) and all(f_ in nn_ or (isinstance(f_, ast.Name) and f_.id == params_of(tk)[2]) for f_ in fs_) and not _has_jump(Lr)
-    chk.ob("O1.10", "row view: (client id, its own entry) for every non-empty entry", ok, tk if tk is not None else CA, "")
-    AD = drv.cls("AsyncIoAdapter")
-    arun = drv.methods(AD).get("run")
-    if arun is None:
-        raise AnchorMissing("AsyncIoAdapter.run")
-    al = [n for n in walk_body(arun) if isinstance(n, ast.For) and is_self_attr(n.iter, "task_allocations")]
-    if not al:
-        raise AnchorMissing("loop over self.task_allocations in AsyncIoAdapter.run")
-    AL_ = al[0]
-    exs = [n for n in ast.walk(AL_) if isinstance(n, ast.Call) and last_attr(n.func) == "AsyncExecutor"]
-    ga0 = [n for n in walk_body(arun) if isinstance(n, ast.Call) and dotted(n.func) == "asyncio.gather"]
-    awl = ga0[0].args[0].value.id if ga0 and ga0[0].args and isinstance(ga0[0].args[0], ast.Starred) and isinstance(ga0[0].args[0].value, ast.Name) else None
-    aw = [n for n in ast.walk(AL_) if isinstance(n, ast.Call) and awl is not None and u(n.func) == f"{awl}.append"]
-    ok = len(exs) == 1 and len(aw) == 1 and not guards(exs[0], stop=AL_) and not guards(aw[0], stop=AL_) and not _has_jump(AL_) and isinstance(AL_.target, ast.Tuple)
-    chk.ob("O1.10", "one executor per allocation of the row, unconditionally", ok, AL_, f"executors={len(exs)} awaitables.append={len(aw)}")
-    if exs and isinstance(AL_.target, ast.Tuple):
-        cidv, tav = [t.id for t in AL_.target.elts]
-        ldefs_ = {n.targets[0].id: n.value for n in ast.walk(AL_) if isinstance(n, ast.Assign) and len(n.targets) == 1 and isinstance(n.targets[0], ast.Name)}
-        a = exs[0].args
-        ok = u(a[0]) == cidv and u(source.inline_node(a[1], ldefs_)) == f"{tav}.task" and u(a[5]) == "self.cancel" and u(a[6]) == "self.complete" and u(a[4]) == "self.sampler"
-        chk.ob("O1.10", "executor gets this client's id, this allocation's task and the worker's shared sampler / cancel / complete", ok, exs[0], short(exs[0], 120))
-        sf_ = [n for n in ast.walk(AL_) if isinstance(n, ast.Call) and last_attr(n.func) == "schedule_for"]
-        ok = bool(sf_) and u(sf_[0].args[0]) == tav and isinstance(sf_[0].args[1], ast.Subscript) and isinstance(sf_[0].args[1].value, ast.Name)
-        ppt = sf_[0].args[1].value.id if ok else None
-        chk.ob("O1.10", "schedule computed for this allocation with the task's (shared) parameter source", ok, sf_[0] if sf_ else AL_, "")
-        ps_ = [n for n in ast.walk(AL_) if isinstance(n, ast.Call) and last_attr(n.func) == "operation_parameters"]
-        ok = len(ps_) == 1 and ppt is not None and _pat.guarded(ps_[0], "E_k not in V_p", stop=AL_, binds={"p": ppt}) is not None
-        chk.ob("O1.10", "one parameter source per task (created on first sight only)", ok, ps_[0] if ps_ else AL_, "")
-    ga = [n for n in walk_body(arun) if isinstance(n, ast.Call) and dotted(n.func) == "asyncio.gather"]
-    ok = len(ga) == 1 and awl is not None and [u(x) for x in ga[0].args] == [f"*{awl}"] and isinstance(source.parent(ga[0]), ast.Await)
-    chk.ob("O1.10", "all executors of the row are awaited together", ok, ga[0] if ga else arun, "")
+    with _Section(chk, "O1.10"):
+        matrix_objs = [x for r in rows.values() for x in r if x is not None]
+
+        def _pairs(i):
+            """(client id, entry) of every element of the row view at index i; an element that does not carry an integer and an object of the model matrix is not recognised"""
+            out = []
+            for e in m2._iter(m2.apply(m2.getattr(view, tk.name), [i], {}), tk):
+                vals = list(e.fields.values()) if isinstance(e, _Obj) and e.cls is None else list(e) if isinstance(e, (tuple, list)) else None
+                ids = [v for v in (vals or []) if isinstance(v, int) and not isinstance(v, bool)]
+                ents = [v for v in (vals or []) if any(v is x for x in matrix_objs)]
+                if len(ids) != 1 or len(ents) != 1:
+                    raise _Cannot(f"the row view returns `{e!r}`: not a (client id, entry) pair")
+                out.append((ids[0], ents[0]))
+            return out
+
+        bad = []
+        for i in range(4):
+            got_ = _pairs(i)
+            want_ = [(cid, r[i]) for cid, r in rows.items() if r[i] is not None]
+            if not (len(got_) == len(want_) and all(g[0] == w[0] and g[1] is w[1] for g, w in zip(sorted(got_, key=lambda p_: p_[0]), want_))):
+                bad.append((i, [(c_, repr(x)) for c_, x in got_], [(c_, repr(x)) for c_, x in want_]))
+        chk.ob("O1.10", "row view: (client id, its own entry) for every non-empty entry", not bad, tk, "clients 7 / 9 over four rows with join points, tasks and a None entry"
+               + ("" if not bad else f": (index, returned, expected) {bad[0]}"))
+    with _Section(chk, "O1.10"):
+        AD = drv.cls("AsyncIoAdapter")
+        arun = drv.methods(AD).get("run")
+        einit = drv.methods(drv.cls("AsyncExecutor")).get("__init__")
+        if arun is None or einit is None:
+            raise AnchorMissing("AsyncIoAdapter.run / AsyncExecutor.__init__")
+        exs_all = [n for n in walk_body(arun) if isinstance(n, ast.Call) and last_attr(n.func) == "AsyncExecutor"]
+        if not exs_all:
+            raise AnchorMissing("AsyncExecutor(...) in AsyncIoAdapter.run")
+        AL_ = source.enclosing(exs_all[0], (ast.For, ast.While, ast.ListComp, ast.GeneratorExp, ast.SetComp, ast.DictComp))
+        if not isinstance(AL_, ast.For) or not (is_self_attr(AL_.iter) or (isinstance(AL_.iter, ast.Call) and any(is_self_attr(x) for x in ast.walk(AL_.iter)))):
+            raise AnchorMissing("for loop over the adapter's allocations around AsyncExecutor(...) in AsyncIoAdapter.run")
+        exs = [n for n in ast.walk(AL_) if isinstance(n, ast.Call) and last_attr(n.func) == "AsyncExecutor"]
+        ga0 = [n for n in walk_body(arun) if isinstance(n, ast.Call) and dotted(n.func) == "asyncio.gather"]
+        if not ga0:
+            raise AnchorMissing("asyncio.gather(...) in AsyncIoAdapter.run")
+        awl = ga0[0].args[0].value.id if ga0[0].args and isinstance(ga0[0].args[0], ast.Starred) and isinstance(ga0[0].args[0].value, ast.Name) else None
+        aw = [n for n in ast.walk(AL_) if isinstance(n, ast.Call) and awl is not None and u(n.func) == f"{awl}.append"]
+        ok = len(exs) == 1 and len(aw) == 1 and not guards(exs[0], stop=AL_, path_sensitive=True) and not guards(aw[0], stop=AL_, path_sensitive=True) and not _has_jump(AL_)
+        chk.ob("O1.10", "one executor per allocation of the row, unconditionally", ok, AL_, f"executors={len(exs)} awaitables.append={len(aw)}")
+        tnames = [t.id for t in AL_.target.elts] if isinstance(AL_.target, ast.Tuple) and all(isinstance(t, ast.Name) for t in AL_.target.elts) else []
+        if len(tnames) != 2:
+            chk.unknown("O1.10", "the loop over the adapter's allocations does not unpack (client id, task allocation) (shape not recognised)", AL_)
+        else:
+            cidv, tav = tnames
+            ldefs_ = {n.targets[0].id: n.value for n in ast.walk(AL_) if isinstance(n, ast.Assign) and len(n.targets) == 1 and isinstance(n.targets[0], ast.Name)}
+            eps = [p for p in params_of(einit) if p != "self"]
+            b = source.bind_args(exs[0], einit)
+            # roles by the constructor's parameters: (client id, task, schedule, es, sampler, cancel, complete, on_error) - bound by name or position, whichever the call uses
+            vals = [u(source.inline_node(b[p], ldefs_)) if p in b else None for p in eps]
+            # the adapter attribute handed on is followed back to the worker attribute the adapter was constructed with (attribute names play no role)
+            ainit = drv.methods(AD).get("__init__")
+            ad_from = _attr_from_param(ainit)
+            ad_sites = [c for c in package_calls(repo, "AsyncIoAdapter") if source.enclosing_class(c) is W.node]
+
+            def from_worker(p):
+                e = source.inline_node(b[p], ldefs_) if p in b else None
+                q = ad_from.get(e.attr) if e is not None and is_self_attr(e) else None
+                srcs = {a.attr if a is not None and is_self_attr(a) else None for a in (source.bind_args(c, ainit).get(q) for c in ad_sites)} if q and ad_sites else {None}
+                return srcs.pop() if len(srcs) == 1 else None
+
+            w_sampler_ = sorted({n.targets[0].attr for m in wm.values() for n in walk_body(m) if isinstance(n, ast.Assign) and len(n.targets) == 1 and is_self_attr(n.targets[0])
+                                 and isinstance(n.value, ast.Call) and last_attr(n.value.func) == "Sampler"})
+            if len(eps) < 7 or len(w_sampler_) != 1 or any(from_worker(eps[i]) is None for i in (4, 5, 6)):
+                chk.unknown("O1.10", "the sampler / cancel / complete arguments of AsyncExecutor(...) cannot be followed back to attributes of the worker (shape not recognised)", exs[0])
+            else:
+                got_ = [from_worker(eps[i]) for i in (4, 5, 6)]
+                ok = vals[0] == cidv and vals[1] == f"{tav}.task" and got_ == [w_sampler_[0], w_cancel, w_done]
+                chk.ob("O1.10", "executor gets this client's id, this allocation's task and the worker's shared sampler / cancel / complete", ok, exs[0],
+                       short(exs[0], 120) + f"; worker attributes behind (sampler, cancel, complete): {got_}")
+            sf_ = [n for n in ast.walk(AL_) if isinstance(n, ast.Call) and last_attr(n.func) == "schedule_for"]
+            if not sf_:
+                raise AnchorMissing("schedule_for(...) in the loop over the adapter's allocations")
+            ok = len(sf_[0].args) >= 2 and u(sf_[0].args[0]) == tav and isinstance(sf_[0].args[1], ast.Subscript) and isinstance(sf_[0].args[1].value, ast.Name)
+            ppt = sf_[0].args[1].value.id if ok else None
+            chk.ob("O1.10", "schedule computed for this allocation with the task's (shared) parameter source", ok, sf_[0], "")
+            ps_ = [n for n in ast.walk(AL_) if isinstance(n, ast.Call) and last_attr(n.func) == "operation_parameters"]
+            ok = len(ps_) == 1 and ppt is not None and _pat.guarded(ps_[0], "E_k not in V_p", stop=AL_, binds={"p": ppt}) is not None
+            chk.ob("O1.10", "one parameter source per task (created on first sight only)", ok, ps_[0] if ps_ else AL_, "")
+        ok = len(ga0) == 1 and awl is not None and [u(x) for x in ga0[0].args] == [f"*{awl}"] and isinstance(source.parent(ga0[0]), ast.Await)
+        chk.ob("O1.10", "all executors of the row are awaited together", ok, ga0[0], "")
 
     # ---- O1.11 the named task is done when ALL its clients are done (F44) ---------------------------------------------------------------------------
     chk.rule("O1.11", "a client of the task named by completed-by sets the worker-wide complete event only under a condition that depends on the progress of the task's other clients: "
@@ -945,10 +2612,12 @@ def run(chk):
              "client id and request events alone", 1,
              "parallel element with completed-by: <task>, the named task has >= 2 clients, one of them shares a worker with a client of a sibling task (or with another client / a later "
              "row of the named task): the sibling is cut, the later client is never started, as soon as the first co-located client of the named task is done")
-    completing_client_signal_rule(chk, "O1.11", repo, drv)
+    with _Section(chk, "O1.11"):
+        completing_client_signal_rule(chk, "O1.11", repo, drv)
 
     # ---- O1.8 advisory: executor honours the flags ---------------------------------------------------------------------------------------------
-    loops = [n for n in walk_body(ex_call) if isinstance(n, ast.AsyncFor)]
+    ex0 = drv.methods(drv.cls("AsyncExecutor")).get("__call__")
+    loops = [n for n in walk_body(ex0) if isinstance(n, ast.AsyncFor)] if ex0 is not None else []
     if loops:
         lb_ = [s_ for s_ in loops[0].body if not is_logging_stmt(s_)]
         first = lb_[0] if lb_ else loops[0]
@@ -1016,4 +2685,113 @@ VARIANTS = [
     V("walrus-free future check", "keep", _D, "            if self.executor_future is not None:\n                self.executor_future.result()", "            if self.executor_future:\n                self.executor_future.result()"),
     V("worker wake-up interval local", "keep", _D, "                self.executor_future = self.pool.submit(executor)\n                self.wakeupAfter(datetime.timedelta(seconds=self.wakeup_interval))",
       "                self.executor_future = self.pool.submit(executor)\n                interval = datetime.timedelta(seconds=self.wakeup_interval)\n                self.wakeupAfter(interval)"),
+]
+
+# ---- hardening round 2: refactored shapes the re-stated rules accept (keep) and the same defects placed INSIDE the refactored shape (break) ------------------------------------
+_JP0_OLD = "        next_join_point = JoinPoint(join_point_id)\n        for client_index in range(max_clients):\n            allocations[client_index].append(next_join_point)\n        join_point_id += 1\n"
+_JP0_NEW = "        self._join_all(allocations, JoinPoint(join_point_id))\n        join_point_id += 1\n"
+_JPK_OLD = ("            next_join_point = JoinPoint(join_point_id, clients_executing_completing_task, any_task_completes_parent)\n            for client_index in range(max_clients):\n"
+            "                allocations[client_index].append(next_join_point)\n            join_point_id += 1\n        return allocations\n")
+_JPK_NEW = ("            self._join_all(allocations, JoinPoint(join_point_id, clients_executing_completing_task, any_task_completes_parent))\n            join_point_id += 1\n"
+            "        return allocations\n\n    @staticmethod\n    def _join_all(allocations, join_point):\n        for row in allocations:\n            row.append(join_point)\n")
+_ROWS_OLD = "        allocations = [None] * max_clients\n        for client_index in range(max_clients):\n            allocations[client_index] = []\n        join_point_id = 0\n"
+_IDS_OLD = "            next_join_point = JoinPoint(join_point_id, clients_executing_completing_task, any_task_completes_parent)\n"
+_BC_OLD = ("                self.complete_current_task_sent = True\n                self.logger.info(\"All affected clients have finished. Notifying all clients to complete their current tasks.\")\n"
+           "                for worker in self.workers:\n                    self.driver_actor.complete_current_task(worker)\n            else:\n")
+_BC_NEW = ("                self.logger.info(\"All affected clients have finished. Notifying all clients to complete their current tasks.\")\n"
+           "                self._tell_all_workers_to_complete()\n            else:\n")
+_BA_OLD = "            self.complete_current_task_sent = True\n            for worker in self.workers:\n                self.driver_actor.complete_current_task(worker)\n\n        # If we have"
+_BA_NEW = "            self._tell_all_workers_to_complete()\n\n        # If we have"
+_BH_AT = "    def reset_relative_time(self):\n        self.logger.debug(\"Resetting relative time of request metrics store.\")\n"
+_BH = "    def _tell_all_workers_to_complete(self):\n        self.complete_current_task_sent = True\n        for worker in self.workers:\n            self.driver_actor.complete_current_task(worker)\n\n"
+_PEND_OLD = ("            pending_client_ids = []\n            for client_id in current_join_point.clients_executing_completing_task:\n"
+             "                # We assume that all clients have finished if their corresponding worker has finished\n                worker_id = self.clients_per_worker[client_id]\n"
+             "                if worker_id not in self.workers_completed_current_step:\n                    pending_client_ids.append(client_id)\n")
+_HCT_OLD_HEAD = "        if self.at_joinpoint() and self.start_driving:\n            # We have already been told to drive on"
+_POLL_OLD = "                    completed = self.complete.is_set() or runner.completed\n"
+_LOOP_HEAD = "            async for expected_scheduled_time, sample_type, percent_completed, runner, params in schedule:\n                if self.cancel.is_set():\n"
+_ADV_OLD = "        self.current_task_index = self.next_task_index\n        current = self.client_allocations.tasks(self.current_task_index)\n        self.next_task_index += 1\n"
+_VIEW_OLD = ("        current_tasks = []\n        for allocation in self.allocations:\n            tasks_at_index = allocation[\"tasks\"][task_index]\n"
+             "            if remove_empty and tasks_at_index is not None:\n                current_tasks.append(ClientAllocation(allocation[\"client_id\"], tasks_at_index))\n        return current_tasks\n")
+_DRV_LOOP = "        for worker_id, worker in enumerate(self.workers):\n            worker_ended_task_at"
+
+VARIANTS += [
+    # O1.1 on values
+    [V("h2 keep (C02-b1): join point appended to all rows by a helper method", "keep", _D, _JP0_OLD, _JP0_NEW), V("", "keep", _D, _JPK_OLD, _JPK_NEW)],
+    [V("h2 break: the join-point helper skips the first row", "break", _D, _JP0_OLD, _JP0_NEW, "O1.1"), V("", "break", _D, _JPK_OLD, _JPK_NEW.replace("for row in allocations:", "for row in allocations[1:]:"))],
+    V("h2 keep (C01-b3): rows by comprehension, ids from itertools.count()", "keep", _D, _ROWS_OLD + "        # start with an artificial join point to allow master to coordinate that all clients start at the same time\n" + _JP0_OLD,
+      "        allocations = [[] for _ in range(max_clients)]\n        ids = itertools.count()\n        join_point_id = next(ids)\n        next_join_point = JoinPoint(join_point_id)\n"
+      "        for row in allocations:\n            row.append(next_join_point)\n        join_point_id = next(ids)\n"),
+    V("h2 break: rows are one aliased list", "break", _D, _ROWS_OLD, "        allocations = [[]] * max_clients\n        join_point_id = 0\n", "O1.1"),
+    V("h2 break: join point id not advanced between elements", "break", _D, "                allocations[client_index].append(next_join_point)\n            join_point_id += 1\n        return allocations", "                allocations[client_index].append(next_join_point)\n        return allocations", "O1.1"),
+    V("h2 break: one JoinPoint object re-used for every element", "break", _D, _IDS_OLD, "", "O1.1"),
+    V("h2 break: task allocation appended behind the element's join point", "break", _D, "                    allocations[physical_client_index].append(ta)\n                start_client_index += sub_task.clients\n",
+      "                    late = (physical_client_index, ta)\n                start_client_index += sub_task.clients\n", "O1.1"),
+    # O1.4 / O1.2b through a private helper
+    [V("h2 keep (C01-b1): broadcast of CompleteCurrentTask in a private helper", "keep", _D, _BC_OLD, _BC_NEW), V("", "keep", _D, _BA_OLD, _BA_NEW), V("", "keep", _D, _BH_AT, _BH + _BH_AT)],
+    [V("h2 break: the broadcast helper does not memorise that it has sent", "break", _D, _BC_OLD, _BC_NEW, "O1.4"), V("", "break", _D, _BA_OLD, _BA_NEW),
+     V("", "break", _D, _BH_AT, _BH.replace("        self.complete_current_task_sent = True\n", "") + _BH_AT)],
+    [V("h2 break: the broadcast helper leaves out the last worker", "break", _D, _BC_OLD, _BC_NEW, "O1.2b"), V("", "break", _D, _BA_OLD, _BA_NEW),
+     V("", "break", _D, _BH_AT, _BH.replace("in self.workers:", "in self.workers[:-1]:") + _BH_AT)],
+    [V("h2 keep (C01-b1): pending clients computed by a private helper", "keep", _D, _PEND_OLD, "            pending_client_ids = self._pending(current_join_point)\n"),
+     V("", "keep", _D, _BH_AT, "    def _pending(self, join_point):\n        pending = []\n        for client_id in join_point.clients_executing_completing_task:\n            worker_id = self.clients_per_worker[client_id]\n"
+       "            if worker_id not in self.workers_completed_current_step:\n                pending.append(client_id)\n        return pending\n\n" + _BH_AT)],
+    [V("h2 break: the pending helper looks the client id up in the worker-keyed map", "break", _D, _PEND_OLD, "            pending_client_ids = self._pending(current_join_point)\n", "O1.4"),
+     V("", "break", _D, _BH_AT, "    def _pending(self, join_point):\n        pending = []\n        for client_id in join_point.clients_executing_completing_task:\n"
+       "            if client_id not in self.workers_completed_current_step:\n                pending.append(client_id)\n        return pending\n\n" + _BH_AT)],
+    V("h2 keep: pending clients as a comprehension over the client -> worker map", "keep", _D, _PEND_OLD,
+      "            pending_client_ids = [c for c in current_join_point.clients_executing_completing_task if self.clients_per_worker[c] not in self.workers_completed_current_step]\n"),
+    V("h2 keep: once-per-step flag tested as a guard clause", "keep", _D, "        joinpoints_completing_parent = [a for a in task_allocations if a.task.preceding_task_completes_parent]\n",
+      "        joinpoints_completing_parent = [a for a in task_allocations if a.task.preceding_task_completes_parent]\n        if self.complete_current_task_sent:\n            return\n"),
+    # O1.2 / O1.3 on values
+    V("h2 keep: barrier test through a local", "keep", _D, "        if self.currently_completed == len(self.workers):", "        all_arrived = self.currently_completed == len(self.workers)\n        if all_arrived:"),
+    V("h2 keep: barrier as a difference", "keep", _D, "        if self.currently_completed == len(self.workers):", "        if len(self.workers) - self.currently_completed == 0:"),
+    V("h2 break: barrier against the number of steps", "break", _D, "        if self.currently_completed == len(self.workers):", "        if self.currently_completed == self.number_of_steps:", "O1.2"),
+    V("h2 keep: finished with >=", "keep", _D, "        return self.current_step == self.number_of_steps", "        return self.current_step >= self.number_of_steps"),
+    V("h2 break: finished one step late", "break", _D, "        return self.current_step == self.number_of_steps", "        return self.current_step > self.number_of_steps", "O1.3"),
+    V("h2 keep: Drive loop over zip(range(...), workers)", "keep", _D, _DRV_LOOP, "        for worker_id, worker in zip(range(len(self.workers)), self.workers):\n            worker_ended_task_at"),
+    V("h2 break: Drive loop reads the entry of the next worker", "break", _D, _DRV_LOOP, "        for worker_id, worker in enumerate(self.workers, 1):\n            worker_ended_task_at", "O1.2b"),
+    # O1.6 guard clauses / hoisted polls
+    V("h2 keep (C01-b2): CompleteCurrentTask handler evaluates at_joinpoint() once", "keep", _D, _HCT_OLD_HEAD, "        at_jp = self.at_joinpoint()\n        if at_jp and self.start_driving:\n            # We have already been told to drive on"),
+    [V("h2 keep (C18-b4): complete.is_set hoisted out of the request loop", "keep", _D, _POLL_OLD, "                    completed = completed_externally() or runner.completed\n"),
+     V("", "keep", _D, _LOOP_HEAD, "            completed_externally = self.complete.is_set\n" + _LOOP_HEAD)],
+    [V("h2 break: hoisted poll of the complete event ends the completing task's own clients too", "break", _D,
+       "                if task_completes_parent:\n                    completed = runner.completed\n                else:\n" + _POLL_OLD, "                completed = completed_externally() or runner.completed\n", "O1.6"),
+     V("", "break", _D, _LOOP_HEAD, "            completed_externally = self.complete.is_set\n" + _LOOP_HEAD)],
+    # O1.9 / O1.10 on values
+    V("h2 keep: index advance through a local", "keep", _D, _ADV_OLD, "        idx = self.next_task_index\n        self.next_task_index = idx + 1\n        self.current_task_index = idx\n        current = self.client_allocations.tasks(idx)\n"),
+    V("h2 break: index advance reads the row before moving on", "break", _D, _ADV_OLD, "        current = self.client_allocations.tasks(self.current_task_index)\n        self.current_task_index = self.next_task_index\n        self.next_task_index += 1\n", "O1.9"),
+    V("h2 keep: row view as a comprehension", "keep", _D, _VIEW_OLD,
+      "        return [ClientAllocation(a[\"client_id\"], a[\"tasks\"][task_index]) for a in self.allocations if remove_empty and a[\"tasks\"][task_index] is not None]\n"),
+    V("h2 break: row view pairs a client with its neighbour's entry", "break", _D, _VIEW_OLD,
+      "        return [ClientAllocation(a[\"client_id\"], b[\"tasks\"][task_index]) for a, b in zip(self.allocations, reversed(self.allocations)) if remove_empty and b[\"tasks\"][task_index] is not None]\n", "O1.10"),
+]
+
+_JPB_OLD = ("            self.logger.debug(\"Worker[%d] reached join point at index [%d].\", self.worker_id, self.current_task_index)\n"
+            "            # clients that don't execute tasks don't need to care about waiting\n            if self.executor_future is not None:\n                self.executor_future.result()\n"
+            "            self.send_samples()\n            self.cancel.clear()\n            self.complete.clear()\n            self.executor_future = None\n            self.sampler = None\n"
+            "            self.send(self.driver_actor, JoinPointReached(self.worker_id, task_allocations))\n")
+_JPB_HELPER = ("    def _report_join_point(self, task_allocations):\n        if self.executor_future is not None:\n            self.executor_future.result()\n        self.send_samples()\n"
+               "        self.cancel.clear()\n        self.complete.clear()\n        self.executor_future = None\n        self.sampler = None\n"
+               "        self.send(self.driver_actor, JoinPointReached(self.worker_id, task_allocations))\n\n")
+_AJP_AT = "    def at_joinpoint(self):\n        return self.client_allocations"
+_HSET_OLD = ("                \"Worker[%s] has received CompleteCurrentTask. Completing tasks at index [%d].\", str(self.worker_id), self.current_task_index\n            )\n"
+             "            self.complete.set()\n")
+
+VARIANTS += [
+    [V("h2 keep: join-point branch of Worker.drive in a private helper", "keep", _D, _JPB_OLD, "            self._report_join_point(task_allocations)\n"), V("", "keep", _D, _AJP_AT, _JPB_HELPER + _AJP_AT)],
+    [V("h2 break: the join-point helper leaves the complete event set", "break", _D, _JPB_OLD, "            self._report_join_point(task_allocations)\n", "O1.5"),
+     V("", "break", _D, _AJP_AT, _JPB_HELPER.replace("        self.complete.clear()\n", "") + _AJP_AT)],
+    [V("h2 break: the join-point helper does not wait for the executor", "break", _D, _JPB_OLD, "            self._report_join_point(task_allocations)\n", "O1.5"),
+     V("", "break", _D, _AJP_AT, _JPB_HELPER.replace("        if self.executor_future is not None:\n            self.executor_future.result()\n", "") + _AJP_AT)],
+    [V("h2 keep: complete.set() of the handler in a private helper", "keep", _D, _HSET_OLD, _HSET_OLD.replace("self.complete.set()", "self._remember_completion()")),
+     V("", "keep", _D, _AJP_AT, "    def _remember_completion(self):\n        self.complete.set()\n\n" + _AJP_AT)],
+    [V("h2 break: a second caller sets the complete event through the helper", "break", _D, _HSET_OLD, _HSET_OLD.replace("self.complete.set()", "self._remember_completion()"), "O1.6"),
+     V("", "break", _D, _AJP_AT, "    def _remember_completion(self):\n        self.complete.set()\n\n" + _AJP_AT),
+     V("", "break", _D, "            self.start_driving = False\n            self.drive()", "            self.start_driving = False\n            self._remember_completion()\n            self.drive()")],
+    V("h2 keep: closed step's arrival map through two locals", "keep", _D, "            workers_curr_step = self.workers_completed_current_step\n",
+      "            arrivals = self.workers_completed_current_step\n            workers_curr_step = arrivals\n"),
+    V("h2 keep: finished() held in a local", "keep", _D, "            if self.finished():\n                self.telemetry.on_benchmark_stop()", "            all_done = self.finished()\n            if all_done:\n                self.telemetry.on_benchmark_stop()"),
+    V("h2 break: finished() evaluated before the step is counted", "break", _D, "            self.update_progress_message(task_finished=True)\n            # clear per step\n",
+      "            self.update_progress_message(task_finished=True)\n            all_done = self.finished()\n            # clear per step\n", "O1.3"),
 ]
